@@ -9,6 +9,12 @@ type nat =
 | O
 | S of nat
 
+(** val option_map : ('a1 -> 'a2) -> 'a1 option -> 'a2 option **)
+
+let option_map f = function
+| Some a -> Some (f a)
+| None -> None
+
 (** val fst : ('a1 * 'a2) -> 'a1 **)
 
 let fst = function
@@ -37,12 +43,23 @@ type comparison =
 | Lt
 | Gt
 
-(** val add : nat -> nat -> nat **)
+module Coq__1 = struct
+ (** val add : nat -> nat -> nat **)
+ let rec add n0 m =
+   match n0 with
+   | O -> m
+   | S p -> S (add p m)
+end
+include Coq__1
 
-let rec add n0 m =
+(** val sub : nat -> nat -> nat **)
+
+let rec sub n0 m =
   match n0 with
-  | O -> m
-  | S p -> S (add p m)
+  | O -> n0
+  | S k -> (match m with
+            | O -> n0
+            | S l -> sub k l)
 
 type positive =
 | XI of positive
@@ -53,8 +70,24 @@ type n =
 | N0
 | Npos of positive
 
+type z =
+| Z0
+| Zpos of positive
+| Zneg of positive
+
 module Nat =
  struct
+  (** val eqb : nat -> nat -> bool **)
+
+  let rec eqb n0 m =
+    match n0 with
+    | O -> (match m with
+            | O -> true
+            | S _ -> false)
+    | S n' -> (match m with
+               | O -> false
+               | S m' -> eqb n' m')
+
   (** val leb : nat -> nat -> bool **)
 
   let rec leb n0 m =
@@ -86,6 +119,45 @@ module Coq_Pos =
   | XI p -> XO (succ p)
   | XO p -> XI p
   | XH -> XO XH
+
+  (** val add : positive -> positive -> positive **)
+
+  let rec add x y =
+    match x with
+    | XI p ->
+      (match y with
+       | XI q -> XO (add_carry p q)
+       | XO q -> XI (add p q)
+       | XH -> XO (succ p))
+    | XO p ->
+      (match y with
+       | XI q -> XI (add p q)
+       | XO q -> XO (add p q)
+       | XH -> XI p)
+    | XH -> (match y with
+             | XI q -> XO (succ q)
+             | XO q -> XI q
+             | XH -> XO XH)
+
+  (** val add_carry : positive -> positive -> positive **)
+
+  and add_carry x y =
+    match x with
+    | XI p ->
+      (match y with
+       | XI q -> XI (add_carry p q)
+       | XO q -> XO (add_carry p q)
+       | XH -> XI (succ p))
+    | XO p ->
+      (match y with
+       | XI q -> XO (add_carry p q)
+       | XO q -> XI (add p q)
+       | XH -> XO (succ p))
+    | XH ->
+      (match y with
+       | XI q -> XI (succ q)
+       | XO q -> XO (succ q)
+       | XH -> XI XH)
 
   (** val pred_double : positive -> positive **)
 
@@ -153,6 +225,14 @@ module Coq_Pos =
        | XH -> double_pred_mask p)
     | XH -> IsNeg
 
+  (** val mul : positive -> positive -> positive **)
+
+  let rec mul x y =
+    match x with
+    | XI p -> add y (XO (mul p y))
+    | XO p -> XO (mul p y)
+    | XH -> y
+
   (** val size : positive -> positive **)
 
   let rec size = function
@@ -208,7 +288,7 @@ module Coq_Pos =
   (** val to_nat : positive -> nat **)
 
   let to_nat x =
-    iter_op add x (S O)
+    iter_op Coq__1.add x (S O)
 
   (** val of_succ_nat : nat -> positive **)
 
@@ -231,6 +311,15 @@ module N =
   | N0 -> N0
   | Npos p -> Npos (XO p)
 
+  (** val add : n -> n -> n **)
+
+  let add n0 m =
+    match n0 with
+    | N0 -> m
+    | Npos p -> (match m with
+                 | N0 -> n0
+                 | Npos q -> Npos (Coq_Pos.add p q))
+
   (** val sub : n -> n -> n **)
 
   let sub n0 m =
@@ -243,6 +332,15 @@ module N =
          (match Coq_Pos.sub_mask n' m' with
           | Coq_Pos.IsPos p -> Npos p
           | _ -> N0))
+
+  (** val mul : n -> n -> n **)
+
+  let mul n0 m =
+    match n0 with
+    | N0 -> N0
+    | Npos p -> (match m with
+                 | N0 -> N0
+                 | Npos q -> Npos (Coq_Pos.mul p q))
 
   (** val compare : n -> n -> comparison **)
 
@@ -366,17 +464,126 @@ let ascii_of_N = function
 let ascii_of_nat a =
   ascii_of_N (N.of_nat a)
 
+(** val n_of_digits : bool list -> n **)
+
+let rec n_of_digits = function
+| [] -> N0
+| b :: l' ->
+  N.add (if b then Npos XH else N0) (N.mul (Npos (XO XH)) (n_of_digits l'))
+
+(** val n_of_ascii : char -> n **)
+
+let n_of_ascii a =
+  (* If this appears, you're using Ascii internals. Please don't *)
+ (fun f c ->
+  let n = Char.code c in
+  let h i = (n land (1 lsl i)) <> 0 in
+  f (h 0) (h 1) (h 2) (h 3) (h 4) (h 5) (h 6) (h 7))
+    (fun a0 a1 a2 a3 a4 a5 a6 a7 ->
+    n_of_digits
+      (a0 :: (a1 :: (a2 :: (a3 :: (a4 :: (a5 :: (a6 :: (a7 :: [])))))))))
+    a
+
+(** val nat_of_ascii : char -> nat **)
+
+let nat_of_ascii a =
+  N.to_nat (n_of_ascii a)
+
+(** val hd : 'a1 -> 'a1 list -> 'a1 **)
+
+let hd default = function
+| [] -> default
+| x :: _ -> x
+
+(** val nth : nat -> 'a1 list -> 'a1 -> 'a1 **)
+
+let rec nth n0 l default =
+  match n0 with
+  | O -> (match l with
+          | [] -> default
+          | x :: _ -> x)
+  | S m -> (match l with
+            | [] -> default
+            | _ :: t -> nth m t default)
+
+(** val last : 'a1 list -> 'a1 -> 'a1 **)
+
+let rec last l d =
+  match l with
+  | [] -> d
+  | a :: l0 -> (match l0 with
+                | [] -> a
+                | _ :: _ -> last l0 d)
+
+(** val removelast : 'a1 list -> 'a1 list **)
+
+let rec removelast = function
+| [] -> []
+| a :: l0 -> (match l0 with
+              | [] -> []
+              | _ :: _ -> a :: (removelast l0))
+
 (** val map : ('a1 -> 'a2) -> 'a1 list -> 'a2 list **)
 
 let rec map f = function
 | [] -> []
 | a :: t -> (f a) :: (map f t)
 
+(** val flat_map : ('a1 -> 'a2 list) -> 'a1 list -> 'a2 list **)
+
+let rec flat_map f = function
+| [] -> []
+| x :: t -> app (f x) (flat_map f t)
+
+(** val fold_left : ('a1 -> 'a2 -> 'a1) -> 'a2 list -> 'a1 -> 'a1 **)
+
+let rec fold_left f l a0 =
+  match l with
+  | [] -> a0
+  | b :: t -> fold_left f t (f a0 b)
+
+(** val existsb : ('a1 -> bool) -> 'a1 list -> bool **)
+
+let rec existsb f = function
+| [] -> false
+| a :: l0 -> (||) (f a) (existsb f l0)
+
 (** val forallb : ('a1 -> bool) -> 'a1 list -> bool **)
 
 let rec forallb f = function
 | [] -> true
 | a :: l0 -> (&&) (f a) (forallb f l0)
+
+(** val skipn : nat -> 'a1 list -> 'a1 list **)
+
+let rec skipn n0 l =
+  match n0 with
+  | O -> l
+  | S n1 -> (match l with
+             | [] -> []
+             | _ :: l0 -> skipn n1 l0)
+
+module Z =
+ struct
+  (** val opp : z -> z **)
+
+  let opp = function
+  | Z0 -> Z0
+  | Zpos x0 -> Zneg x0
+  | Zneg x0 -> Zpos x0
+
+  (** val to_nat : z -> nat **)
+
+  let to_nat = function
+  | Zpos p -> Coq_Pos.to_nat p
+  | _ -> O
+
+  (** val of_N : n -> z **)
+
+  let of_N = function
+  | N0 -> Z0
+  | Npos p -> Zpos p
+ end
 
 (** val eqb0 : char list -> char list -> bool **)
 
@@ -455,6 +662,21 @@ let rec list_str_eqb a b =
      | [] -> false
      | y :: b' -> (&&) (eqb0 x y) (list_str_eqb a' b'))
 
+(** val concat_str : char list list -> char list **)
+
+let rec concat_str = function
+| [] -> []
+| x :: r -> append x (concat_str r)
+
+(** val join_str : char list -> char list list -> char list **)
+
+let rec join_str sep = function
+| [] -> []
+| x :: r ->
+  (match r with
+   | [] -> x
+   | _ :: _ -> append x (append sep (join_str sep r)))
+
 (** val digit_char : nat -> char **)
 
 let digit_char n0 =
@@ -484,6 +706,72 @@ let dec_N n0 =
 
 let dec_nat n0 =
   dec_N (N.of_nat n0)
+
+(** val is_digit : char -> bool **)
+
+let is_digit c =
+  let n0 = nat_of_ascii c in
+  (&&)
+    (Nat.leb (S (S (S (S (S (S (S (S (S (S (S (S (S (S (S (S (S (S (S (S (S
+      (S (S (S (S (S (S (S (S (S (S (S (S (S (S (S (S (S (S (S (S (S (S (S (S
+      (S (S (S O)))))))))))))))))))))))))))))))))))))))))))))))) n0)
+    (Nat.leb n0 (S (S (S (S (S (S (S (S (S (S (S (S (S (S (S (S (S (S (S (S
+      (S (S (S (S (S (S (S (S (S (S (S (S (S (S (S (S (S (S (S (S (S (S (S (S
+      (S (S (S (S (S (S (S (S (S (S (S (S (S
+      O))))))))))))))))))))))))))))))))))))))))))))))))))))))))))
+
+(** val parse_N_acc : char list -> n -> n option **)
+
+let rec parse_N_acc s acc =
+  match s with
+  | [] -> Some acc
+  | c::r ->
+    if is_digit c
+    then parse_N_acc r
+           (N.add (N.mul acc (Npos (XO (XI (XO XH)))))
+             (N.of_nat
+               (sub (nat_of_ascii c) (S (S (S (S (S (S (S (S (S (S (S (S (S
+                 (S (S (S (S (S (S (S (S (S (S (S (S (S (S (S (S (S (S (S (S
+                 (S (S (S (S (S (S (S (S (S (S (S (S (S (S (S
+                 O)))))))))))))))))))))))))))))))))))))))))))))))))))
+    else None
+
+(** val parse_N : char list -> n option **)
+
+let parse_N s = match s with
+| [] -> None
+| _::_ -> parse_N_acc s N0
+
+(** val parse_Z : char list -> z option **)
+
+let parse_Z s = match s with
+| [] -> option_map Z.of_N (parse_N s)
+| a::r ->
+  (* If this appears, you're using Ascii internals. Please don't *)
+ (fun f c ->
+  let n = Char.code c in
+  let h i = (n land (1 lsl i)) <> 0 in
+  f (h 0) (h 1) (h 2) (h 3) (h 4) (h 5) (h 6) (h 7))
+    (fun b b0 b1 b2 b3 b4 b5 b6 ->
+    if b
+    then if b0
+         then option_map Z.of_N (parse_N s)
+         else if b1
+              then if b2
+                   then if b3
+                        then option_map Z.of_N (parse_N s)
+                        else if b4
+                             then if b5
+                                  then option_map Z.of_N (parse_N s)
+                                  else if b6
+                                       then option_map Z.of_N (parse_N s)
+                                       else option_map (fun n0 ->
+                                              Z.opp (Z.of_N n0)) (parse_N r)
+                             else option_map Z.of_N (parse_N s)
+                   else option_map Z.of_N (parse_N s)
+              else option_map Z.of_N (parse_N s)
+    else option_map Z.of_N (parse_N s))
+    a
 
 type sexp =
 | SAtom of char list
@@ -546,6 +834,307 @@ let rec d_list d = function
 let d_strs = function
 | SAtom _ -> None
 | SList l -> d_list d_str l
+
+(** val d_Z : sexp -> z option **)
+
+let d_Z = function
+| SAtom a -> parse_Z a
+| SList _ -> None
+
+(** val d_nat : sexp -> nat option **)
+
+let d_nat s =
+  option_map Z.to_nat (d_Z s)
+
+(** val d_bool : sexp -> bool option **)
+
+let d_bool = function
+| SAtom s0 ->
+  (match s0 with
+   | [] -> None
+   | a::s1 ->
+     (* If this appears, you're using Ascii internals. Please don't *)
+ (fun f c ->
+  let n = Char.code c in
+  let h i = (n land (1 lsl i)) <> 0 in
+  f (h 0) (h 1) (h 2) (h 3) (h 4) (h 5) (h 6) (h 7))
+       (fun b b0 b1 b2 b3 b4 b5 b6 ->
+       if b
+       then None
+       else if b0
+            then if b1
+                 then if b2
+                      then None
+                      else if b3
+                           then None
+                           else if b4
+                                then if b5
+                                     then if b6
+                                          then None
+                                          else (match s1 with
+                                                | [] -> None
+                                                | a0::s2 ->
+                                                  (* If this appears, you're using Ascii internals. Please don't *)
+ (fun f c ->
+  let n = Char.code c in
+  let h i = (n land (1 lsl i)) <> 0 in
+  f (h 0) (h 1) (h 2) (h 3) (h 4) (h 5) (h 6) (h 7))
+                                                    (fun b7 b8 b9 b10 b11 b12 b13 b14 ->
+                                                    if b7
+                                                    then if b8
+                                                         then None
+                                                         else if b9
+                                                              then None
+                                                              else if b10
+                                                                   then None
+                                                                   else 
+                                                                    if b11
+                                                                    then None
+                                                                    else 
+                                                                    if b12
+                                                                    then 
+                                                                    if b13
+                                                                    then 
+                                                                    if b14
+                                                                    then None
+                                                                    else 
+                                                                    (match s2 with
+                                                                    | [] ->
+                                                                    None
+                                                                    | a1::s3 ->
+                                                                    (* If this appears, you're using Ascii internals. Please don't *)
+ (fun f c ->
+  let n = Char.code c in
+  let h i = (n land (1 lsl i)) <> 0 in
+  f (h 0) (h 1) (h 2) (h 3) (h 4) (h 5) (h 6) (h 7))
+                                                                    (fun b15 b16 b17 b18 b19 b20 b21 b22 ->
+                                                                    if b15
+                                                                    then None
+                                                                    else 
+                                                                    if b16
+                                                                    then None
+                                                                    else 
+                                                                    if b17
+                                                                    then 
+                                                                    if b18
+                                                                    then 
+                                                                    if b19
+                                                                    then None
+                                                                    else 
+                                                                    if b20
+                                                                    then 
+                                                                    if b21
+                                                                    then 
+                                                                    if b22
+                                                                    then None
+                                                                    else 
+                                                                    (match s3 with
+                                                                    | [] ->
+                                                                    None
+                                                                    | a2::s4 ->
+                                                                    (* If this appears, you're using Ascii internals. Please don't *)
+ (fun f c ->
+  let n = Char.code c in
+  let h i = (n land (1 lsl i)) <> 0 in
+  f (h 0) (h 1) (h 2) (h 3) (h 4) (h 5) (h 6) (h 7))
+                                                                    (fun b23 b24 b25 b26 b27 b28 b29 b30 ->
+                                                                    if b23
+                                                                    then 
+                                                                    if b24
+                                                                    then 
+                                                                    if b25
+                                                                    then None
+                                                                    else 
+                                                                    if b26
+                                                                    then None
+                                                                    else 
+                                                                    if b27
+                                                                    then 
+                                                                    if b28
+                                                                    then 
+                                                                    if b29
+                                                                    then 
+                                                                    if b30
+                                                                    then None
+                                                                    else 
+                                                                    (match s4 with
+                                                                    | [] ->
+                                                                    None
+                                                                    | a3::s5 ->
+                                                                    (* If this appears, you're using Ascii internals. Please don't *)
+ (fun f c ->
+  let n = Char.code c in
+  let h i = (n land (1 lsl i)) <> 0 in
+  f (h 0) (h 1) (h 2) (h 3) (h 4) (h 5) (h 6) (h 7))
+                                                                    (fun b31 b32 b33 b34 b35 b36 b37 b38 ->
+                                                                    if b31
+                                                                    then 
+                                                                    if b32
+                                                                    then None
+                                                                    else 
+                                                                    if b33
+                                                                    then 
+                                                                    if b34
+                                                                    then None
+                                                                    else 
+                                                                    if b35
+                                                                    then None
+                                                                    else 
+                                                                    if b36
+                                                                    then 
+                                                                    if b37
+                                                                    then 
+                                                                    if b38
+                                                                    then None
+                                                                    else 
+                                                                    (match s5 with
+                                                                    | [] ->
+                                                                    Some false
+                                                                    | _::_ ->
+                                                                    None)
+                                                                    else None
+                                                                    else None
+                                                                    else None
+                                                                    else None)
+                                                                    a3)
+                                                                    else None
+                                                                    else None
+                                                                    else None
+                                                                    else None
+                                                                    else None)
+                                                                    a2)
+                                                                    else None
+                                                                    else None
+                                                                    else None
+                                                                    else None)
+                                                                    a1)
+                                                                    else None
+                                                                    else None
+                                                    else None)
+                                                    a0)
+                                     else None
+                                else None
+                 else None
+            else if b1
+                 then if b2
+                      then None
+                      else if b3
+                           then if b4
+                                then if b5
+                                     then if b6
+                                          then None
+                                          else (match s1 with
+                                                | [] -> None
+                                                | a0::s2 ->
+                                                  (* If this appears, you're using Ascii internals. Please don't *)
+ (fun f c ->
+  let n = Char.code c in
+  let h i = (n land (1 lsl i)) <> 0 in
+  f (h 0) (h 1) (h 2) (h 3) (h 4) (h 5) (h 6) (h 7))
+                                                    (fun b7 b8 b9 b10 b11 b12 b13 b14 ->
+                                                    if b7
+                                                    then None
+                                                    else if b8
+                                                         then if b9
+                                                              then None
+                                                              else if b10
+                                                                   then None
+                                                                   else 
+                                                                    if b11
+                                                                    then 
+                                                                    if b12
+                                                                    then 
+                                                                    if b13
+                                                                    then 
+                                                                    if b14
+                                                                    then None
+                                                                    else 
+                                                                    (match s2 with
+                                                                    | [] ->
+                                                                    None
+                                                                    | a1::s3 ->
+                                                                    (* If this appears, you're using Ascii internals. Please don't *)
+ (fun f c ->
+  let n = Char.code c in
+  let h i = (n land (1 lsl i)) <> 0 in
+  f (h 0) (h 1) (h 2) (h 3) (h 4) (h 5) (h 6) (h 7))
+                                                                    (fun b15 b16 b17 b18 b19 b20 b21 b22 ->
+                                                                    if b15
+                                                                    then 
+                                                                    if b16
+                                                                    then None
+                                                                    else 
+                                                                    if b17
+                                                                    then 
+                                                                    if b18
+                                                                    then None
+                                                                    else 
+                                                                    if b19
+                                                                    then 
+                                                                    if b20
+                                                                    then 
+                                                                    if b21
+                                                                    then 
+                                                                    if b22
+                                                                    then None
+                                                                    else 
+                                                                    (match s3 with
+                                                                    | [] ->
+                                                                    None
+                                                                    | a2::s4 ->
+                                                                    (* If this appears, you're using Ascii internals. Please don't *)
+ (fun f c ->
+  let n = Char.code c in
+  let h i = (n land (1 lsl i)) <> 0 in
+  f (h 0) (h 1) (h 2) (h 3) (h 4) (h 5) (h 6) (h 7))
+                                                                    (fun b23 b24 b25 b26 b27 b28 b29 b30 ->
+                                                                    if b23
+                                                                    then 
+                                                                    if b24
+                                                                    then None
+                                                                    else 
+                                                                    if b25
+                                                                    then 
+                                                                    if b26
+                                                                    then None
+                                                                    else 
+                                                                    if b27
+                                                                    then None
+                                                                    else 
+                                                                    if b28
+                                                                    then 
+                                                                    if b29
+                                                                    then 
+                                                                    if b30
+                                                                    then None
+                                                                    else 
+                                                                    (match s4 with
+                                                                    | [] ->
+                                                                    Some true
+                                                                    | _::_ ->
+                                                                    None)
+                                                                    else None
+                                                                    else None
+                                                                    else None
+                                                                    else None)
+                                                                    a2)
+                                                                    else None
+                                                                    else None
+                                                                    else None
+                                                                    else None
+                                                                    else None)
+                                                                    a1)
+                                                                    else None
+                                                                    else None
+                                                                    else None
+                                                         else None)
+                                                    a0)
+                                     else None
+                                else None
+                           else None
+                 else None)
+       a)
+| SList _ -> None
 
 (** val bad_input : sexp **)
 
@@ -894,36 +1483,2898 @@ let audit e doc =
 (** val math_rows : mrow list **)
 
 let math_rows =
-  []
+  { m_py = ('s'::('i'::('n'::[]))); m_cpp =
+    ('s'::('t'::('d'::(':'::(':'::('s'::('i'::('n'::[])))))))); m_inc =
+    (('c'::('m'::('a'::('t'::('h'::[]))))) :: []); m_ret =
+    ('d'::('o'::('u'::('b'::('l'::('e'::[])))))) } :: ({ m_py =
+    ('c'::('o'::('s'::[]))); m_cpp =
+    ('s'::('t'::('d'::(':'::(':'::('c'::('o'::('s'::[])))))))); m_inc =
+    (('c'::('m'::('a'::('t'::('h'::[]))))) :: []); m_ret =
+    ('d'::('o'::('u'::('b'::('l'::('e'::[])))))) } :: ({ m_py =
+    ('t'::('a'::('n'::[]))); m_cpp =
+    ('s'::('t'::('d'::(':'::(':'::('t'::('a'::('n'::[])))))))); m_inc =
+    (('c'::('m'::('a'::('t'::('h'::[]))))) :: []); m_ret =
+    ('d'::('o'::('u'::('b'::('l'::('e'::[])))))) } :: ({ m_py =
+    ('a'::('c'::('o'::('s'::[])))); m_cpp =
+    ('s'::('t'::('d'::(':'::(':'::('a'::('c'::('o'::('s'::[])))))))));
+    m_inc = (('c'::('m'::('a'::('t'::('h'::[]))))) :: []); m_ret =
+    ('d'::('o'::('u'::('b'::('l'::('e'::[])))))) } :: ({ m_py =
+    ('a'::('s'::('i'::('n'::[])))); m_cpp =
+    ('s'::('t'::('d'::(':'::(':'::('a'::('s'::('i'::('n'::[])))))))));
+    m_inc = (('c'::('m'::('a'::('t'::('h'::[]))))) :: []); m_ret =
+    ('d'::('o'::('u'::('b'::('l'::('e'::[])))))) } :: ({ m_py =
+    ('a'::('t'::('a'::('n'::[])))); m_cpp =
+    ('s'::('t'::('d'::(':'::(':'::('a'::('t'::('a'::('n'::[])))))))));
+    m_inc = (('c'::('m'::('a'::('t'::('h'::[]))))) :: []); m_ret =
+    ('d'::('o'::('u'::('b'::('l'::('e'::[])))))) } :: ({ m_py =
+    ('a'::('t'::('a'::('n'::('2'::[]))))); m_cpp =
+    ('s'::('t'::('d'::(':'::(':'::('a'::('t'::('a'::('n'::('2'::[]))))))))));
+    m_inc = (('c'::('m'::('a'::('t'::('h'::[]))))) :: []); m_ret =
+    ('d'::('o'::('u'::('b'::('l'::('e'::[])))))) } :: ({ m_py =
+    ('s'::('i'::('n'::('h'::[])))); m_cpp =
+    ('s'::('t'::('d'::(':'::(':'::('s'::('i'::('n'::('h'::[])))))))));
+    m_inc = (('c'::('m'::('a'::('t'::('h'::[]))))) :: []); m_ret =
+    ('d'::('o'::('u'::('b'::('l'::('e'::[])))))) } :: ({ m_py =
+    ('c'::('o'::('s'::('h'::[])))); m_cpp =
+    ('s'::('t'::('d'::(':'::(':'::('c'::('o'::('s'::('h'::[])))))))));
+    m_inc = (('c'::('m'::('a'::('t'::('h'::[]))))) :: []); m_ret =
+    ('d'::('o'::('u'::('b'::('l'::('e'::[])))))) } :: ({ m_py =
+    ('t'::('a'::('n'::('h'::[])))); m_cpp =
+    ('s'::('t'::('d'::(':'::(':'::('t'::('a'::('n'::('h'::[])))))))));
+    m_inc = (('c'::('m'::('a'::('t'::('h'::[]))))) :: []); m_ret =
+    ('d'::('o'::('u'::('b'::('l'::('e'::[])))))) } :: ({ m_py =
+    ('a'::('s'::('i'::('n'::('h'::[]))))); m_cpp =
+    ('s'::('t'::('d'::(':'::(':'::('a'::('s'::('i'::('n'::('h'::[]))))))))));
+    m_inc = (('c'::('m'::('a'::('t'::('h'::[]))))) :: []); m_ret =
+    ('d'::('o'::('u'::('b'::('l'::('e'::[])))))) } :: ({ m_py =
+    ('a'::('c'::('o'::('s'::('h'::[]))))); m_cpp =
+    ('s'::('t'::('d'::(':'::(':'::('a'::('c'::('o'::('s'::('h'::[]))))))))));
+    m_inc = (('c'::('m'::('a'::('t'::('h'::[]))))) :: []); m_ret =
+    ('d'::('o'::('u'::('b'::('l'::('e'::[])))))) } :: ({ m_py =
+    ('a'::('t'::('a'::('n'::('h'::[]))))); m_cpp =
+    ('s'::('t'::('d'::(':'::(':'::('a'::('t'::('a'::('n'::('h'::[]))))))))));
+    m_inc = (('c'::('m'::('a'::('t'::('h'::[]))))) :: []); m_ret =
+    ('d'::('o'::('u'::('b'::('l'::('e'::[])))))) } :: ({ m_py =
+    ('e'::('x'::('p'::[]))); m_cpp =
+    ('s'::('t'::('d'::(':'::(':'::('e'::('x'::('p'::[])))))))); m_inc =
+    (('c'::('m'::('a'::('t'::('h'::[]))))) :: []); m_ret =
+    ('d'::('o'::('u'::('b'::('l'::('e'::[])))))) } :: ({ m_py =
+    ('l'::('d'::('e'::('x'::('p'::[]))))); m_cpp =
+    ('s'::('t'::('d'::(':'::(':'::('l'::('d'::('e'::('x'::('p'::[]))))))))));
+    m_inc = (('c'::('m'::('a'::('t'::('h'::[]))))) :: []); m_ret =
+    ('d'::('o'::('u'::('b'::('l'::('e'::[])))))) } :: ({ m_py =
+    ('l'::('o'::('g'::[]))); m_cpp =
+    ('s'::('t'::('d'::(':'::(':'::('l'::('o'::('g'::[])))))))); m_inc =
+    (('c'::('m'::('a'::('t'::('h'::[]))))) :: []); m_ret =
+    ('d'::('o'::('u'::('b'::('l'::('e'::[])))))) } :: ({ m_py =
+    ('l'::('n'::[])); m_cpp =
+    ('s'::('t'::('d'::(':'::(':'::('l'::('o'::('g'::[])))))))); m_inc =
+    (('c'::('m'::('a'::('t'::('h'::[]))))) :: []); m_ret =
+    ('d'::('o'::('u'::('b'::('l'::('e'::[])))))) } :: ({ m_py =
+    ('l'::('o'::('g'::('1'::('0'::[]))))); m_cpp =
+    ('s'::('t'::('d'::(':'::(':'::('l'::('o'::('g'::('1'::('0'::[]))))))))));
+    m_inc = (('c'::('m'::('a'::('t'::('h'::[]))))) :: []); m_ret =
+    ('d'::('o'::('u'::('b'::('l'::('e'::[])))))) } :: ({ m_py =
+    ('e'::('x'::('p'::('2'::[])))); m_cpp =
+    ('s'::('t'::('d'::(':'::(':'::('e'::('x'::('p'::('2'::[])))))))));
+    m_inc = (('c'::('m'::('a'::('t'::('h'::[]))))) :: []); m_ret =
+    ('d'::('o'::('u'::('b'::('l'::('e'::[])))))) } :: ({ m_py =
+    ('e'::('x'::('p'::('m'::('1'::[]))))); m_cpp =
+    ('s'::('t'::('d'::(':'::(':'::('e'::('x'::('p'::('m'::('1'::[]))))))))));
+    m_inc = (('c'::('m'::('a'::('t'::('h'::[]))))) :: []); m_ret =
+    ('d'::('o'::('u'::('b'::('l'::('e'::[])))))) } :: ({ m_py =
+    ('i'::('l'::('o'::('g'::('b'::[]))))); m_cpp =
+    ('s'::('t'::('d'::(':'::(':'::('i'::('l'::('o'::('g'::('b'::[]))))))))));
+    m_inc = (('c'::('m'::('a'::('t'::('h'::[]))))) :: []); m_ret =
+    ('d'::('o'::('u'::('b'::('l'::('e'::[])))))) } :: ({ m_py =
+    ('l'::('o'::('g'::('1'::('p'::[]))))); m_cpp =
+    ('s'::('t'::('d'::(':'::(':'::('l'::('o'::('g'::('1'::('p'::[]))))))))));
+    m_inc = (('c'::('m'::('a'::('t'::('h'::[]))))) :: []); m_ret =
+    ('d'::('o'::('u'::('b'::('l'::('e'::[])))))) } :: ({ m_py =
+    ('l'::('o'::('g'::('2'::[])))); m_cpp =
+    ('s'::('t'::('d'::(':'::(':'::('l'::('o'::('g'::('2'::[])))))))));
+    m_inc = (('c'::('m'::('a'::('t'::('h'::[]))))) :: []); m_ret =
+    ('d'::('o'::('u'::('b'::('l'::('e'::[])))))) } :: ({ m_py =
+    ('s'::('c'::('a'::('l'::('b'::('n'::[])))))); m_cpp =
+    ('s'::('t'::('d'::(':'::(':'::('s'::('c'::('a'::('l'::('b'::('n'::[])))))))))));
+    m_inc = (('c'::('m'::('a'::('t'::('h'::[]))))) :: []); m_ret =
+    ('d'::('o'::('u'::('b'::('l'::('e'::[])))))) } :: ({ m_py =
+    ('s'::('c'::('a'::('l'::('b'::('l'::('n'::[]))))))); m_cpp =
+    ('s'::('t'::('d'::(':'::(':'::('s'::('c'::('a'::('l'::('b'::('l'::('n'::[]))))))))))));
+    m_inc = (('c'::('m'::('a'::('t'::('h'::[]))))) :: []); m_ret =
+    ('d'::('o'::('u'::('b'::('l'::('e'::[])))))) } :: ({ m_py =
+    ('p'::('o'::('w'::[]))); m_cpp =
+    ('s'::('t'::('d'::(':'::(':'::('p'::('o'::('w'::[])))))))); m_inc =
+    (('c'::('m'::('a'::('t'::('h'::[]))))) :: []); m_ret =
+    ('d'::('o'::('u'::('b'::('l'::('e'::[])))))) } :: ({ m_py =
+    ('s'::('q'::('r'::('t'::[])))); m_cpp =
+    ('s'::('t'::('d'::(':'::(':'::('s'::('q'::('r'::('t'::[])))))))));
+    m_inc = (('c'::('m'::('a'::('t'::('h'::[]))))) :: []); m_ret =
+    ('d'::('o'::('u'::('b'::('l'::('e'::[])))))) } :: ({ m_py =
+    ('c'::('b'::('r'::('t'::[])))); m_cpp =
+    ('s'::('t'::('d'::(':'::(':'::('c'::('b'::('r'::('t'::[])))))))));
+    m_inc = (('c'::('m'::('a'::('t'::('h'::[]))))) :: []); m_ret =
+    ('d'::('o'::('u'::('b'::('l'::('e'::[])))))) } :: ({ m_py =
+    ('h'::('y'::('p'::('o'::('t'::[]))))); m_cpp =
+    ('s'::('t'::('d'::(':'::(':'::('h'::('y'::('p'::('o'::('t'::[]))))))))));
+    m_inc = (('c'::('m'::('a'::('t'::('h'::[]))))) :: []); m_ret =
+    ('d'::('o'::('u'::('b'::('l'::('e'::[])))))) } :: ({ m_py =
+    ('e'::('r'::('f'::[]))); m_cpp =
+    ('s'::('t'::('d'::(':'::(':'::('e'::('r'::('f'::[])))))))); m_inc =
+    (('c'::('m'::('a'::('t'::('h'::[]))))) :: []); m_ret =
+    ('d'::('o'::('u'::('b'::('l'::('e'::[])))))) } :: ({ m_py =
+    ('e'::('r'::('f'::('c'::[])))); m_cpp =
+    ('s'::('t'::('d'::(':'::(':'::('e'::('r'::('f'::('c'::[])))))))));
+    m_inc = (('c'::('m'::('a'::('t'::('h'::[]))))) :: []); m_ret =
+    ('d'::('o'::('u'::('b'::('l'::('e'::[])))))) } :: ({ m_py =
+    ('t'::('g'::('a'::('m'::('m'::('a'::[])))))); m_cpp =
+    ('s'::('t'::('d'::(':'::(':'::('t'::('g'::('a'::('m'::('m'::('a'::[])))))))))));
+    m_inc = (('c'::('m'::('a'::('t'::('h'::[]))))) :: []); m_ret =
+    ('d'::('o'::('u'::('b'::('l'::('e'::[])))))) } :: ({ m_py =
+    ('l'::('g'::('a'::('m'::('m'::('a'::[])))))); m_cpp =
+    ('s'::('t'::('d'::(':'::(':'::('l'::('g'::('a'::('m'::('m'::('a'::[])))))))))));
+    m_inc = (('c'::('m'::('a'::('t'::('h'::[]))))) :: []); m_ret =
+    ('d'::('o'::('u'::('b'::('l'::('e'::[])))))) } :: ({ m_py =
+    ('c'::('e'::('i'::('l'::[])))); m_cpp =
+    ('s'::('t'::('d'::(':'::(':'::('c'::('e'::('i'::('l'::[])))))))));
+    m_inc = (('c'::('m'::('a'::('t'::('h'::[]))))) :: []); m_ret =
+    ('d'::('o'::('u'::('b'::('l'::('e'::[])))))) } :: ({ m_py =
+    ('f'::('l'::('o'::('o'::('r'::[]))))); m_cpp =
+    ('s'::('t'::('d'::(':'::(':'::('f'::('l'::('o'::('o'::('r'::[]))))))))));
+    m_inc = (('c'::('m'::('a'::('t'::('h'::[]))))) :: []); m_ret =
+    ('d'::('o'::('u'::('b'::('l'::('e'::[])))))) } :: ({ m_py =
+    ('f'::('m'::('o'::('d'::[])))); m_cpp =
+    ('s'::('t'::('d'::(':'::(':'::('f'::('m'::('o'::('d'::[])))))))));
+    m_inc = (('c'::('m'::('a'::('t'::('h'::[]))))) :: []); m_ret =
+    ('d'::('o'::('u'::('b'::('l'::('e'::[])))))) } :: ({ m_py =
+    ('t'::('r'::('u'::('n'::('c'::[]))))); m_cpp =
+    ('s'::('t'::('d'::(':'::(':'::('t'::('r'::('u'::('n'::('c'::[]))))))))));
+    m_inc = (('c'::('m'::('a'::('t'::('h'::[]))))) :: []); m_ret =
+    ('d'::('o'::('u'::('b'::('l'::('e'::[])))))) } :: ({ m_py =
+    ('r'::('o'::('u'::('n'::('d'::[]))))); m_cpp =
+    ('s'::('t'::('d'::(':'::(':'::('r'::('o'::('u'::('n'::('d'::[]))))))))));
+    m_inc = (('c'::('m'::('a'::('t'::('h'::[]))))) :: []); m_ret =
+    ('d'::('o'::('u'::('b'::('l'::('e'::[])))))) } :: ({ m_py =
+    ('r'::('i'::('n'::('t'::[])))); m_cpp =
+    ('s'::('t'::('d'::(':'::(':'::('r'::('i'::('n'::('t'::[])))))))));
+    m_inc = (('c'::('m'::('a'::('t'::('h'::[]))))) :: []); m_ret =
+    ('d'::('o'::('u'::('b'::('l'::('e'::[])))))) } :: ({ m_py =
+    ('n'::('e'::('a'::('r'::('b'::('y'::('i'::('n'::('t'::[])))))))));
+    m_cpp =
+    ('s'::('t'::('d'::(':'::(':'::('n'::('e'::('a'::('r'::('b'::('y'::('i'::('n'::('t'::[]))))))))))))));
+    m_inc = (('c'::('m'::('a'::('t'::('h'::[]))))) :: []); m_ret =
+    ('d'::('o'::('u'::('b'::('l'::('e'::[])))))) } :: ({ m_py =
+    ('r'::('e'::('m'::('a'::('i'::('n'::('d'::('e'::('r'::[])))))))));
+    m_cpp =
+    ('s'::('t'::('d'::(':'::(':'::('r'::('e'::('m'::('a'::('i'::('n'::('d'::('e'::('r'::[]))))))))))))));
+    m_inc = (('c'::('m'::('a'::('t'::('h'::[]))))) :: []); m_ret =
+    ('d'::('o'::('u'::('b'::('l'::('e'::[])))))) } :: ({ m_py =
+    ('r'::('e'::('m'::('q'::('u'::('o'::[])))))); m_cpp =
+    ('s'::('t'::('d'::(':'::(':'::('r'::('e'::('m'::('q'::('u'::('o'::[])))))))))));
+    m_inc = (('c'::('m'::('a'::('t'::('h'::[]))))) :: []); m_ret =
+    ('d'::('o'::('u'::('b'::('l'::('e'::[])))))) } :: ({ m_py =
+    ('c'::('o'::('p'::('y'::('s'::('i'::('g'::('n'::[])))))))); m_cpp =
+    ('s'::('t'::('d'::(':'::(':'::('c'::('o'::('p'::('y'::('s'::('i'::('g'::('n'::[])))))))))))));
+    m_inc = (('c'::('m'::('a'::('t'::('h'::[]))))) :: []); m_ret =
+    ('d'::('o'::('u'::('b'::('l'::('e'::[])))))) } :: ({ m_py =
+    ('n'::('a'::('n'::[]))); m_cpp =
+    ('s'::('t'::('d'::(':'::(':'::('n'::('a'::('n'::[])))))))); m_inc =
+    (('c'::('m'::('a'::('t'::('h'::[]))))) :: []); m_ret =
+    ('d'::('o'::('u'::('b'::('l'::('e'::[])))))) } :: ({ m_py =
+    ('n'::('e'::('x'::('t'::('a'::('f'::('t'::('e'::('r'::[])))))))));
+    m_cpp =
+    ('s'::('t'::('d'::(':'::(':'::('n'::('e'::('x'::('t'::('a'::('f'::('t'::('e'::('r'::[]))))))))))))));
+    m_inc = (('c'::('m'::('a'::('t'::('h'::[]))))) :: []); m_ret =
+    ('d'::('o'::('u'::('b'::('l'::('e'::[])))))) } :: ({ m_py =
+    ('n'::('e'::('x'::('t'::('t'::('o'::('w'::('a'::('r'::('d'::[]))))))))));
+    m_cpp =
+    ('s'::('t'::('d'::(':'::(':'::('n'::('e'::('x'::('t'::('t'::('o'::('w'::('a'::('r'::('d'::[])))))))))))))));
+    m_inc = (('c'::('m'::('a'::('t'::('h'::[]))))) :: []); m_ret =
+    ('d'::('o'::('u'::('b'::('l'::('e'::[])))))) } :: ({ m_py =
+    ('f'::('d'::('i'::('m'::[])))); m_cpp =
+    ('s'::('t'::('d'::(':'::(':'::('f'::('d'::('i'::('m'::[])))))))));
+    m_inc = (('c'::('m'::('a'::('t'::('h'::[]))))) :: []); m_ret =
+    ('d'::('o'::('u'::('b'::('l'::('e'::[])))))) } :: ({ m_py =
+    ('f'::('m'::('a'::('x'::[])))); m_cpp =
+    ('s'::('t'::('d'::(':'::(':'::('f'::('m'::('a'::('x'::[])))))))));
+    m_inc = (('c'::('m'::('a'::('t'::('h'::[]))))) :: []); m_ret =
+    ('d'::('o'::('u'::('b'::('l'::('e'::[])))))) } :: ({ m_py =
+    ('f'::('m'::('i'::('n'::[])))); m_cpp =
+    ('s'::('t'::('d'::(':'::(':'::('f'::('m'::('i'::('n'::[])))))))));
+    m_inc = (('c'::('m'::('a'::('t'::('h'::[]))))) :: []); m_ret =
+    ('d'::('o'::('u'::('b'::('l'::('e'::[])))))) } :: ({ m_py =
+    ('f'::('a'::('b'::('s'::[])))); m_cpp =
+    ('s'::('t'::('d'::(':'::(':'::('f'::('a'::('b'::('s'::[])))))))));
+    m_inc = (('c'::('m'::('a'::('t'::('h'::[]))))) :: []); m_ret =
+    ('d'::('o'::('u'::('b'::('l'::('e'::[])))))) } :: ({ m_py =
+    ('a'::('b'::('s'::[]))); m_cpp =
+    ('s'::('t'::('d'::(':'::(':'::('f'::('a'::('b'::('s'::[])))))))));
+    m_inc = (('c'::('m'::('a'::('t'::('h'::[]))))) :: []); m_ret =
+    ('d'::('o'::('u'::('b'::('l'::('e'::[])))))) } :: ({ m_py =
+    ('f'::('m'::('a'::[]))); m_cpp =
+    ('s'::('t'::('d'::(':'::(':'::('f'::('m'::('a'::[])))))))); m_inc =
+    (('c'::('m'::('a'::('t'::('h'::[]))))) :: []); m_ret =
+    ('d'::('o'::('u'::('b'::('l'::('e'::[])))))) } :: ({ m_py =
+    ('b'::('u'::('i'::('l'::('t'::('i'::('n'::('s'::('.'::('a'::('b'::('s'::[]))))))))))));
+    m_cpp = ('s'::('t'::('d'::(':'::(':'::('a'::('b'::('s'::[]))))))));
+    m_inc = (('c'::('m'::('a'::('t'::('h'::[]))))) :: []); m_ret =
+    ('d'::('o'::('u'::('b'::('l'::('e'::[])))))) } :: ({ m_py =
+    ('b'::('u'::('i'::('l'::('t'::('i'::('n'::('s'::('.'::('p'::('o'::('w'::[]))))))))))));
+    m_cpp = ('s'::('t'::('d'::(':'::(':'::('p'::('o'::('w'::[]))))))));
+    m_inc = (('c'::('m'::('a'::('t'::('h'::[]))))) :: []); m_ret =
+    ('d'::('o'::('u'::('b'::('l'::('e'::[])))))) } :: ({ m_py =
+    ('b'::('u'::('i'::('l'::('t'::('i'::('n'::('s'::('.'::('r'::('o'::('u'::('n'::('d'::[]))))))))))))));
+    m_cpp =
+    ('s'::('t'::('d'::(':'::(':'::('r'::('o'::('u'::('n'::('d'::[]))))))))));
+    m_inc = (('c'::('m'::('a'::('t'::('h'::[]))))) :: []); m_ret =
+    ('d'::('o'::('u'::('b'::('l'::('e'::[])))))) } :: []))))))))))))))))))))))))))))))))))))))))))))))))))))))
 
 (** val module_names : char list list **)
 
 let module_names =
-  []
+  ('a'::('s'::('t'::[]))) :: (('n'::('a'::('m'::('e'::('d'::('t'::('u'::('p'::('l'::('e'::[])))))))))) :: (('F'::('u'::('n'::('c'::('t'::('i'::('o'::('n'::('A'::('S'::('T'::[]))))))))))) :: (('f'::('i'::('n'::('d'::('_'::('k'::('n'::('o'::('w'::('n'::('_'::('f'::('u'::('n'::('c'::('t'::('i'::('o'::('n'::('s'::[])))))))))))))))))))) :: (('a'::('d'::('d'::('_'::('f'::('u'::('n'::('c'::('t'::('i'::('o'::('n'::('_'::('m'::('a'::('p'::('p'::('i'::('n'::('g'::[])))))))))))))))))))) :: (('f'::('u'::('n'::('c'::('t'::('i'::('o'::('n'::('s'::('_'::('t'::('o'::('_'::('r'::('e'::('p'::('l'::('a'::('c'::('e'::[])))))))))))))))))))) :: (('c'::('p'::('p'::('_'::('f'::('u'::('n'::('c'::('t'::('i'::('o'::('n'::[])))))))))))) :: []))))))
 
 (** val builtin_names : (char list * char list) list **)
 
 let builtin_names =
-  []
+  (('A'::('r'::('i'::('t'::('h'::('m'::('e'::('t'::('i'::('c'::('E'::('r'::('r'::('o'::('r'::[]))))))))))))))),
+    ('b'::('u'::('i'::('l'::('t'::('i'::('n'::('s'::[]))))))))) :: ((('A'::('s'::('s'::('e'::('r'::('t'::('i'::('o'::('n'::('E'::('r'::('r'::('o'::('r'::[])))))))))))))),
+    ('b'::('u'::('i'::('l'::('t'::('i'::('n'::('s'::[]))))))))) :: ((('A'::('t'::('t'::('r'::('i'::('b'::('u'::('t'::('e'::('E'::('r'::('r'::('o'::('r'::[])))))))))))))),
+    ('b'::('u'::('i'::('l'::('t'::('i'::('n'::('s'::[]))))))))) :: ((('B'::('a'::('s'::('e'::('E'::('x'::('c'::('e'::('p'::('t'::('i'::('o'::('n'::[]))))))))))))),
+    ('b'::('u'::('i'::('l'::('t'::('i'::('n'::('s'::[]))))))))) :: ((('B'::('a'::('s'::('e'::('E'::('x'::('c'::('e'::('p'::('t'::('i'::('o'::('n'::('G'::('r'::('o'::('u'::('p'::[])))))))))))))))))),
+    ('b'::('u'::('i'::('l'::('t'::('i'::('n'::('s'::[]))))))))) :: ((('B'::('l'::('o'::('c'::('k'::('i'::('n'::('g'::('I'::('O'::('E'::('r'::('r'::('o'::('r'::[]))))))))))))))),
+    ('b'::('u'::('i'::('l'::('t'::('i'::('n'::('s'::[]))))))))) :: ((('B'::('r'::('o'::('k'::('e'::('n'::('P'::('i'::('p'::('e'::('E'::('r'::('r'::('o'::('r'::[]))))))))))))))),
+    ('b'::('u'::('i'::('l'::('t'::('i'::('n'::('s'::[]))))))))) :: ((('B'::('u'::('f'::('f'::('e'::('r'::('E'::('r'::('r'::('o'::('r'::[]))))))))))),
+    ('b'::('u'::('i'::('l'::('t'::('i'::('n'::('s'::[]))))))))) :: ((('B'::('y'::('t'::('e'::('s'::('W'::('a'::('r'::('n'::('i'::('n'::('g'::[])))))))))))),
+    ('b'::('u'::('i'::('l'::('t'::('i'::('n'::('s'::[]))))))))) :: ((('C'::('h'::('i'::('l'::('d'::('P'::('r'::('o'::('c'::('e'::('s'::('s'::('E'::('r'::('r'::('o'::('r'::[]))))))))))))))))),
+    ('b'::('u'::('i'::('l'::('t'::('i'::('n'::('s'::[]))))))))) :: ((('C'::('o'::('n'::('n'::('e'::('c'::('t'::('i'::('o'::('n'::('A'::('b'::('o'::('r'::('t'::('e'::('d'::('E'::('r'::('r'::('o'::('r'::[])))))))))))))))))))))),
+    ('b'::('u'::('i'::('l'::('t'::('i'::('n'::('s'::[]))))))))) :: ((('C'::('o'::('n'::('n'::('e'::('c'::('t'::('i'::('o'::('n'::('E'::('r'::('r'::('o'::('r'::[]))))))))))))))),
+    ('b'::('u'::('i'::('l'::('t'::('i'::('n'::('s'::[]))))))))) :: ((('C'::('o'::('n'::('n'::('e'::('c'::('t'::('i'::('o'::('n'::('R'::('e'::('f'::('u'::('s'::('e'::('d'::('E'::('r'::('r'::('o'::('r'::[])))))))))))))))))))))),
+    ('b'::('u'::('i'::('l'::('t'::('i'::('n'::('s'::[]))))))))) :: ((('C'::('o'::('n'::('n'::('e'::('c'::('t'::('i'::('o'::('n'::('R'::('e'::('s'::('e'::('t'::('E'::('r'::('r'::('o'::('r'::[])))))))))))))))))))),
+    ('b'::('u'::('i'::('l'::('t'::('i'::('n'::('s'::[]))))))))) :: ((('D'::('e'::('p'::('r'::('e'::('c'::('a'::('t'::('i'::('o'::('n'::('W'::('a'::('r'::('n'::('i'::('n'::('g'::[])))))))))))))))))),
+    ('b'::('u'::('i'::('l'::('t'::('i'::('n'::('s'::[]))))))))) :: ((('E'::('O'::('F'::('E'::('r'::('r'::('o'::('r'::[])))))))),
+    ('b'::('u'::('i'::('l'::('t'::('i'::('n'::('s'::[]))))))))) :: ((('E'::('l'::('l'::('i'::('p'::('s'::('i'::('s'::[])))))))),
+    ('-'::[])) :: ((('E'::('n'::('c'::('o'::('d'::('i'::('n'::('g'::('W'::('a'::('r'::('n'::('i'::('n'::('g'::[]))))))))))))))),
+    ('b'::('u'::('i'::('l'::('t'::('i'::('n'::('s'::[]))))))))) :: ((('E'::('n'::('v'::('i'::('r'::('o'::('n'::('m'::('e'::('n'::('t'::('E'::('r'::('r'::('o'::('r'::[])))))))))))))))),
+    ('b'::('u'::('i'::('l'::('t'::('i'::('n'::('s'::[]))))))))) :: ((('E'::('x'::('c'::('e'::('p'::('t'::('i'::('o'::('n'::[]))))))))),
+    ('b'::('u'::('i'::('l'::('t'::('i'::('n'::('s'::[]))))))))) :: ((('E'::('x'::('c'::('e'::('p'::('t'::('i'::('o'::('n'::('G'::('r'::('o'::('u'::('p'::[])))))))))))))),
+    ('b'::('u'::('i'::('l'::('t'::('i'::('n'::('s'::[]))))))))) :: ((('F'::('a'::('l'::('s'::('e'::[]))))),
+    ('-'::[])) :: ((('F'::('i'::('l'::('e'::('E'::('x'::('i'::('s'::('t'::('s'::('E'::('r'::('r'::('o'::('r'::[]))))))))))))))),
+    ('b'::('u'::('i'::('l'::('t'::('i'::('n'::('s'::[]))))))))) :: ((('F'::('i'::('l'::('e'::('N'::('o'::('t'::('F'::('o'::('u'::('n'::('d'::('E'::('r'::('r'::('o'::('r'::[]))))))))))))))))),
+    ('b'::('u'::('i'::('l'::('t'::('i'::('n'::('s'::[]))))))))) :: ((('F'::('l'::('o'::('a'::('t'::('i'::('n'::('g'::('P'::('o'::('i'::('n'::('t'::('E'::('r'::('r'::('o'::('r'::[])))))))))))))))))),
+    ('b'::('u'::('i'::('l'::('t'::('i'::('n'::('s'::[]))))))))) :: ((('F'::('u'::('t'::('u'::('r'::('e'::('W'::('a'::('r'::('n'::('i'::('n'::('g'::[]))))))))))))),
+    ('b'::('u'::('i'::('l'::('t'::('i'::('n'::('s'::[]))))))))) :: ((('G'::('e'::('n'::('e'::('r'::('a'::('t'::('o'::('r'::('E'::('x'::('i'::('t'::[]))))))))))))),
+    ('b'::('u'::('i'::('l'::('t'::('i'::('n'::('s'::[]))))))))) :: ((('I'::('O'::('E'::('r'::('r'::('o'::('r'::[]))))))),
+    ('b'::('u'::('i'::('l'::('t'::('i'::('n'::('s'::[]))))))))) :: ((('I'::('m'::('p'::('o'::('r'::('t'::('E'::('r'::('r'::('o'::('r'::[]))))))))))),
+    ('b'::('u'::('i'::('l'::('t'::('i'::('n'::('s'::[]))))))))) :: ((('I'::('m'::('p'::('o'::('r'::('t'::('W'::('a'::('r'::('n'::('i'::('n'::('g'::[]))))))))))))),
+    ('b'::('u'::('i'::('l'::('t'::('i'::('n'::('s'::[]))))))))) :: ((('I'::('n'::('d'::('e'::('n'::('t'::('a'::('t'::('i'::('o'::('n'::('E'::('r'::('r'::('o'::('r'::[])))))))))))))))),
+    ('b'::('u'::('i'::('l'::('t'::('i'::('n'::('s'::[]))))))))) :: ((('I'::('n'::('d'::('e'::('x'::('E'::('r'::('r'::('o'::('r'::[])))))))))),
+    ('b'::('u'::('i'::('l'::('t'::('i'::('n'::('s'::[]))))))))) :: ((('I'::('n'::('t'::('e'::('r'::('r'::('u'::('p'::('t'::('e'::('d'::('E'::('r'::('r'::('o'::('r'::[])))))))))))))))),
+    ('b'::('u'::('i'::('l'::('t'::('i'::('n'::('s'::[]))))))))) :: ((('I'::('s'::('A'::('D'::('i'::('r'::('e'::('c'::('t'::('o'::('r'::('y'::('E'::('r'::('r'::('o'::('r'::[]))))))))))))))))),
+    ('b'::('u'::('i'::('l'::('t'::('i'::('n'::('s'::[]))))))))) :: ((('K'::('e'::('y'::('E'::('r'::('r'::('o'::('r'::[])))))))),
+    ('b'::('u'::('i'::('l'::('t'::('i'::('n'::('s'::[]))))))))) :: ((('K'::('e'::('y'::('b'::('o'::('a'::('r'::('d'::('I'::('n'::('t'::('e'::('r'::('r'::('u'::('p'::('t'::[]))))))))))))))))),
+    ('b'::('u'::('i'::('l'::('t'::('i'::('n'::('s'::[]))))))))) :: ((('L'::('o'::('o'::('k'::('u'::('p'::('E'::('r'::('r'::('o'::('r'::[]))))))))))),
+    ('b'::('u'::('i'::('l'::('t'::('i'::('n'::('s'::[]))))))))) :: ((('M'::('e'::('m'::('o'::('r'::('y'::('E'::('r'::('r'::('o'::('r'::[]))))))))))),
+    ('b'::('u'::('i'::('l'::('t'::('i'::('n'::('s'::[]))))))))) :: ((('M'::('o'::('d'::('u'::('l'::('e'::('N'::('o'::('t'::('F'::('o'::('u'::('n'::('d'::('E'::('r'::('r'::('o'::('r'::[]))))))))))))))))))),
+    ('b'::('u'::('i'::('l'::('t'::('i'::('n'::('s'::[]))))))))) :: ((('N'::('a'::('m'::('e'::('E'::('r'::('r'::('o'::('r'::[]))))))))),
+    ('b'::('u'::('i'::('l'::('t'::('i'::('n'::('s'::[]))))))))) :: ((('N'::('o'::('n'::('e'::[])))),
+    ('-'::[])) :: ((('N'::('o'::('t'::('A'::('D'::('i'::('r'::('e'::('c'::('t'::('o'::('r'::('y'::('E'::('r'::('r'::('o'::('r'::[])))))))))))))))))),
+    ('b'::('u'::('i'::('l'::('t'::('i'::('n'::('s'::[]))))))))) :: ((('N'::('o'::('t'::('I'::('m'::('p'::('l'::('e'::('m'::('e'::('n'::('t'::('e'::('d'::[])))))))))))))),
+    ('-'::[])) :: ((('N'::('o'::('t'::('I'::('m'::('p'::('l'::('e'::('m'::('e'::('n'::('t'::('e'::('d'::('E'::('r'::('r'::('o'::('r'::[]))))))))))))))))))),
+    ('b'::('u'::('i'::('l'::('t'::('i'::('n'::('s'::[]))))))))) :: ((('O'::('S'::('E'::('r'::('r'::('o'::('r'::[]))))))),
+    ('b'::('u'::('i'::('l'::('t'::('i'::('n'::('s'::[]))))))))) :: ((('O'::('v'::('e'::('r'::('f'::('l'::('o'::('w'::('E'::('r'::('r'::('o'::('r'::[]))))))))))))),
+    ('b'::('u'::('i'::('l'::('t'::('i'::('n'::('s'::[]))))))))) :: ((('P'::('e'::('n'::('d'::('i'::('n'::('g'::('D'::('e'::('p'::('r'::('e'::('c'::('a'::('t'::('i'::('o'::('n'::('W'::('a'::('r'::('n'::('i'::('n'::('g'::[]))))))))))))))))))))))))),
+    ('b'::('u'::('i'::('l'::('t'::('i'::('n'::('s'::[]))))))))) :: ((('P'::('e'::('r'::('m'::('i'::('s'::('s'::('i'::('o'::('n'::('E'::('r'::('r'::('o'::('r'::[]))))))))))))))),
+    ('b'::('u'::('i'::('l'::('t'::('i'::('n'::('s'::[]))))))))) :: ((('P'::('r'::('o'::('c'::('e'::('s'::('s'::('L'::('o'::('o'::('k'::('u'::('p'::('E'::('r'::('r'::('o'::('r'::[])))))))))))))))))),
+    ('b'::('u'::('i'::('l'::('t'::('i'::('n'::('s'::[]))))))))) :: ((('R'::('e'::('c'::('u'::('r'::('s'::('i'::('o'::('n'::('E'::('r'::('r'::('o'::('r'::[])))))))))))))),
+    ('b'::('u'::('i'::('l'::('t'::('i'::('n'::('s'::[]))))))))) :: ((('R'::('e'::('f'::('e'::('r'::('e'::('n'::('c'::('e'::('E'::('r'::('r'::('o'::('r'::[])))))))))))))),
+    ('b'::('u'::('i'::('l'::('t'::('i'::('n'::('s'::[]))))))))) :: ((('R'::('e'::('s'::('o'::('u'::('r'::('c'::('e'::('W'::('a'::('r'::('n'::('i'::('n'::('g'::[]))))))))))))))),
+    ('b'::('u'::('i'::('l'::('t'::('i'::('n'::('s'::[]))))))))) :: ((('R'::('u'::('n'::('t'::('i'::('m'::('e'::('E'::('r'::('r'::('o'::('r'::[])))))))))))),
+    ('b'::('u'::('i'::('l'::('t'::('i'::('n'::('s'::[]))))))))) :: ((('R'::('u'::('n'::('t'::('i'::('m'::('e'::('W'::('a'::('r'::('n'::('i'::('n'::('g'::[])))))))))))))),
+    ('b'::('u'::('i'::('l'::('t'::('i'::('n'::('s'::[]))))))))) :: ((('S'::('t'::('o'::('p'::('A'::('s'::('y'::('n'::('c'::('I'::('t'::('e'::('r'::('a'::('t'::('i'::('o'::('n'::[])))))))))))))))))),
+    ('b'::('u'::('i'::('l'::('t'::('i'::('n'::('s'::[]))))))))) :: ((('S'::('t'::('o'::('p'::('I'::('t'::('e'::('r'::('a'::('t'::('i'::('o'::('n'::[]))))))))))))),
+    ('b'::('u'::('i'::('l'::('t'::('i'::('n'::('s'::[]))))))))) :: ((('S'::('y'::('n'::('t'::('a'::('x'::('E'::('r'::('r'::('o'::('r'::[]))))))))))),
+    ('b'::('u'::('i'::('l'::('t'::('i'::('n'::('s'::[]))))))))) :: ((('S'::('y'::('n'::('t'::('a'::('x'::('W'::('a'::('r'::('n'::('i'::('n'::('g'::[]))))))))))))),
+    ('b'::('u'::('i'::('l'::('t'::('i'::('n'::('s'::[]))))))))) :: ((('S'::('y'::('s'::('t'::('e'::('m'::('E'::('r'::('r'::('o'::('r'::[]))))))))))),
+    ('b'::('u'::('i'::('l'::('t'::('i'::('n'::('s'::[]))))))))) :: ((('S'::('y'::('s'::('t'::('e'::('m'::('E'::('x'::('i'::('t'::[])))))))))),
+    ('b'::('u'::('i'::('l'::('t'::('i'::('n'::('s'::[]))))))))) :: ((('T'::('a'::('b'::('E'::('r'::('r'::('o'::('r'::[])))))))),
+    ('b'::('u'::('i'::('l'::('t'::('i'::('n'::('s'::[]))))))))) :: ((('T'::('i'::('m'::('e'::('o'::('u'::('t'::('E'::('r'::('r'::('o'::('r'::[])))))))))))),
+    ('b'::('u'::('i'::('l'::('t'::('i'::('n'::('s'::[]))))))))) :: ((('T'::('r'::('u'::('e'::[])))),
+    ('-'::[])) :: ((('T'::('y'::('p'::('e'::('E'::('r'::('r'::('o'::('r'::[]))))))))),
+    ('b'::('u'::('i'::('l'::('t'::('i'::('n'::('s'::[]))))))))) :: ((('U'::('n'::('b'::('o'::('u'::('n'::('d'::('L'::('o'::('c'::('a'::('l'::('E'::('r'::('r'::('o'::('r'::[]))))))))))))))))),
+    ('b'::('u'::('i'::('l'::('t'::('i'::('n'::('s'::[]))))))))) :: ((('U'::('n'::('i'::('c'::('o'::('d'::('e'::('D'::('e'::('c'::('o'::('d'::('e'::('E'::('r'::('r'::('o'::('r'::[])))))))))))))))))),
+    ('b'::('u'::('i'::('l'::('t'::('i'::('n'::('s'::[]))))))))) :: ((('U'::('n'::('i'::('c'::('o'::('d'::('e'::('E'::('n'::('c'::('o'::('d'::('e'::('E'::('r'::('r'::('o'::('r'::[])))))))))))))))))),
+    ('b'::('u'::('i'::('l'::('t'::('i'::('n'::('s'::[]))))))))) :: ((('U'::('n'::('i'::('c'::('o'::('d'::('e'::('E'::('r'::('r'::('o'::('r'::[])))))))))))),
+    ('b'::('u'::('i'::('l'::('t'::('i'::('n'::('s'::[]))))))))) :: ((('U'::('n'::('i'::('c'::('o'::('d'::('e'::('T'::('r'::('a'::('n'::('s'::('l'::('a'::('t'::('e'::('E'::('r'::('r'::('o'::('r'::[]))))))))))))))))))))),
+    ('b'::('u'::('i'::('l'::('t'::('i'::('n'::('s'::[]))))))))) :: ((('U'::('n'::('i'::('c'::('o'::('d'::('e'::('W'::('a'::('r'::('n'::('i'::('n'::('g'::[])))))))))))))),
+    ('b'::('u'::('i'::('l'::('t'::('i'::('n'::('s'::[]))))))))) :: ((('U'::('s'::('e'::('r'::('W'::('a'::('r'::('n'::('i'::('n'::('g'::[]))))))))))),
+    ('b'::('u'::('i'::('l'::('t'::('i'::('n'::('s'::[]))))))))) :: ((('V'::('a'::('l'::('u'::('e'::('E'::('r'::('r'::('o'::('r'::[])))))))))),
+    ('b'::('u'::('i'::('l'::('t'::('i'::('n'::('s'::[]))))))))) :: ((('W'::('a'::('r'::('n'::('i'::('n'::('g'::[]))))))),
+    ('b'::('u'::('i'::('l'::('t'::('i'::('n'::('s'::[]))))))))) :: ((('Z'::('e'::('r'::('o'::('D'::('i'::('v'::('i'::('s'::('i'::('o'::('n'::('E'::('r'::('r'::('o'::('r'::[]))))))))))))))))),
+    ('b'::('u'::('i'::('l'::('t'::('i'::('n'::('s'::[]))))))))) :: ((('_'::('_'::('b'::('u'::('i'::('l'::('d'::('_'::('c'::('l'::('a'::('s'::('s'::('_'::('_'::[]))))))))))))))),
+    ('b'::('u'::('i'::('l'::('t'::('i'::('n'::('s'::[]))))))))) :: ((('_'::('_'::('d'::('e'::('b'::('u'::('g'::('_'::('_'::[]))))))))),
+    ('-'::[])) :: ((('_'::('_'::('d'::('o'::('c'::('_'::('_'::[]))))))),
+    ('-'::[])) :: ((('_'::('_'::('i'::('m'::('p'::('o'::('r'::('t'::('_'::('_'::[])))))))))),
+    ('b'::('u'::('i'::('l'::('t'::('i'::('n'::('s'::[]))))))))) :: ((('_'::('_'::('l'::('o'::('a'::('d'::('e'::('r'::('_'::('_'::[])))))))))),
+    ('_'::('f'::('r'::('o'::('z'::('e'::('n'::('_'::('i'::('m'::('p'::('o'::('r'::('t'::('l'::('i'::('b'::[])))))))))))))))))) :: ((('_'::('_'::('n'::('a'::('m'::('e'::('_'::('_'::[])))))))),
+    ('-'::[])) :: ((('_'::('_'::('p'::('a'::('c'::('k'::('a'::('g'::('e'::('_'::('_'::[]))))))))))),
+    ('-'::[])) :: ((('_'::('_'::('s'::('p'::('e'::('c'::('_'::('_'::[])))))))),
+    ('_'::('f'::('r'::('o'::('z'::('e'::('n'::('_'::('i'::('m'::('p'::('o'::('r'::('t'::('l'::('i'::('b'::[])))))))))))))))))) :: ((('a'::('b'::('s'::[]))),
+    ('b'::('u'::('i'::('l'::('t'::('i'::('n'::('s'::[]))))))))) :: ((('a'::('i'::('t'::('e'::('r'::[]))))),
+    ('b'::('u'::('i'::('l'::('t'::('i'::('n'::('s'::[]))))))))) :: ((('a'::('l'::('l'::[]))),
+    ('b'::('u'::('i'::('l'::('t'::('i'::('n'::('s'::[]))))))))) :: ((('a'::('n'::('e'::('x'::('t'::[]))))),
+    ('b'::('u'::('i'::('l'::('t'::('i'::('n'::('s'::[]))))))))) :: ((('a'::('n'::('y'::[]))),
+    ('b'::('u'::('i'::('l'::('t'::('i'::('n'::('s'::[]))))))))) :: ((('a'::('s'::('c'::('i'::('i'::[]))))),
+    ('b'::('u'::('i'::('l'::('t'::('i'::('n'::('s'::[]))))))))) :: ((('b'::('i'::('n'::[]))),
+    ('b'::('u'::('i'::('l'::('t'::('i'::('n'::('s'::[]))))))))) :: ((('b'::('o'::('o'::('l'::[])))),
+    ('b'::('u'::('i'::('l'::('t'::('i'::('n'::('s'::[]))))))))) :: ((('b'::('r'::('e'::('a'::('k'::('p'::('o'::('i'::('n'::('t'::[])))))))))),
+    ('b'::('u'::('i'::('l'::('t'::('i'::('n'::('s'::[]))))))))) :: ((('b'::('y'::('t'::('e'::('a'::('r'::('r'::('a'::('y'::[]))))))))),
+    ('b'::('u'::('i'::('l'::('t'::('i'::('n'::('s'::[]))))))))) :: ((('b'::('y'::('t'::('e'::('s'::[]))))),
+    ('b'::('u'::('i'::('l'::('t'::('i'::('n'::('s'::[]))))))))) :: ((('c'::('a'::('l'::('l'::('a'::('b'::('l'::('e'::[])))))))),
+    ('b'::('u'::('i'::('l'::('t'::('i'::('n'::('s'::[]))))))))) :: ((('c'::('h'::('r'::[]))),
+    ('b'::('u'::('i'::('l'::('t'::('i'::('n'::('s'::[]))))))))) :: ((('c'::('l'::('a'::('s'::('s'::('m'::('e'::('t'::('h'::('o'::('d'::[]))))))))))),
+    ('b'::('u'::('i'::('l'::('t'::('i'::('n'::('s'::[]))))))))) :: ((('c'::('o'::('m'::('p'::('i'::('l'::('e'::[]))))))),
+    ('b'::('u'::('i'::('l'::('t'::('i'::('n'::('s'::[]))))))))) :: ((('c'::('o'::('m'::('p'::('l'::('e'::('x'::[]))))))),
+    ('b'::('u'::('i'::('l'::('t'::('i'::('n'::('s'::[]))))))))) :: ((('c'::('o'::('p'::('y'::('r'::('i'::('g'::('h'::('t'::[]))))))))),
+    ('_'::('s'::('i'::('t'::('e'::('b'::('u'::('i'::('l'::('t'::('i'::('n'::('s'::[])))))))))))))) :: ((('c'::('r'::('e'::('d'::('i'::('t'::('s'::[]))))))),
+    ('_'::('s'::('i'::('t'::('e'::('b'::('u'::('i'::('l'::('t'::('i'::('n'::('s'::[])))))))))))))) :: ((('d'::('e'::('l'::('a'::('t'::('t'::('r'::[]))))))),
+    ('b'::('u'::('i'::('l'::('t'::('i'::('n'::('s'::[]))))))))) :: ((('d'::('i'::('c'::('t'::[])))),
+    ('b'::('u'::('i'::('l'::('t'::('i'::('n'::('s'::[]))))))))) :: ((('d'::('i'::('r'::[]))),
+    ('b'::('u'::('i'::('l'::('t'::('i'::('n'::('s'::[]))))))))) :: ((('d'::('i'::('v'::('m'::('o'::('d'::[])))))),
+    ('b'::('u'::('i'::('l'::('t'::('i'::('n'::('s'::[]))))))))) :: ((('e'::('n'::('u'::('m'::('e'::('r'::('a'::('t'::('e'::[]))))))))),
+    ('b'::('u'::('i'::('l'::('t'::('i'::('n'::('s'::[]))))))))) :: ((('e'::('v'::('a'::('l'::[])))),
+    ('b'::('u'::('i'::('l'::('t'::('i'::('n'::('s'::[]))))))))) :: ((('e'::('x'::('e'::('c'::[])))),
+    ('b'::('u'::('i'::('l'::('t'::('i'::('n'::('s'::[]))))))))) :: ((('e'::('x'::('i'::('t'::[])))),
+    ('_'::('s'::('i'::('t'::('e'::('b'::('u'::('i'::('l'::('t'::('i'::('n'::('s'::[])))))))))))))) :: ((('f'::('i'::('l'::('t'::('e'::('r'::[])))))),
+    ('b'::('u'::('i'::('l'::('t'::('i'::('n'::('s'::[]))))))))) :: ((('f'::('l'::('o'::('a'::('t'::[]))))),
+    ('b'::('u'::('i'::('l'::('t'::('i'::('n'::('s'::[]))))))))) :: ((('f'::('o'::('r'::('m'::('a'::('t'::[])))))),
+    ('b'::('u'::('i'::('l'::('t'::('i'::('n'::('s'::[]))))))))) :: ((('f'::('r'::('o'::('z'::('e'::('n'::('s'::('e'::('t'::[]))))))))),
+    ('b'::('u'::('i'::('l'::('t'::('i'::('n'::('s'::[]))))))))) :: ((('g'::('e'::('t'::('a'::('t'::('t'::('r'::[]))))))),
+    ('b'::('u'::('i'::('l'::('t'::('i'::('n'::('s'::[]))))))))) :: ((('g'::('l'::('o'::('b'::('a'::('l'::('s'::[]))))))),
+    ('b'::('u'::('i'::('l'::('t'::('i'::('n'::('s'::[]))))))))) :: ((('h'::('a'::('s'::('a'::('t'::('t'::('r'::[]))))))),
+    ('b'::('u'::('i'::('l'::('t'::('i'::('n'::('s'::[]))))))))) :: ((('h'::('a'::('s'::('h'::[])))),
+    ('b'::('u'::('i'::('l'::('t'::('i'::('n'::('s'::[]))))))))) :: ((('h'::('e'::('l'::('p'::[])))),
+    ('_'::('s'::('i'::('t'::('e'::('b'::('u'::('i'::('l'::('t'::('i'::('n'::('s'::[])))))))))))))) :: ((('h'::('e'::('x'::[]))),
+    ('b'::('u'::('i'::('l'::('t'::('i'::('n'::('s'::[]))))))))) :: ((('i'::('d'::[])),
+    ('b'::('u'::('i'::('l'::('t'::('i'::('n'::('s'::[]))))))))) :: ((('i'::('n'::('p'::('u'::('t'::[]))))),
+    ('b'::('u'::('i'::('l'::('t'::('i'::('n'::('s'::[]))))))))) :: ((('i'::('n'::('t'::[]))),
+    ('b'::('u'::('i'::('l'::('t'::('i'::('n'::('s'::[]))))))))) :: ((('i'::('s'::('i'::('n'::('s'::('t'::('a'::('n'::('c'::('e'::[])))))))))),
+    ('b'::('u'::('i'::('l'::('t'::('i'::('n'::('s'::[]))))))))) :: ((('i'::('s'::('s'::('u'::('b'::('c'::('l'::('a'::('s'::('s'::[])))))))))),
+    ('b'::('u'::('i'::('l'::('t'::('i'::('n'::('s'::[]))))))))) :: ((('i'::('t'::('e'::('r'::[])))),
+    ('b'::('u'::('i'::('l'::('t'::('i'::('n'::('s'::[]))))))))) :: ((('l'::('e'::('n'::[]))),
+    ('b'::('u'::('i'::('l'::('t'::('i'::('n'::('s'::[]))))))))) :: ((('l'::('i'::('c'::('e'::('n'::('s'::('e'::[]))))))),
+    ('_'::('s'::('i'::('t'::('e'::('b'::('u'::('i'::('l'::('t'::('i'::('n'::('s'::[])))))))))))))) :: ((('l'::('i'::('s'::('t'::[])))),
+    ('b'::('u'::('i'::('l'::('t'::('i'::('n'::('s'::[]))))))))) :: ((('l'::('o'::('c'::('a'::('l'::('s'::[])))))),
+    ('b'::('u'::('i'::('l'::('t'::('i'::('n'::('s'::[]))))))))) :: ((('m'::('a'::('p'::[]))),
+    ('b'::('u'::('i'::('l'::('t'::('i'::('n'::('s'::[]))))))))) :: ((('m'::('a'::('x'::[]))),
+    ('b'::('u'::('i'::('l'::('t'::('i'::('n'::('s'::[]))))))))) :: ((('m'::('e'::('m'::('o'::('r'::('y'::('v'::('i'::('e'::('w'::[])))))))))),
+    ('b'::('u'::('i'::('l'::('t'::('i'::('n'::('s'::[]))))))))) :: ((('m'::('i'::('n'::[]))),
+    ('b'::('u'::('i'::('l'::('t'::('i'::('n'::('s'::[]))))))))) :: ((('n'::('e'::('x'::('t'::[])))),
+    ('b'::('u'::('i'::('l'::('t'::('i'::('n'::('s'::[]))))))))) :: ((('o'::('b'::('j'::('e'::('c'::('t'::[])))))),
+    ('b'::('u'::('i'::('l'::('t'::('i'::('n'::('s'::[]))))))))) :: ((('o'::('c'::('t'::[]))),
+    ('b'::('u'::('i'::('l'::('t'::('i'::('n'::('s'::[]))))))))) :: ((('o'::('p'::('e'::('n'::[])))),
+    ('_'::('i'::('o'::[])))) :: ((('o'::('r'::('d'::[]))),
+    ('b'::('u'::('i'::('l'::('t'::('i'::('n'::('s'::[]))))))))) :: ((('p'::('o'::('w'::[]))),
+    ('b'::('u'::('i'::('l'::('t'::('i'::('n'::('s'::[]))))))))) :: ((('p'::('r'::('i'::('n'::('t'::[]))))),
+    ('b'::('u'::('i'::('l'::('t'::('i'::('n'::('s'::[]))))))))) :: ((('p'::('r'::('o'::('p'::('e'::('r'::('t'::('y'::[])))))))),
+    ('b'::('u'::('i'::('l'::('t'::('i'::('n'::('s'::[]))))))))) :: ((('q'::('u'::('i'::('t'::[])))),
+    ('_'::('s'::('i'::('t'::('e'::('b'::('u'::('i'::('l'::('t'::('i'::('n'::('s'::[])))))))))))))) :: ((('r'::('a'::('n'::('g'::('e'::[]))))),
+    ('b'::('u'::('i'::('l'::('t'::('i'::('n'::('s'::[]))))))))) :: ((('r'::('e'::('p'::('r'::[])))),
+    ('b'::('u'::('i'::('l'::('t'::('i'::('n'::('s'::[]))))))))) :: ((('r'::('e'::('v'::('e'::('r'::('s'::('e'::('d'::[])))))))),
+    ('b'::('u'::('i'::('l'::('t'::('i'::('n'::('s'::[]))))))))) :: ((('r'::('o'::('u'::('n'::('d'::[]))))),
+    ('b'::('u'::('i'::('l'::('t'::('i'::('n'::('s'::[]))))))))) :: ((('s'::('e'::('t'::[]))),
+    ('b'::('u'::('i'::('l'::('t'::('i'::('n'::('s'::[]))))))))) :: ((('s'::('e'::('t'::('a'::('t'::('t'::('r'::[]))))))),
+    ('b'::('u'::('i'::('l'::('t'::('i'::('n'::('s'::[]))))))))) :: ((('s'::('l'::('i'::('c'::('e'::[]))))),
+    ('b'::('u'::('i'::('l'::('t'::('i'::('n'::('s'::[]))))))))) :: ((('s'::('o'::('r'::('t'::('e'::('d'::[])))))),
+    ('b'::('u'::('i'::('l'::('t'::('i'::('n'::('s'::[]))))))))) :: ((('s'::('t'::('a'::('t'::('i'::('c'::('m'::('e'::('t'::('h'::('o'::('d'::[])))))))))))),
+    ('b'::('u'::('i'::('l'::('t'::('i'::('n'::('s'::[]))))))))) :: ((('s'::('t'::('r'::[]))),
+    ('b'::('u'::('i'::('l'::('t'::('i'::('n'::('s'::[]))))))))) :: ((('s'::('u'::('m'::[]))),
+    ('b'::('u'::('i'::('l'::('t'::('i'::('n'::('s'::[]))))))))) :: ((('s'::('u'::('p'::('e'::('r'::[]))))),
+    ('b'::('u'::('i'::('l'::('t'::('i'::('n'::('s'::[]))))))))) :: ((('t'::('u'::('p'::('l'::('e'::[]))))),
+    ('b'::('u'::('i'::('l'::('t'::('i'::('n'::('s'::[]))))))))) :: ((('t'::('y'::('p'::('e'::[])))),
+    ('b'::('u'::('i'::('l'::('t'::('i'::('n'::('s'::[]))))))))) :: ((('v'::('a'::('r'::('s'::[])))),
+    ('b'::('u'::('i'::('l'::('t'::('i'::('n'::('s'::[]))))))))) :: ((('z'::('i'::('p'::[]))),
+    ('b'::('u'::('i'::('l'::('t'::('i'::('n'::('s'::[]))))))))) :: []))))))))))))))))))))))))))))))))))))))))))))))))))))))))))))))))))))))))))))))))))))))))))))))))))))))))))))))))))))))))))))))))))))))))))))))))))))))))))))
 
 (** val documented : char list list **)
 
 let documented =
-  []
+  ('s'::('i'::('n'::[]))) :: (('c'::('o'::('s'::[]))) :: (('t'::('a'::('n'::[]))) :: (('a'::('c'::('o'::('s'::[])))) :: (('a'::('s'::('i'::('n'::[])))) :: (('a'::('t'::('a'::('n'::[])))) :: (('a'::('t'::('a'::('n'::('2'::[]))))) :: (('s'::('i'::('n'::('h'::[])))) :: (('c'::('o'::('s'::('h'::[])))) :: (('t'::('a'::('n'::('h'::[])))) :: (('a'::('s'::('i'::('n'::('h'::[]))))) :: (('a'::('c'::('o'::('s'::('h'::[]))))) :: (('a'::('t'::('a'::('n'::('h'::[]))))) :: (('e'::('x'::('p'::[]))) :: (('l'::('d'::('e'::('x'::('p'::[]))))) :: (('l'::('o'::('g'::[]))) :: (('l'::('n'::[])) :: (('l'::('o'::('g'::('1'::('0'::[]))))) :: (('e'::('x'::('p'::('2'::[])))) :: (('e'::('x'::('p'::('m'::('1'::[]))))) :: (('i'::('l'::('o'::('g'::('b'::[]))))) :: (('l'::('o'::('g'::('1'::('p'::[]))))) :: (('l'::('o'::('g'::('2'::[])))) :: (('s'::('c'::('a'::('l'::('b'::('n'::[])))))) :: (('s'::('c'::('a'::('l'::('b'::('l'::('n'::[]))))))) :: (('p'::('o'::('w'::[]))) :: (('s'::('q'::('r'::('t'::[])))) :: (('c'::('b'::('r'::('t'::[])))) :: (('h'::('y'::('p'::('o'::('t'::[]))))) :: (('e'::('r'::('f'::[]))) :: (('e'::('r'::('f'::('c'::[])))) :: (('t'::('g'::('a'::('m'::('m'::('a'::[])))))) :: (('l'::('g'::('a'::('m'::('m'::('a'::[])))))) :: (('c'::('e'::('i'::('l'::[])))) :: (('f'::('l'::('o'::('o'::('r'::[]))))) :: (('f'::('m'::('o'::('d'::[])))) :: (('t'::('r'::('u'::('n'::('c'::[]))))) :: (('r'::('o'::('u'::('n'::('d'::[]))))) :: (('r'::('i'::('n'::('t'::[])))) :: (('n'::('e'::('a'::('r'::('b'::('y'::('i'::('n'::('t'::[]))))))))) :: (('r'::('e'::('m'::('a'::('i'::('n'::('d'::('e'::('r'::[]))))))))) :: (('r'::('e'::('m'::('q'::('u'::('o'::[])))))) :: (('c'::('o'::('p'::('y'::('s'::('i'::('g'::('n'::[])))))))) :: (('n'::('a'::('n'::[]))) :: (('n'::('e'::('x'::('t'::('a'::('f'::('t'::('e'::('r'::[]))))))))) :: (('n'::('e'::('x'::('t'::('t'::('o'::('w'::('a'::('r'::('d'::[])))))))))) :: (('f'::('d'::('i'::('m'::[])))) :: (('f'::('m'::('a'::('x'::[])))) :: (('f'::('m'::('i'::('n'::[])))) :: (('f'::('a'::('b'::('s'::[])))) :: (('a'::('b'::('s'::[]))) :: (('f'::('m'::('a'::[]))) :: [])))))))))))))))))))))))))))))))))))))))))))))))))))
 
 (** val math_env : menv **)
 
 let math_env =
   { e_rows = math_rows; e_module = module_names; e_builtins = builtin_names }
 
+type wpart =
+| WLit of char list
+| WVar of bool * char list
+
+type word = wpart list
+
+type test =
+| TFileF of word
+| TFileE of word
+| TFileD of word
+| TStrZ of word
+| TEq of word * word
+| TNe of word * word
+| TPrefix of word * char list
+
+type cmd =
+| CAssign of char list * word
+| CScriptDir of char list
+| CPwdTo of char list
+| CSetE
+| CSetX
+| CShiftOpt
+| CExit of nat
+| CEcho of word list * word option
+| CCd of word
+| CSource of word
+| CExport of char list * word
+| CEval of char list * char list * cmd
+| CHeredoc of word * char list
+| CRun of word list
+| CIf of branches * cmds
+| CGetopts of char list * char list * arms
+and cmds =
+| CNil
+| CCons of cmd * cmds
+and branches =
+| BNil
+| BCons of test * cmds * branches
+and arms =
+| ANil
+| ACons of char list * cmds * arms
+
+(** val prefix_strip : char list -> char list -> char list option **)
+
+let rec prefix_strip p s =
+  match p with
+  | [] -> Some s
+  | a::p' ->
+    (match s with
+     | [] -> None
+     | b::s' -> if (=) a b then prefix_strip p' s' else None)
+
+(** val split_sub :
+    char list -> char list -> (char list * char list) option **)
+
+let rec split_sub sep s =
+  match prefix_strip sep s with
+  | Some r -> Some ([], r)
+  | None ->
+    (match s with
+     | [] -> None
+     | c::s' ->
+       (match split_sub sep s' with
+        | Some p -> let (a, b) = p in Some ((c::a), b)
+        | None -> None))
+
+(** val strip_suffix : char list -> char list -> char list option **)
+
+let rec strip_suffix suf s =
+  if eqb0 s suf
+  then Some []
+  else (match s with
+        | [] -> None
+        | c::r -> option_map (fun x -> c::x) (strip_suffix suf r))
+
+(** val ends_slash : char list -> bool **)
+
+let rec ends_slash = function
+| [] -> false
+| c::r -> (match r with
+           | [] -> (=) c '/'
+           | _::_ -> ends_slash r)
+
+(** val starts_slash : char list -> bool **)
+
+let starts_slash = function
+| [] -> false
+| c::_ -> (=) c '/'
+
+(** val has_slash : char list -> bool **)
+
+let rec has_slash = function
+| [] -> false
+| c::r -> if (=) c '/' then true else has_slash r
+
+type path = char list list
+
+(** val split_slash : char list -> char list list **)
+
+let rec split_slash = function
+| [] -> [] :: []
+| c::r ->
+  let l = split_slash r in
+  if (=) c '/'
+  then [] :: l
+  else (match l with
+        | [] -> (c::[]) :: []
+        | h :: t -> (c::h) :: t)
+
+(** val norm_step : path -> char list -> path **)
+
+let norm_step acc comp =
+  if eqb0 comp []
+  then acc
+  else if eqb0 comp ('.'::[])
+       then acc
+       else if eqb0 comp ('.'::('.'::[]))
+            then removelast acc
+            else app acc (comp :: [])
+
+(** val resolve0 : path -> char list -> path option **)
+
+let resolve0 cwd0 s =
+  if eqb0 s []
+  then None
+  else Some
+         (fold_left norm_step (split_slash s)
+           (if starts_slash s then [] else cwd0))
+
+(** val path_str : path -> char list **)
+
+let path_str p = match p with
+| [] -> '/'::[]
+| _ :: _ -> concat_str (map (fun c -> append ('/'::[]) c) p)
+
+(** val basename : path -> char list **)
+
+let basename p =
+  last p []
+
+(** val is_prefix : path -> path -> bool **)
+
+let rec is_prefix p q =
+  match p with
+  | [] -> true
+  | a :: p' ->
+    (match q with
+     | [] -> false
+     | b :: q' -> (&&) (eqb0 a b) (is_prefix p' q'))
+
+type node =
+| Dir
+| File of char list
+
+type fs = (path * node option) list
+
+(** val fs_lookup : fs -> path -> node option **)
+
+let rec fs_lookup f p =
+  match f with
+  | [] -> None
+  | p0 :: r ->
+    let (k, v) = p0 in if list_str_eqb k p then v else fs_lookup r p
+
+(** val fs_get : fs -> path -> node option **)
+
+let fs_get f p = match p with
+| [] -> Some Dir
+| _ :: _ -> fs_lookup f p
+
+(** val fs_set : fs -> path -> node option -> fs **)
+
+let rec fs_set f p v =
+  match f with
+  | [] -> (p, v) :: []
+  | p0 :: r ->
+    let (k, w) = p0 in
+    if list_str_eqb k p then (k, v) :: r else (k, w) :: (fs_set r p v)
+
+(** val fs_rm_tree : fs -> path -> fs **)
+
+let fs_rm_tree f p =
+  map (fun kv -> if is_prefix p (fst kv) then ((fst kv), None) else kv) f
+
+(** val is_dir : fs -> path -> bool **)
+
+let is_dir f p =
+  match fs_get f p with
+  | Some n0 -> (match n0 with
+                | Dir -> true
+                | File _ -> false)
+  | None -> false
+
+(** val is_file : fs -> path -> bool **)
+
+let is_file f p =
+  match fs_get f p with
+  | Some n0 -> (match n0 with
+                | Dir -> false
+                | File _ -> true)
+  | None -> false
+
+(** val exists_ : fs -> path -> bool **)
+
+let exists_ f p =
+  match fs_get f p with
+  | Some _ -> true
+  | None -> false
+
+(** val file_content : fs -> path -> char list option **)
+
+let file_content f p =
+  match fs_get f p with
+  | Some n0 -> (match n0 with
+                | Dir -> None
+                | File c -> Some c)
+  | None -> None
+
+(** val write_file : fs -> path -> char list -> fs option **)
+
+let write_file f p c =
+  match p with
+  | [] -> None
+  | _ :: _ ->
+    if is_dir f p
+    then None
+    else if is_dir f (removelast p)
+         then Some (fs_set f p (Some (File c)))
+         else None
+
+(** val mkdir_at : fs -> path -> fs option **)
+
+let mkdir_at f p =
+  if exists_ f p
+  then None
+  else if is_dir f (removelast p) then Some (fs_set f p (Some Dir)) else None
+
+type state = { vars : (char list * char list) list;
+               exported : char list list; cwd : path; fsys : fs;
+               pos : char list list; optind : nat; errexit : bool;
+               last0 : nat; steps : nat; tlog : char list list list;
+               unmodelled : bool; scriptdir : path }
+
+(** val upd_vars : state -> (char list * char list) list -> state **)
+
+let upd_vars st v =
+  { vars = v; exported = st.exported; cwd = st.cwd; fsys = st.fsys; pos =
+    st.pos; optind = st.optind; errexit = st.errexit; last0 = st.last0;
+    steps = st.steps; tlog = st.tlog; unmodelled = st.unmodelled; scriptdir =
+    st.scriptdir }
+
+(** val upd_exported : state -> char list list -> state **)
+
+let upd_exported st v =
+  { vars = st.vars; exported = v; cwd = st.cwd; fsys = st.fsys; pos = st.pos;
+    optind = st.optind; errexit = st.errexit; last0 = st.last0; steps =
+    st.steps; tlog = st.tlog; unmodelled = st.unmodelled; scriptdir =
+    st.scriptdir }
+
+(** val upd_cwd : state -> path -> state **)
+
+let upd_cwd st v =
+  { vars = st.vars; exported = st.exported; cwd = v; fsys = st.fsys; pos =
+    st.pos; optind = st.optind; errexit = st.errexit; last0 = st.last0;
+    steps = st.steps; tlog = st.tlog; unmodelled = st.unmodelled; scriptdir =
+    st.scriptdir }
+
+(** val upd_fs : state -> fs -> state **)
+
+let upd_fs st v =
+  { vars = st.vars; exported = st.exported; cwd = st.cwd; fsys = v; pos =
+    st.pos; optind = st.optind; errexit = st.errexit; last0 = st.last0;
+    steps = st.steps; tlog = st.tlog; unmodelled = st.unmodelled; scriptdir =
+    st.scriptdir }
+
+(** val upd_pos : state -> char list list -> state **)
+
+let upd_pos st v =
+  { vars = st.vars; exported = st.exported; cwd = st.cwd; fsys = st.fsys;
+    pos = v; optind = st.optind; errexit = st.errexit; last0 = st.last0;
+    steps = st.steps; tlog = st.tlog; unmodelled = st.unmodelled; scriptdir =
+    st.scriptdir }
+
+(** val upd_optind : state -> nat -> state **)
+
+let upd_optind st v =
+  { vars = st.vars; exported = st.exported; cwd = st.cwd; fsys = st.fsys;
+    pos = st.pos; optind = v; errexit = st.errexit; last0 = st.last0; steps =
+    st.steps; tlog = st.tlog; unmodelled = st.unmodelled; scriptdir =
+    st.scriptdir }
+
+(** val upd_errexit : state -> bool -> state **)
+
+let upd_errexit st v =
+  { vars = st.vars; exported = st.exported; cwd = st.cwd; fsys = st.fsys;
+    pos = st.pos; optind = st.optind; errexit = v; last0 = st.last0; steps =
+    st.steps; tlog = st.tlog; unmodelled = st.unmodelled; scriptdir =
+    st.scriptdir }
+
+(** val upd_last : state -> nat -> state **)
+
+let upd_last st v =
+  { vars = st.vars; exported = st.exported; cwd = st.cwd; fsys = st.fsys;
+    pos = st.pos; optind = st.optind; errexit = st.errexit; last0 = v;
+    steps = st.steps; tlog = st.tlog; unmodelled = st.unmodelled; scriptdir =
+    st.scriptdir }
+
+(** val mark_unmodelled : state -> state **)
+
+let mark_unmodelled st =
+  { vars = st.vars; exported = st.exported; cwd = st.cwd; fsys = st.fsys;
+    pos = st.pos; optind = st.optind; errexit = st.errexit; last0 = st.last0;
+    steps = st.steps; tlog = st.tlog; unmodelled = true; scriptdir =
+    st.scriptdir }
+
+(** val take_step : state -> char list list -> state **)
+
+let take_step st entry0 =
+  { vars = st.vars; exported = st.exported; cwd = st.cwd; fsys = st.fsys;
+    pos = st.pos; optind = st.optind; errexit = st.errexit; last0 = st.last0;
+    steps = (S st.steps); tlog =
+    (app st.tlog (((path_str st.cwd) :: entry0) :: [])); unmodelled =
+    st.unmodelled; scriptdir = st.scriptdir }
+
+(** val assoc_get :
+    (char list * char list) list -> char list -> char list option **)
+
+let rec assoc_get l k =
+  match l with
+  | [] -> None
+  | p :: r -> let (a, b) = p in if eqb0 a k then Some b else assoc_get r k
+
+(** val assoc_set :
+    (char list * char list) list -> char list -> char list ->
+    (char list * char list) list **)
+
+let rec assoc_set l k v =
+  match l with
+  | [] -> (k, v) :: []
+  | p :: r ->
+    let (a, b) = p in
+    if eqb0 a k then (a, v) :: r else (a, b) :: (assoc_set r k v)
+
+(** val set_var : state -> char list -> char list -> state **)
+
+let set_var st k v =
+  upd_vars st (assoc_set st.vars k v)
+
+(** val get_var : state -> char list -> char list **)
+
+let get_var st k =
+  if eqb0 k ('#'::[])
+  then dec_nat (length st.pos)
+  else if eqb0 k ('@'::[])
+       then join_str (' '::[]) st.pos
+       else if eqb0 k ('1'::[])
+            then nth O st.pos []
+            else (match assoc_get st.vars k with
+                  | Some v -> v
+                  | None -> [])
+
+(** val get_env : state -> char list -> char list **)
+
+let get_env st k =
+  if mem_str k st.exported then get_var st k else []
+
+(** val expand_part : state -> wpart -> char list * bool **)
+
+let expand_part st = function
+| WLit s -> (s, true)
+| WVar (q, v) -> ((get_var st v), q)
+
+(** val expand_str : state -> word -> char list **)
+
+let expand_str st w =
+  concat_str (map (fun p -> fst (expand_part st p)) w)
+
+(** val expand_word : state -> word -> char list list **)
+
+let expand_word st w =
+  if existsb (fun p -> snd (expand_part st p)) w
+  then (expand_str st w) :: []
+  else (match expand_str st w with
+        | [] -> []
+        | a::s0 -> (a::s0) :: [])
+
+(** val expand_words : state -> word list -> char list list **)
+
+let expand_words st ws =
+  flat_map (expand_word st) ws
+
+(** val one_path : state -> word -> path option option **)
+
+let one_path st w =
+  match expand_word st w with
+  | [] -> None
+  | s :: l -> (match l with
+               | [] -> Some (resolve0 st.cwd s)
+               | _ :: _ -> None)
+
+(** val eval_test : state -> test -> bool option **)
+
+let eval_test st t =
+  let file_test = fun w k ->
+    match one_path st w with
+    | Some o ->
+      (match o with
+       | Some p -> Some (k st.fsys p)
+       | None -> Some false)
+    | None -> None
+  in
+  (match t with
+   | TFileF w -> file_test w is_file
+   | TFileE w -> file_test w exists_
+   | TFileD w -> file_test w is_dir
+   | TStrZ w ->
+     (match expand_word st w with
+      | [] -> Some true
+      | s :: l -> (match l with
+                   | [] -> Some (eqb0 s [])
+                   | _ :: _ -> None))
+   | TEq (a, b) ->
+     (match expand_word st a with
+      | [] -> None
+      | x :: l ->
+        (match l with
+         | [] ->
+           (match expand_word st b with
+            | [] -> None
+            | y :: l0 ->
+              (match l0 with
+               | [] -> Some (eqb0 x y)
+               | _ :: _ -> None))
+         | _ :: _ -> None))
+   | TNe (a, b) ->
+     (match expand_word st a with
+      | [] -> None
+      | x :: l ->
+        (match l with
+         | [] ->
+           (match expand_word st b with
+            | [] -> None
+            | y :: l0 ->
+              (match l0 with
+               | [] -> Some (negb (eqb0 x y))
+               | _ :: _ -> None))
+         | _ :: _ -> None))
+   | TPrefix (a, p) ->
+     Some
+       (match prefix_strip p (expand_str st a) with
+        | Some _ -> true
+        | None -> false))
+
+type gev =
+| GOpt of char list * char list
+| GBad
+
+(** val opt_kind : char list -> char -> bool option **)
+
+let rec opt_kind os c =
+  match os with
+  | [] -> None
+  | a::r ->
+    if (=) a c
+    then if (=) c ':'
+         then None
+         else Some (match r with
+                    | [] -> false
+                    | b::_ -> (=) b ':')
+    else opt_kind r c
+
+(** val scan_chars : char list -> char list -> gev list * char list option **)
+
+let rec scan_chars os = function
+| [] -> ([], None)
+| c::r ->
+  (match opt_kind os c with
+   | Some b ->
+     if b
+     then (match r with
+           | [] -> ([], (Some (c::[])))
+           | _::_ -> (((GOpt ((c::[]), r)) :: []), None))
+     else let (e, p) = scan_chars os r in (((GOpt ((c::[]), [])) :: e), p)
+   | None -> let (e, p) = scan_chars os r in ((GBad :: e), p))
+
+(** val getopts_events : char list -> char list list -> gev list * nat **)
+
+let rec getopts_events os = function
+| [] -> ([], O)
+| w :: rest ->
+  (match w with
+   | [] -> ([], O)
+   | a::cs ->
+     (* If this appears, you're using Ascii internals. Please don't *)
+ (fun f c ->
+  let n = Char.code c in
+  let h i = (n land (1 lsl i)) <> 0 in
+  f (h 0) (h 1) (h 2) (h 3) (h 4) (h 5) (h 6) (h 7))
+       (fun b b0 b1 b2 b3 b4 b5 b6 ->
+       if b
+       then if b0
+            then ([], O)
+            else if b1
+                 then if b2
+                      then if b3
+                           then ([], O)
+                           else if b4
+                                then if b5
+                                     then ([], O)
+                                     else if b6
+                                          then ([], O)
+                                          else (match cs with
+                                                | [] -> ([], O)
+                                                | a0::s ->
+                                                  (* If this appears, you're using Ascii internals. Please don't *)
+ (fun f c ->
+  let n = Char.code c in
+  let h i = (n land (1 lsl i)) <> 0 in
+  f (h 0) (h 1) (h 2) (h 3) (h 4) (h 5) (h 6) (h 7))
+                                                    (fun b7 b8 b9 b10 b11 b12 b13 b14 ->
+                                                    if b7
+                                                    then if b8
+                                                         then let (evs, pend) =
+                                                                scan_chars os
+                                                                  cs
+                                                              in
+                                                              (match pend with
+                                                               | Some c ->
+                                                                 (match rest with
+                                                                  | [] ->
+                                                                    ((app evs
+                                                                    (GBad :: [])),
+                                                                    (S O))
+                                                                  | a1 :: rest' ->
+                                                                    let (
+                                                                    e2, n0) =
+                                                                    getopts_events
+                                                                    os rest'
+                                                                    in
+                                                                    (
+                                                                    (app evs
+                                                                    ((GOpt
+                                                                    (c,
+                                                                    a1)) :: e2)),
+                                                                    (S (S
+                                                                    n0))))
+                                                               | None ->
+                                                                 let (
+                                                                   e2, n0) =
+                                                                   getopts_events
+                                                                    os rest
+                                                                 in
+                                                                 ((app evs e2),
+                                                                 (S n0)))
+                                                         else if b9
+                                                              then if b10
+                                                                   then 
+                                                                    if b11
+                                                                    then 
+                                                                    let (
+                                                                    evs, pend) =
+                                                                    scan_chars
+                                                                    os cs
+                                                                    in
+                                                                    (
+                                                                    match pend with
+                                                                    | Some c ->
+                                                                    (match rest with
+                                                                    | [] ->
+                                                                    ((app evs
+                                                                    (GBad :: [])),
+                                                                    (S O))
+                                                                    | a1 :: rest' ->
+                                                                    let (
+                                                                    e2, n0) =
+                                                                    getopts_events
+                                                                    os rest'
+                                                                    in
+                                                                    (
+                                                                    (app evs
+                                                                    ((GOpt
+                                                                    (c,
+                                                                    a1)) :: e2)),
+                                                                    (S (S
+                                                                    n0))))
+                                                                    | None ->
+                                                                    let (
+                                                                    e2, n0) =
+                                                                    getopts_events
+                                                                    os rest
+                                                                    in
+                                                                    (
+                                                                    (app evs
+                                                                    e2), (S
+                                                                    n0)))
+                                                                    else 
+                                                                    if b12
+                                                                    then 
+                                                                    if b13
+                                                                    then 
+                                                                    let (
+                                                                    evs, pend) =
+                                                                    scan_chars
+                                                                    os cs
+                                                                    in
+                                                                    (
+                                                                    match pend with
+                                                                    | Some c ->
+                                                                    (match rest with
+                                                                    | [] ->
+                                                                    ((app evs
+                                                                    (GBad :: [])),
+                                                                    (S O))
+                                                                    | a1 :: rest' ->
+                                                                    let (
+                                                                    e2, n0) =
+                                                                    getopts_events
+                                                                    os rest'
+                                                                    in
+                                                                    (
+                                                                    (app evs
+                                                                    ((GOpt
+                                                                    (c,
+                                                                    a1)) :: e2)),
+                                                                    (S (S
+                                                                    n0))))
+                                                                    | None ->
+                                                                    let (
+                                                                    e2, n0) =
+                                                                    getopts_events
+                                                                    os rest
+                                                                    in
+                                                                    (
+                                                                    (app evs
+                                                                    e2), (S
+                                                                    n0)))
+                                                                    else 
+                                                                    if b14
+                                                                    then 
+                                                                    let (
+                                                                    evs, pend) =
+                                                                    scan_chars
+                                                                    os cs
+                                                                    in
+                                                                    (
+                                                                    match pend with
+                                                                    | Some c ->
+                                                                    (match rest with
+                                                                    | [] ->
+                                                                    ((app evs
+                                                                    (GBad :: [])),
+                                                                    (S O))
+                                                                    | a1 :: rest' ->
+                                                                    let (
+                                                                    e2, n0) =
+                                                                    getopts_events
+                                                                    os rest'
+                                                                    in
+                                                                    (
+                                                                    (app evs
+                                                                    ((GOpt
+                                                                    (c,
+                                                                    a1)) :: e2)),
+                                                                    (S (S
+                                                                    n0))))
+                                                                    | None ->
+                                                                    let (
+                                                                    e2, n0) =
+                                                                    getopts_events
+                                                                    os rest
+                                                                    in
+                                                                    (
+                                                                    (app evs
+                                                                    e2), (S
+                                                                    n0)))
+                                                                    else 
+                                                                    (match s with
+                                                                    | [] ->
+                                                                    ([], (S
+                                                                    O))
+                                                                    | _::_ ->
+                                                                    let (
+                                                                    evs, pend) =
+                                                                    scan_chars
+                                                                    os cs
+                                                                    in
+                                                                    (
+                                                                    match pend with
+                                                                    | Some c ->
+                                                                    (match rest with
+                                                                    | [] ->
+                                                                    ((app evs
+                                                                    (GBad :: [])),
+                                                                    (S O))
+                                                                    | a1 :: rest' ->
+                                                                    let (
+                                                                    e2, n0) =
+                                                                    getopts_events
+                                                                    os rest'
+                                                                    in
+                                                                    (
+                                                                    (app evs
+                                                                    ((GOpt
+                                                                    (c,
+                                                                    a1)) :: e2)),
+                                                                    (S (S
+                                                                    n0))))
+                                                                    | None ->
+                                                                    let (
+                                                                    e2, n0) =
+                                                                    getopts_events
+                                                                    os rest
+                                                                    in
+                                                                    (
+                                                                    (app evs
+                                                                    e2), (S
+                                                                    n0))))
+                                                                    else 
+                                                                    let (
+                                                                    evs, pend) =
+                                                                    scan_chars
+                                                                    os cs
+                                                                    in
+                                                                    (
+                                                                    match pend with
+                                                                    | Some c ->
+                                                                    (match rest with
+                                                                    | [] ->
+                                                                    ((app evs
+                                                                    (GBad :: [])),
+                                                                    (S O))
+                                                                    | a1 :: rest' ->
+                                                                    let (
+                                                                    e2, n0) =
+                                                                    getopts_events
+                                                                    os rest'
+                                                                    in
+                                                                    (
+                                                                    (app evs
+                                                                    ((GOpt
+                                                                    (c,
+                                                                    a1)) :: e2)),
+                                                                    (S (S
+                                                                    n0))))
+                                                                    | None ->
+                                                                    let (
+                                                                    e2, n0) =
+                                                                    getopts_events
+                                                                    os rest
+                                                                    in
+                                                                    (
+                                                                    (app evs
+                                                                    e2), (S
+                                                                    n0)))
+                                                                   else 
+                                                                    let (
+                                                                    evs, pend) =
+                                                                    scan_chars
+                                                                    os cs
+                                                                    in
+                                                                    (
+                                                                    match pend with
+                                                                    | Some c ->
+                                                                    (match rest with
+                                                                    | [] ->
+                                                                    ((app evs
+                                                                    (GBad :: [])),
+                                                                    (S O))
+                                                                    | a1 :: rest' ->
+                                                                    let (
+                                                                    e2, n0) =
+                                                                    getopts_events
+                                                                    os rest'
+                                                                    in
+                                                                    (
+                                                                    (app evs
+                                                                    ((GOpt
+                                                                    (c,
+                                                                    a1)) :: e2)),
+                                                                    (S (S
+                                                                    n0))))
+                                                                    | None ->
+                                                                    let (
+                                                                    e2, n0) =
+                                                                    getopts_events
+                                                                    os rest
+                                                                    in
+                                                                    (
+                                                                    (app evs
+                                                                    e2), (S
+                                                                    n0)))
+                                                              else let (
+                                                                    evs, pend) =
+                                                                    scan_chars
+                                                                    os cs
+                                                                   in
+                                                                   (match pend with
+                                                                    | Some c ->
+                                                                    (match rest with
+                                                                    | [] ->
+                                                                    ((app evs
+                                                                    (GBad :: [])),
+                                                                    (S O))
+                                                                    | a1 :: rest' ->
+                                                                    let (
+                                                                    e2, n0) =
+                                                                    getopts_events
+                                                                    os rest'
+                                                                    in
+                                                                    (
+                                                                    (app evs
+                                                                    ((GOpt
+                                                                    (c,
+                                                                    a1)) :: e2)),
+                                                                    (S (S
+                                                                    n0))))
+                                                                    | None ->
+                                                                    let (
+                                                                    e2, n0) =
+                                                                    getopts_events
+                                                                    os rest
+                                                                    in
+                                                                    (
+                                                                    (app evs
+                                                                    e2), (S
+                                                                    n0)))
+                                                    else let (evs, pend) =
+                                                           scan_chars os cs
+                                                         in
+                                                         (match pend with
+                                                          | Some c ->
+                                                            (match rest with
+                                                             | [] ->
+                                                               ((app evs
+                                                                  (GBad :: [])),
+                                                                 (S O))
+                                                             | a1 :: rest' ->
+                                                               let (e2, n0) =
+                                                                 getopts_events
+                                                                   os rest'
+                                                               in
+                                                               ((app evs
+                                                                  ((GOpt (c,
+                                                                  a1)) :: e2)),
+                                                               (S (S n0))))
+                                                          | None ->
+                                                            let (e2, n0) =
+                                                              getopts_events
+                                                                os rest
+                                                            in
+                                                            ((app evs e2), (S
+                                                            n0))))
+                                                    a0)
+                                else ([], O)
+                      else ([], O)
+                 else ([], O)
+       else ([], O))
+       a)
+
+(** val pat_match : char list -> char list -> bool **)
+
+let pat_match p c =
+  if eqb0 p ('?'::[])
+  then (match c with
+        | [] -> false
+        | _::s -> (match s with
+                   | [] -> true
+                   | _::_ -> false))
+  else eqb0 p c
+
+(** val sourced_release : char list **)
+
+let sourced_release =
+  '.'::(' '::('/'::('s'::('t'::('u'::('b'::('s'::('/'::('s'::('r'::('c'::('_'::('r'::('e'::('l'::('e'::('a'::('s'::('e'::('.'::('s'::('h'::('\n'::[])))))))))))))))))))))))
+
+(** val sourced_setup : char list **)
+
+let sourced_setup =
+  '.'::(' '::('/'::('s'::('t'::('u'::('b'::('s'::('/'::('s'::('r'::('c'::('_'::('s'::('e'::('t'::('u'::('p'::('.'::('s'::('h'::('\n'::[])))))))))))))))))))))
+
+(** val sourced_entry : char list **)
+
+let sourced_entry =
+  '.'::(' '::('/'::('s'::('t'::('u'::('b'::('s'::('/'::('s'::('r'::('c'::('_'::('e'::('n'::('t'::('r'::('y'::('.'::('s'::('h'::('\n'::[])))))))))))))))))))))
+
+(** val nl : char list **)
+
+let nl =
+  '\n'::[]
+
+(** val job_output : char list -> char list -> char list **)
+
+let job_output nonce input =
+  append ('O'::('U'::('T'::(' '::[])))) (append nonce (append nl input))
+
+(** val converted : char list -> char list **)
+
+let converted c =
+  append ('R'::('O'::('O'::('T'::(' '::[]))))) c
+
+(** val opt_or : 'a1 option -> 'a1 -> 'a1 **)
+
+let opt_or o d =
+  match o with
+  | Some a -> a
+  | None -> d
+
+type outcome =
+| Cont of state
+| Exit of nat * state
+
+(** val finish : state -> nat -> outcome **)
+
+let finish st status =
+  let st' = upd_last st status in
+  (match status with
+   | O -> Cont st'
+   | S _ -> if st.errexit then Exit (status, st') else Cont st')
+
+(** val unmod : state -> outcome **)
+
+let unmod st =
+  Exit ((S (S (S (S (S (S (S (S (S (S (S (S (S (S (S (S (S (S (S (S (S (S (S
+    (S (S (S (S (S (S (S (S (S (S (S (S (S (S (S (S (S (S (S (S (S (S (S (S
+    (S (S (S (S (S (S (S (S (S (S (S (S (S (S (S (S (S (S (S (S (S (S (S (S
+    (S (S (S (S (S (S (S (S (S (S (S (S (S (S (S (S (S (S (S (S (S (S (S (S
+    (S (S (S (S (S (S (S (S (S (S (S (S (S (S (S (S (S (S (S (S (S (S (S (S
+    (S (S (S (S (S (S (S (S (S (S (S (S (S (S (S (S (S (S (S (S (S (S (S (S
+    (S (S (S (S (S (S (S (S (S (S (S (S (S (S (S (S (S (S (S (S (S (S (S (S
+    (S (S (S (S (S (S (S (S (S (S (S (S (S (S (S (S (S (S (S (S (S (S (S (S
+    (S (S (S (S (S (S (S (S (S (S (S (S (S (S (S (S (S (S (S (S (S (S (S (S
+    (S (S (S (S (S (S (S (S (S (S (S (S (S (S (S (S (S (S (S (S (S (S (S (S
+    (S (S (S (S (S (S (S (S (S (S (S (S (S (S (S (S
+    O))))))))))))))))))))))))))))))))))))))))))))))))))))))))))))))))))))))))))))))))))))))))))))))))))))))))))))))))))))))))))))))))))))))))))))))))))))))))))))))))))))))))))))))))))))))))))))))))))))))))))))))))))))))))))))))))))))))))))))))))))))))))))))))),
+    (mark_unmodelled st))
+
+(** val res : state -> char list -> path option **)
+
+let res st p =
+  resolve0 st.cwd p
+
+(** val cp_effect : state -> char list -> char list -> fs option **)
+
+let cp_effect st a b =
+  match res st a with
+  | Some src ->
+    (match res st b with
+     | Some dst ->
+       (match file_content st.fsys src with
+        | Some c ->
+          let target =
+            if is_dir st.fsys dst
+            then Some (app dst ((basename src) :: []))
+            else if ends_slash b then None else Some dst
+          in
+          (match target with
+           | Some t ->
+             if list_str_eqb t src then None else write_file st.fsys t c
+           | None -> None)
+        | None -> None)
+     | None -> None)
+  | None -> None
+
+(** val is_file_s : state -> char list -> bool **)
+
+let is_file_s st p =
+  match res st p with
+  | Some q -> is_file st.fsys q
+  | None -> false
+
+(** val is_dir_s : state -> char list -> bool **)
+
+let is_dir_s st p =
+  match res st p with
+  | Some q -> is_dir st.fsys q
+  | None -> false
+
+(** val exists_s : state -> char list -> bool **)
+
+let exists_s st p =
+  match res st p with
+  | Some q -> exists_ st.fsys q
+  | None -> false
+
+(** val content_s : state -> char list -> char list **)
+
+let content_s st p =
+  match res st p with
+  | Some q -> opt_or (file_content st.fsys q) []
+  | None -> []
+
+(** val write_s : state -> fs -> char list -> char list -> fs option **)
+
+let write_s st f p c =
+  match res st p with
+  | Some q -> write_file f q c
+  | None -> None
+
+(** val mkdir_s : state -> fs -> char list -> fs option **)
+
+let mkdir_s st f p =
+  match res st p with
+  | Some q -> mkdir_at f q
+  | None -> None
+
+(** val obind : 'a1 option -> ('a1 -> 'a2 option) -> 'a2 option **)
+
+let obind o f =
+  match o with
+  | Some a -> f a
+  | None -> None
+
+type tool_res =
+| TOk of fs
+| TFail
+| TUnmodelled
+
+(** val of_opt : fs option -> tool_res **)
+
+let of_opt = function
+| Some f -> TOk f
+| None -> TFail
+
+(** val known_tools : char list list **)
+
+let known_tools =
+  ('m'::('k'::('d'::('i'::('r'::[]))))) :: (('c'::('p'::[])) :: (('c'::('h'::('m'::('o'::('d'::[]))))) :: (('r'::('m'::[])) :: (('c'::('m'::('a'::('k'::('e'::[]))))) :: (('m'::('a'::('k'::('e'::[])))) :: (('p'::('y'::('t'::('h'::('o'::('n'::[])))))) :: (('s'::('u'::('d'::('o'::[])))) :: (('m'::('k'::('e'::('d'::('a'::('n'::('l'::('z'::('r'::[]))))))))) :: (('s'::('c'::('r'::('a'::('m'::[]))))) :: (('c'::('m'::('s'::('R'::('u'::('n'::[])))))) :: (('r'::('o'::('o'::('t'::[])))) :: (('x'::('r'::('d'::('c'::('p'::[]))))) :: []))))))))))))
+
+(** val tool_effect :
+    char list -> state -> char list -> char list list -> tool_res **)
+
+let tool_effect nonce st name args =
+  let f = st.fsys in
+  if eqb0 name ('m'::('k'::('d'::('i'::('r'::[])))))
+  then (match args with
+        | [] -> TUnmodelled
+        | d :: l ->
+          (match l with
+           | [] ->
+             (match prefix_strip ('-'::[]) d with
+              | Some _ -> TUnmodelled
+              | None -> of_opt (mkdir_s st f d))
+           | _ :: _ -> TUnmodelled))
+  else if eqb0 name ('c'::('p'::[]))
+       then (match args with
+             | [] -> TUnmodelled
+             | a :: l ->
+               (match l with
+                | [] -> TFail
+                | b :: l0 ->
+                  (match l0 with
+                   | [] ->
+                     (match prefix_strip ('-'::[]) a with
+                      | Some _ -> TUnmodelled
+                      | None -> of_opt (cp_effect st a b))
+                   | _ :: _ -> TUnmodelled)))
+       else if eqb0 name ('c'::('h'::('m'::('o'::('d'::[])))))
+            then (match args with
+                  | [] -> TUnmodelled
+                  | _ :: l ->
+                    (match l with
+                     | [] -> TUnmodelled
+                     | p :: l0 ->
+                       (match l0 with
+                        | [] -> if exists_s st p then TOk f else TFail
+                        | _ :: _ -> TUnmodelled)))
+            else if eqb0 name ('r'::('m'::[]))
+                 then (match args with
+                       | [] -> TUnmodelled
+                       | s :: l ->
+                         (match s with
+                          | [] -> TUnmodelled
+                          | a::s0 ->
+                            (* If this appears, you're using Ascii internals. Please don't *)
+ (fun f c ->
+  let n = Char.code c in
+  let h i = (n land (1 lsl i)) <> 0 in
+  f (h 0) (h 1) (h 2) (h 3) (h 4) (h 5) (h 6) (h 7))
+                              (fun b b0 b1 b2 b3 b4 b5 b6 ->
+                              if b
+                              then if b0
+                                   then TUnmodelled
+                                   else if b1
+                                        then if b2
+                                             then if b3
+                                                  then TUnmodelled
+                                                  else if b4
+                                                       then if b5
+                                                            then TUnmodelled
+                                                            else if b6
+                                                                 then 
+                                                                   TUnmodelled
+                                                                 else 
+                                                                   (match s0 with
+                                                                    | [] ->
+                                                                    TUnmodelled
+                                                                    | a0::s1 ->
+                                                                    (* If this appears, you're using Ascii internals. Please don't *)
+ (fun f c ->
+  let n = Char.code c in
+  let h i = (n land (1 lsl i)) <> 0 in
+  f (h 0) (h 1) (h 2) (h 3) (h 4) (h 5) (h 6) (h 7))
+                                                                    (fun b7 b8 b9 b10 b11 b12 b13 b14 ->
+                                                                    if b7
+                                                                    then 
+                                                                    TUnmodelled
+                                                                    else 
+                                                                    if b8
+                                                                    then 
+                                                                    if b9
+                                                                    then 
+                                                                    TUnmodelled
+                                                                    else 
+                                                                    if b10
+                                                                    then 
+                                                                    TUnmodelled
+                                                                    else 
+                                                                    if b11
+                                                                    then 
+                                                                    if b12
+                                                                    then 
+                                                                    if b13
+                                                                    then 
+                                                                    if b14
+                                                                    then 
+                                                                    TUnmodelled
+                                                                    else 
+                                                                    (match s1 with
+                                                                    | [] ->
+                                                                    TUnmodelled
+                                                                    | a1::s2 ->
+                                                                    (* If this appears, you're using Ascii internals. Please don't *)
+ (fun f c ->
+  let n = Char.code c in
+  let h i = (n land (1 lsl i)) <> 0 in
+  f (h 0) (h 1) (h 2) (h 3) (h 4) (h 5) (h 6) (h 7))
+                                                                    (fun b15 b16 b17 b18 b19 b20 b21 b22 ->
+                                                                    if b15
+                                                                    then 
+                                                                    TUnmodelled
+                                                                    else 
+                                                                    if b16
+                                                                    then 
+                                                                    if b17
+                                                                    then 
+                                                                    if b18
+                                                                    then 
+                                                                    TUnmodelled
+                                                                    else 
+                                                                    if b19
+                                                                    then 
+                                                                    TUnmodelled
+                                                                    else 
+                                                                    if b20
+                                                                    then 
+                                                                    if b21
+                                                                    then 
+                                                                    if b22
+                                                                    then 
+                                                                    TUnmodelled
+                                                                    else 
+                                                                    (match s2 with
+                                                                    | [] ->
+                                                                    (match l with
+                                                                    | [] ->
+                                                                    TUnmodelled
+                                                                    | d :: l0 ->
+                                                                    (match l0 with
+                                                                    | [] ->
+                                                                    (match 
+                                                                    res st d with
+                                                                    | Some q ->
+                                                                    TOk
+                                                                    (fs_rm_tree
+                                                                    f q)
+                                                                    | None ->
+                                                                    TOk f)
+                                                                    | _ :: _ ->
+                                                                    TUnmodelled))
+                                                                    | _::_ ->
+                                                                    TUnmodelled)
+                                                                    else 
+                                                                    TUnmodelled
+                                                                    else 
+                                                                    TUnmodelled
+                                                                    else 
+                                                                    TUnmodelled
+                                                                    else 
+                                                                    TUnmodelled)
+                                                                    a1)
+                                                                    else 
+                                                                    TUnmodelled
+                                                                    else 
+                                                                    TUnmodelled
+                                                                    else 
+                                                                    TUnmodelled
+                                                                    else 
+                                                                    TUnmodelled)
+                                                                    a0)
+                                                       else TUnmodelled
+                                             else TUnmodelled
+                                        else TUnmodelled
+                              else TUnmodelled)
+                              a))
+                 else if eqb0 name ('c'::('m'::('a'::('k'::('e'::[])))))
+                      then (match args with
+                            | [] -> TFail
+                            | src :: l ->
+                              (match l with
+                               | [] ->
+                                 if is_file_s st
+                                      (append src
+                                        ('/'::('C'::('M'::('a'::('k'::('e'::('L'::('i'::('s'::('t'::('s'::('.'::('t'::('x'::('t'::[]))))))))))))))))
+                                 then of_opt
+                                        (obind
+                                          (if is_dir_s st
+                                                ('x'::('8'::('6'::('_'::('6'::('4'::[]))))))
+                                           then Some f
+                                           else mkdir_s st f
+                                                  ('x'::('8'::('6'::('_'::('6'::('4'::[])))))))
+                                          (fun f1 ->
+                                          obind
+                                            (write_s st f1
+                                              ('x'::('8'::('6'::('_'::('6'::('4'::('/'::('s'::('e'::('t'::('u'::('p'::('.'::('s'::('h'::[])))))))))))))))
+                                              sourced_setup) (fun f2 ->
+                                            write_s st f2
+                                              ('M'::('a'::('k'::('e'::('f'::('i'::('l'::('e'::[]))))))))
+                                              (append
+                                                ('G'::('E'::('N'::(' '::('c'::('m'::('a'::('k'::('e'::[])))))))))
+                                                nl))))
+                                 else TFail
+                               | _ :: _ -> TFail))
+                      else if eqb0 name ('m'::('a'::('k'::('e'::[]))))
+                           then (match args with
+                                 | [] ->
+                                   if is_file_s st
+                                        ('M'::('a'::('k'::('e'::('f'::('i'::('l'::('e'::[]))))))))
+                                   then of_opt
+                                          (write_s st f
+                                            ('b'::('u'::('i'::('l'::('t'::[])))))
+                                            (append
+                                              ('G'::('E'::('N'::(' '::('b'::('u'::('i'::('l'::('d'::[])))))))))
+                                              nl))
+                                   else TFail
+                                 | _ :: _ -> TFail)
+                           else if eqb0 name
+                                     ('p'::('y'::('t'::('h'::('o'::('n'::[]))))))
+                                then (match args with
+                                      | [] -> TFail
+                                      | script2 :: l ->
+                                        (match l with
+                                         | [] -> TFail
+                                         | sub0 :: l0 ->
+                                           (match l0 with
+                                            | [] ->
+                                              (match prefix_strip
+                                                       ('-'::('-'::('s'::('u'::('b'::('m'::('i'::('s'::('s'::('i'::('o'::('n'::('-'::('d'::('i'::('r'::('='::[])))))))))))))))))
+                                                       sub0 with
+                                               | Some d ->
+                                                 if (&&)
+                                                      ((&&)
+                                                        ((&&)
+                                                          (is_file_s st
+                                                            script2)
+                                                          (is_file_s st
+                                                            ('b'::('u'::('i'::('l'::('t'::[])))))))
+                                                        (is_file_s st
+                                                          ('f'::('i'::('l'::('e'::('l'::('i'::('s'::('t'::('.'::('t'::('x'::('t'::[]))))))))))))))
+                                                      (negb (exists_s st d))
+                                                 then of_opt
+                                                        (obind
+                                                          (mkdir_s st f d)
+                                                          (fun f1 ->
+                                                          obind
+                                                            (mkdir_s st f1
+                                                              (append d
+                                                                ('/'::('d'::('a'::('t'::('a'::('-'::('A'::('N'::('A'::('L'::('Y'::('S'::('I'::('S'::[]))))))))))))))))
+                                                            (fun f2 ->
+                                                            write_s st f2
+                                                              (append d
+                                                                ('/'::('d'::('a'::('t'::('a'::('-'::('A'::('N'::('A'::('L'::('Y'::('S'::('I'::('S'::('/'::('A'::('N'::('A'::('L'::('Y'::('S'::('I'::('S'::('.'::('r'::('o'::('o'::('t'::[])))))))))))))))))))))))))))))
+                                                              (job_output
+                                                                nonce
+                                                                (content_s st
+                                                                  ('f'::('i'::('l'::('e'::('l'::('i'::('s'::('t'::('.'::('t'::('x'::('t'::[])))))))))))))))))
+                                                 else TFail
+                                               | None -> TFail)
+                                            | _ :: _ -> TFail)))
+                                else if eqb0 name
+                                          ('s'::('u'::('d'::('o'::[]))))
+                                     then (match args with
+                                           | [] -> TFail
+                                           | _ :: l ->
+                                             (match l with
+                                              | [] -> TFail
+                                              | _ :: l0 ->
+                                                (match l0 with
+                                                 | [] -> TFail
+                                                 | _ :: l1 ->
+                                                   (match l1 with
+                                                    | [] -> TFail
+                                                    | d :: l2 ->
+                                                      (match l2 with
+                                                       | [] ->
+                                                         if exists_s st d
+                                                         then TOk f
+                                                         else TFail
+                                                       | _ :: _ -> TFail)))))
+                                     else if eqb0 name
+                                               ('m'::('k'::('e'::('d'::('a'::('n'::('l'::('z'::('r'::[])))))))))
+                                          then (match args with
+                                                | [] -> TFail
+                                                | n0 :: l ->
+                                                  (match l with
+                                                   | [] ->
+                                                     if exists_s st n0
+                                                     then TFail
+                                                     else of_opt
+                                                            (obind
+                                                              (mkdir_s st f
+                                                                n0)
+                                                              (fun f1 ->
+                                                              obind
+                                                                (mkdir_s st
+                                                                  f1
+                                                                  (append n0
+                                                                    ('/'::('s'::('r'::('c'::[]))))))
+                                                                (fun f2 ->
+                                                                obind
+                                                                  (mkdir_s st
+                                                                    f2
+                                                                    (append
+                                                                    n0
+                                                                    ('/'::('p'::('l'::('u'::('g'::('i'::('n'::('s'::[]))))))))))
+                                                                  (fun f3 ->
+                                                                  mkdir_s st
+                                                                    f3
+                                                                    (append
+                                                                    n0
+                                                                    ('/'::('p'::('y'::('t'::('h'::('o'::('n'::[]))))))))))))
+                                                   | _ :: _ -> TFail))
+                                          else if eqb0 name
+                                                    ('s'::('c'::('r'::('a'::('m'::[])))))
+                                               then if (||)
+                                                         (is_file_s st
+                                                           ('s'::('r'::('c'::('/'::('A'::('n'::('a'::('l'::('y'::('z'::('e'::('r'::('.'::('c'::('c'::[]))))))))))))))))
+                                                         (is_file_s st
+                                                           ('p'::('l'::('u'::('g'::('i'::('n'::('s'::('/'::('A'::('n'::('a'::('l'::('y'::('z'::('e'::('r'::('.'::('c'::('c'::[]))))))))))))))))))))
+                                                    then of_opt
+                                                           (write_s st f
+                                                             ('b'::('u'::('i'::('l'::('t'::[])))))
+                                                             (append
+                                                               ('G'::('E'::('N'::(' '::('b'::('u'::('i'::('l'::('d'::[])))))))))
+                                                               nl))
+                                                    else TFail
+                                               else if eqb0 name
+                                                         ('c'::('m'::('s'::('R'::('u'::('n'::[]))))))
+                                                    then (match args with
+                                                          | [] -> TFail
+                                                          | cfg :: l ->
+                                                            (match l with
+                                                             | [] ->
+                                                               let out =
+                                                                 get_env st
+                                                                   ('C'::('M'::('S'::('_'::('O'::('U'::('T'::('P'::('U'::('T'::('_'::('F'::('I'::('L'::('E'::[])))))))))))))))
+                                                               in
+                                                               if (&&)
+                                                                    ((&&)
+                                                                    ((&&)
+                                                                    (is_file_s
+                                                                    st cfg)
+                                                                    (is_file_s
+                                                                    st
+                                                                    ('b'::('u'::('i'::('l'::('t'::[])))))))
+                                                                    (is_file_s
+                                                                    st
+                                                                    ('f'::('i'::('l'::('e'::('l'::('i'::('s'::('t'::('.'::('t'::('x'::('t'::[]))))))))))))))
+                                                                    (negb
+                                                                    (eqb0 out
+                                                                    []))
+                                                               then of_opt
+                                                                    (write_s
+                                                                    st f
+                                                                    (append
+                                                                    ('.'::('/'::[]))
+                                                                    out)
+                                                                    (job_output
+                                                                    nonce
+                                                                    (content_s
+                                                                    st
+                                                                    ('f'::('i'::('l'::('e'::('l'::('i'::('s'::('t'::('.'::('t'::('x'::('t'::[])))))))))))))))
+                                                               else TFail
+                                                             | _ :: _ -> TFail))
+                                                    else if eqb0 name
+                                                              ('r'::('o'::('o'::('t'::[]))))
+                                                         then (match args with
+                                                               | [] -> TFail
+                                                               | _ :: l ->
+                                                                 (match l with
+                                                                  | [] ->
+                                                                    TFail
+                                                                  | _ :: l0 ->
+                                                                    (match l0 with
+                                                                    | [] ->
+                                                                    TFail
+                                                                    | _ :: l1 ->
+                                                                    (match l1 with
+                                                                    | [] ->
+                                                                    TFail
+                                                                    | a :: l2 ->
+                                                                    (match l2 with
+                                                                    | [] ->
+                                                                    (match 
+                                                                    split_sub
+                                                                    ('('::('"'::[]))
+                                                                    a with
+                                                                    | Some p ->
+                                                                    let (
+                                                                    macro,
+                                                                    rest) = p
+                                                                    in
+                                                                    (
+                                                                    match 
+                                                                    split_sub
+                                                                    ('"'::(','::('"'::[])))
+                                                                    rest with
+                                                                    | Some p0 ->
+                                                                    let (
+                                                                    inp, out') =
+                                                                    p0
+                                                                    in
+                                                                    (
+                                                                    match 
+                                                                    strip_suffix
+                                                                    ('"'::(')'::[]))
+                                                                    out' with
+                                                                    | Some out ->
+                                                                    if 
+                                                                    (&&)
+                                                                    ((&&)
+                                                                    (is_file_s
+                                                                    st macro)
+                                                                    (is_file_s
+                                                                    st inp))
+                                                                    (negb
+                                                                    (is_dir_s
+                                                                    st out))
+                                                                    then 
+                                                                    of_opt
+                                                                    (write_s
+                                                                    st f out
+                                                                    (converted
+                                                                    (content_s
+                                                                    st inp)))
+                                                                    else TFail
+                                                                    | None ->
+                                                                    TFail)
+                                                                    | None ->
+                                                                    TFail)
+                                                                    | None ->
+                                                                    TFail)
+                                                                    | _ :: _ ->
+                                                                    TFail)))))
+                                                         else if eqb0 name
+                                                                   ('x'::('r'::('d'::('c'::('p'::[])))))
+                                                              then TFail
+                                                              else TUnmodelled
+
+(** val run_tool :
+    (nat -> bool) -> char list -> state -> char list list -> outcome **)
+
+let run_tool oracle nonce st argv = match argv with
+| [] -> finish st O
+| name :: args ->
+  if negb (mem_str name known_tools)
+  then unmod st
+  else let st1 = take_step st argv in
+       if oracle st.steps
+       then finish st1 (S O)
+       else (match tool_effect nonce st name args with
+             | TOk f -> finish (upd_fs st1 f) O
+             | TFail -> finish st1 (S O)
+             | TUnmodelled -> unmod st1)
+
+(** val run_source : (nat -> bool) -> state -> word -> outcome **)
+
+let run_source oracle st w =
+  match expand_word st w with
+  | [] -> unmod st
+  | s :: l ->
+    (match l with
+     | [] ->
+       if negb (has_slash s)
+       then unmod st
+       else (match res st s with
+             | Some p ->
+               (match fs_get st.fsys p with
+                | Some n0 ->
+                  (match n0 with
+                   | Dir -> finish st (S O)
+                   | File c ->
+                     let go = fun tag eff ->
+                       let st1 = take_step st (tag :: []) in
+                       if oracle st.steps
+                       then finish st1 (S O)
+                       else finish (eff st1) O
+                     in
+                     if eqb0 c sourced_release
+                     then go
+                            ('s'::('o'::('u'::('r'::('c'::('e'::(':'::('r'::('e'::('l'::('e'::('a'::('s'::('e'::[]))))))))))))))
+                            (fun s1 ->
+                            upd_exported
+                              (set_var s1
+                                ('A'::('n'::('a'::('l'::('y'::('s'::('i'::('s'::('B'::('a'::('s'::('e'::('E'::('x'::('t'::('e'::('r'::('n'::('a'::('l'::('s'::('_'::('P'::('L'::('A'::('T'::('F'::('O'::('R'::('M'::[]))))))))))))))))))))))))))))))
+                                ('x'::('8'::('6'::('_'::('6'::('4'::[])))))))
+                              (('A'::('n'::('a'::('l'::('y'::('s'::('i'::('s'::('B'::('a'::('s'::('e'::('E'::('x'::('t'::('e'::('r'::('n'::('a'::('l'::('s'::('_'::('P'::('L'::('A'::('T'::('F'::('O'::('R'::('M'::[])))))))))))))))))))))))))))))) :: s1.exported))
+                     else if eqb0 c sourced_setup
+                          then go
+                                 ('s'::('o'::('u'::('r'::('c'::('e'::(':'::('s'::('e'::('t'::('u'::('p'::[]))))))))))))
+                                 (fun s1 -> s1)
+                          else if eqb0 c sourced_entry
+                               then go
+                                      ('s'::('o'::('u'::('r'::('c'::('e'::(':'::('e'::('n'::('t'::('r'::('y'::[]))))))))))))
+                                      (fun s1 ->
+                                      upd_exported
+                                        (set_var s1
+                                          ('C'::('V'::('S'::('R'::('O'::('O'::('T'::[])))))))
+                                          ('c'::('m'::('s'::[]))))
+                                        (('C'::('V'::('S'::('R'::('O'::('O'::('T'::[]))))))) :: s1.exported))
+                               else unmod st)
+                | None -> finish st (S O))
+             | None -> finish st (S O))
+     | _ :: _ -> unmod st)
+
+(** val run_events :
+    char list -> (char list -> (state -> outcome) option) -> gev list ->
+    state -> outcome **)
+
+let rec run_events var body evs st =
+  match evs with
+  | [] -> Cont st
+  | e :: r ->
+    let ca = match e with
+             | GOpt (c, a) -> (c, a)
+             | GBad -> (('?'::[]), []) in
+    let st1 =
+      set_var (set_var st var (fst ca))
+        ('O'::('P'::('T'::('A'::('R'::('G'::[])))))) (snd ca)
+    in
+    (match body (fst ca) with
+     | Some f ->
+       (match f st1 with
+        | Cont st2 -> run_events var body r st2
+        | Exit (code, st0) -> Exit (code, st0))
+     | None -> run_events var body r st1)
+
+(** val exec_cmds : (nat -> bool) -> char list -> cmds -> state -> outcome **)
+
+let exec_cmds oracle nonce =
+  let rec exec_cmd c st =
+    match c with
+    | CAssign (v, w) -> finish (set_var st v (expand_str st w)) O
+    | CScriptDir v -> finish (set_var st v (path_str st.scriptdir)) O
+    | CPwdTo v -> finish (set_var st v (path_str st.cwd)) O
+    | CSetE -> finish (upd_errexit st true) O
+    | CSetX -> finish st O
+    | CShiftOpt -> finish (upd_pos st (skipn st.optind st.pos)) O
+    | CExit n0 -> Exit (n0, st)
+    | CEcho (ws, redir) ->
+      (match redir with
+       | Some t ->
+         (match expand_word st t with
+          | [] -> finish st (S O)
+          | s :: l ->
+            (match l with
+             | [] ->
+               (match write_s st st.fsys s
+                        (append (join_str (' '::[]) (expand_words st ws)) nl) with
+                | Some f -> finish (upd_fs st f) O
+                | None -> finish st (S O))
+             | _ :: _ -> finish st (S O)))
+       | None -> finish st O)
+    | CCd w ->
+      (match expand_word st w with
+       | [] -> unmod st
+       | s :: l ->
+         (match l with
+          | [] ->
+            (match res st s with
+             | Some p ->
+               if is_dir st.fsys p
+               then finish (upd_cwd st p) O
+               else finish st (S O)
+             | None -> unmod st)
+          | _ :: _ -> unmod st))
+    | CSource w -> run_source oracle st w
+    | CExport (v, w) ->
+      finish
+        (upd_exported (set_var st v (expand_str st w)) (v :: st.exported)) O
+    | CEval (v, lit, c') ->
+      if eqb0 (get_var st v) lit then exec_cmd c' st else unmod st
+    | CHeredoc (target, body) ->
+      (match expand_word st target with
+       | [] -> finish st (S O)
+       | s :: l ->
+         (match l with
+          | [] ->
+            (match write_s st st.fsys s [] with
+             | Some f0 ->
+               let st1 =
+                 take_step (upd_fs st f0) (('c'::('a'::('t'::[]))) :: [])
+               in
+               if oracle st.steps
+               then finish st1 (S O)
+               else finish (upd_fs st1 (opt_or (write_s st f0 s body) f0)) O
+             | None -> finish st (S O))
+          | _ :: _ -> finish st (S O)))
+    | CRun ws -> run_tool oracle nonce st (expand_words st ws)
+    | CIf (b, e) -> exec_branches b (exec_cmds0 e) st
+    | CGetopts (os, var, a) ->
+      let st0 =
+        set_var (set_var st var [])
+          ('O'::('P'::('T'::('A'::('R'::('G'::[])))))) []
+      in
+      let ge = getopts_events os st.pos in
+      (match run_events var (exec_arms a) (fst ge) st0 with
+       | Cont st1 -> finish (upd_optind st1 (snd ge)) O
+       | Exit (code, st1) -> Exit (code, st1))
+  and exec_cmds0 l st =
+    match l with
+    | CNil -> Cont st
+    | CCons (c, r) ->
+      (match exec_cmd c st with
+       | Cont st1 -> exec_cmds0 r st1
+       | Exit (code, st0) -> Exit (code, st0))
+  and exec_branches b els st =
+    match b with
+    | BNil -> els (upd_last st O)
+    | BCons (t, body, r) ->
+      (match eval_test st t with
+       | Some b0 ->
+         if b0
+         then exec_cmds0 body (upd_last st O)
+         else exec_branches r els st
+       | None -> unmod st)
+  and exec_arms a c =
+    match a with
+    | ANil -> None
+    | ACons (p, body, r) ->
+      if pat_match p c then Some (exec_cmds0 body) else exec_arms r c
+  in exec_cmds0
+
+type result0 = { r_exit : nat; r_st : state }
+
+(** val run_script :
+    (nat -> bool) -> char list -> cmds -> state -> result0 **)
+
+let run_script oracle nonce s st0 =
+  match exec_cmds oracle nonce s st0 with
+  | Cont st -> { r_exit = st.last0; r_st = st }
+  | Exit (c, st) -> { r_exit = c; r_st = st }
+
+type config = { cf_filelist : nat; cf_release : bool; cf_entry : bool;
+                cf_calib : bool; cf_cvsroot : bool }
+
+(** val default_filelist : char list **)
+
+let default_filelist =
+  append
+    ('/'::('d'::('a'::('t'::('a'::('/'::('a'::('.'::('r'::('o'::('o'::('t'::[]))))))))))))
+    nl
+
+(** val pkg_content : char list -> char list **)
+
+let pkg_content name =
+  append ('P'::('K'::('G'::(' '::[])))) (append name nl)
+
+(** val opt_if : bool -> 'a1 -> 'a1 option **)
+
+let opt_if b a =
+  if b then Some a else None
+
+(** val init_fs : char list list -> config -> fs **)
+
+let init_fs pkg c =
+  app (((('s'::('c'::('r'::('i'::('p'::('t'::('s'::[]))))))) :: []), (Some
+    Dir)) :: [])
+    (app
+      (map (fun n0 ->
+        ((('s'::('c'::('r'::('i'::('p'::('t'::('s'::[]))))))) :: (n0 :: [])),
+        (Some (File (pkg_content n0))))) pkg)
+      (((('s'::('c'::('r'::('i'::('p'::('t'::('s'::[]))))))) :: (('f'::('i'::('l'::('e'::('l'::('i'::('s'::('t'::('.'::('t'::('x'::('t'::[])))))))))))) :: [])),
+      (opt_if (Nat.eqb c.cf_filelist O) (File default_filelist))) :: (((('w'::('o'::('r'::('k'::[])))) :: []),
+      (Some
+      Dir)) :: (((('w'::('o'::('r'::('k'::[])))) :: (('f'::('i'::('l'::('e'::('l'::('i'::('s'::('t'::('.'::('t'::('x'::('t'::[])))))))))))) :: [])),
+      (opt_if (Nat.eqb c.cf_filelist (S O)) (File default_filelist))) :: (((('r'::('e'::('s'::('u'::('l'::('t'::('s'::[]))))))) :: []),
+      (Some Dir)) :: (((('o'::('u'::('t'::('2'::[])))) :: []), (Some
+      Dir)) :: (((('h'::('o'::('m'::('e'::[])))) :: []), (Some
+      Dir)) :: (((('h'::('o'::('m'::('e'::[])))) :: (('a'::('t'::('l'::('a'::('s'::[]))))) :: [])),
+      (Some
+      Dir)) :: (((('h'::('o'::('m'::('e'::[])))) :: (('a'::('t'::('l'::('a'::('s'::[]))))) :: (('r'::('e'::('l'::('e'::('a'::('s'::('e'::('_'::('s'::('e'::('t'::('u'::('p'::('.'::('s'::('h'::[])))))))))))))))) :: []))),
+      (opt_if c.cf_release (File sourced_release))) :: (((('o'::('p'::('t'::[]))) :: []),
+      (Some
+      Dir)) :: (((('o'::('p'::('t'::[]))) :: (('c'::('m'::('s'::[]))) :: [])),
+      (Some
+      Dir)) :: (((('o'::('p'::('t'::[]))) :: (('c'::('m'::('s'::[]))) :: (('e'::('n'::('t'::('r'::('y'::('p'::('o'::('i'::('n'::('t'::('.'::('s'::('h'::[]))))))))))))) :: []))),
+      (opt_if c.cf_entry (File sourced_entry))) :: (((('x'::('a'::('o'::('d'::('_'::('c'::('a'::('l'::('i'::('b'::('r'::('a'::('t'::('i'::('o'::('n'::('_'::('c'::('a'::('c'::('h'::('e'::[])))))))))))))))))))))) :: []),
+      (opt_if c.cf_calib Dir)) :: [])))))))))))))
+
+(** val init_state : config -> fs -> char list list -> state **)
+
+let init_state c f args =
+  { vars =
+    (if c.cf_cvsroot
+     then (('C'::('V'::('S'::('R'::('O'::('O'::('T'::[]))))))),
+            ('p'::('r'::('e'::('s'::('e'::('t'::[]))))))) :: []
+     else []); exported =
+    (if c.cf_cvsroot
+     then ('C'::('V'::('S'::('R'::('O'::('O'::('T'::[]))))))) :: []
+     else []); cwd = (('w'::('o'::('r'::('k'::[])))) :: []); fsys = f; pos =
+    args; optind = O; errexit = false; last0 = O; steps = O; tlog = [];
+    unmodelled = false; scriptdir =
+    (('s'::('c'::('r'::('i'::('p'::('t'::('s'::[]))))))) :: []) }
+
+(** val invoke :
+    cmds -> config -> fs -> char list list -> (nat -> bool) -> char list ->
+    result0 **)
+
+let invoke s c f args oracle nonce =
+  run_script oracle nonce s (init_state c f args)
+
+type invocation = { i_args : char list list; i_oracle : (nat -> bool);
+                    i_nonce : char list }
+
+(** val run_history :
+    cmds -> config -> fs -> invocation list -> result0 list **)
+
+let rec run_history s c f = function
+| [] -> []
+| i :: r ->
+  let x = invoke s c f i.i_args i.i_oracle i.i_nonce in
+  x :: (run_history s c x.r_st.fsys r)
+
+(** val pkg_atlas : char list list **)
+
+let pkg_atlas =
+  ('q'::('u'::('e'::('r'::('y'::('.'::('h'::[]))))))) :: (('q'::('u'::('e'::('r'::('y'::('.'::('c'::('x'::('x'::[]))))))))) :: (('A'::('T'::('e'::('s'::('t'::('R'::('u'::('n'::('_'::('e'::('l'::('j'::('o'::('b'::('.'::('p'::('y'::[]))))))))))))))))) :: (('p'::('a'::('c'::('k'::('a'::('g'::('e'::('_'::('C'::('M'::('a'::('k'::('e'::('L'::('i'::('s'::('t'::('s'::('.'::('t'::('x'::('t'::[])))))))))))))))))))))) :: [])))
+
+(** val pkg_cms : char list list **)
+
+let pkg_cms =
+  ('A'::('n'::('a'::('l'::('y'::('z'::('e'::('r'::('.'::('c'::('c'::[]))))))))))) :: (('a'::('n'::('a'::('l'::('y'::('z'::('e'::('r'::('_'::('c'::('f'::('g'::('.'::('p'::('y'::[]))))))))))))))) :: (('B'::('u'::('i'::('l'::('d'::('F'::('i'::('l'::('e'::('.'::('x'::('m'::('l'::[]))))))))))))) :: (('c'::('o'::('p'::('y'::('_'::('r'::('o'::('o'::('t'::('_'::('t'::('r'::('e'::('e'::('.'::('C'::[])))))))))))))))) :: [])))
+
+(** val oracle_of : nat list -> nat -> bool **)
+
+let oracle_of l i =
+  existsb (Nat.eqb i) l
+
+(** val d_config : sexp -> config option **)
+
+let d_config = function
+| SAtom _ -> None
+| SList l ->
+  (match l with
+   | [] -> None
+   | a :: l0 ->
+     (match l0 with
+      | [] -> None
+      | b :: l1 ->
+        (match l1 with
+         | [] -> None
+         | c :: l2 ->
+           (match l2 with
+            | [] -> None
+            | d :: l3 ->
+              (match l3 with
+               | [] -> None
+               | e :: l4 ->
+                 (match l4 with
+                  | [] ->
+                    (match d_nat a with
+                     | Some a' ->
+                       (match d_bool b with
+                        | Some b' ->
+                          (match d_bool c with
+                           | Some c' ->
+                             (match d_bool d with
+                              | Some d' ->
+                                (match d_bool e with
+                                 | Some e' ->
+                                   Some { cf_filelist = a'; cf_release = b';
+                                     cf_entry = c'; cf_calib = d';
+                                     cf_cvsroot = e' }
+                                 | None -> None)
+                              | None -> None)
+                           | None -> None)
+                        | None -> None)
+                     | None -> None)
+                  | _ :: _ -> None))))))
+
+(** val d_inv : sexp -> invocation option **)
+
+let d_inv = function
+| SAtom _ -> None
+| SList l ->
+  (match l with
+   | [] -> None
+   | a :: l0 ->
+     (match l0 with
+      | [] -> None
+      | s0 :: l1 ->
+        (match s0 with
+         | SAtom _ -> None
+         | SList fl ->
+           (match l1 with
+            | [] -> None
+            | n0 :: l2 ->
+              (match l2 with
+               | [] ->
+                 (match d_strs a with
+                  | Some a' ->
+                    (match d_list d_nat fl with
+                     | Some fl' ->
+                       (match d_str n0 with
+                        | Some n' ->
+                          Some { i_args = a'; i_oracle = (oracle_of fl');
+                            i_nonce = n' }
+                        | None -> None)
+                     | None -> None)
+                  | None -> None)
+               | _ :: _ -> None)))))
+
+(** val d_stale : sexp -> (char list * char list) option **)
+
+let d_stale = function
+| SAtom _ -> None
+| SList l ->
+  (match l with
+   | [] -> None
+   | s0 :: l0 ->
+     (match s0 with
+      | SAtom p ->
+        (match l0 with
+         | [] -> None
+         | s1 :: l1 ->
+           (match s1 with
+            | SAtom c -> (match l1 with
+                          | [] -> Some (p, c)
+                          | _ :: _ -> None)
+            | SList _ -> None))
+      | SList _ -> None))
+
+(** val snap_dirs : char list list **)
+
+let snap_dirs =
+  ('s'::('c'::('r'::('i'::('p'::('t'::('s'::[]))))))) :: (('w'::('o'::('r'::('k'::[])))) :: (('r'::('e'::('s'::('u'::('l'::('t'::('s'::[]))))))) :: (('o'::('u'::('t'::('2'::[])))) :: [])))
+
+(** val enc_fs : fs -> sexp **)
+
+let enc_fs f =
+  SList
+    (flat_map (fun kv ->
+      let (k, y) = kv in
+      (match y with
+       | Some n0 ->
+         if mem_str (hd [] k) snap_dirs
+         then (SList ((SAtom (path_str k)) :: ((SAtom
+                (match n0 with
+                 | Dir -> 'D'::[]
+                 | File c -> append ('F'::[]) c)) :: []))) :: []
+         else []
+       | None -> [])) f)
+
+(** val enc_result : result0 -> sexp **)
+
+let enc_result r =
+  SList ((s_nat r.r_exit) :: ((s_bool r.r_st.unmodelled) :: ((SList
+    (map s_strs r.r_st.tlog)) :: ((enc_fs r.r_st.fsys) :: []))))
+
+(** val add_stale : fs -> (char list * char list) list -> fs **)
+
+let add_stale f l =
+  fold_left (fun f' pc ->
+    match resolve0 [] (fst pc) with
+    | Some q -> fs_set f' q (Some (File (snd pc)))
+    | None -> f') l f
+
+(** val run_wire : cmds -> char list list -> sexp -> sexp **)
+
+let run_wire s pkg = function
+| SAtom _ -> bad_input
+| SList l ->
+  (match l with
+   | [] -> bad_input
+   | c :: l0 ->
+     (match l0 with
+      | [] -> bad_input
+      | s0 :: l1 ->
+        (match s0 with
+         | SAtom _ -> bad_input
+         | SList st ->
+           (match l1 with
+            | [] -> bad_input
+            | s1 :: l2 ->
+              (match s1 with
+               | SAtom _ -> bad_input
+               | SList h ->
+                 (match l2 with
+                  | [] ->
+                    (match d_config c with
+                     | Some c' ->
+                       (match d_list d_stale st with
+                        | Some st' ->
+                          (match d_list d_inv h with
+                           | Some h' ->
+                             SList
+                               (map enc_result
+                                 (run_history s c'
+                                   (add_stale (init_fs pkg c') st') h'))
+                           | None -> bad_input)
+                        | None -> bad_input)
+                     | None -> bad_input)
+                  | _ :: _ -> bad_input))))))
+
+(** val run_getopts : sexp -> sexp **)
+
+let run_getopts = function
+| SAtom _ -> bad_input
+| SList l ->
+  (match l with
+   | [] -> bad_input
+   | s :: l0 ->
+     (match s with
+      | SAtom os ->
+        (match l0 with
+         | [] -> bad_input
+         | a :: l1 ->
+           (match l1 with
+            | [] ->
+              (match d_strs a with
+               | Some a' ->
+                 let ge = getopts_events os a' in
+                 SList ((SList
+                 (map (fun e ->
+                   match e with
+                   | GOpt (c, x) -> SList ((SAtom c) :: ((SAtom x) :: []))
+                   | GBad -> SList ((SAtom ('?'::[])) :: ((SAtom []) :: [])))
+                   (fst ge))) :: ((s_nat (snd ge)) :: []))
+               | None -> bad_input)
+            | _ :: _ -> bad_input))
+      | SList _ -> bad_input))
+
+(** val script : cmds **)
+
+let script =
+  CCons (CSetE, (CCons ((CAssign
+    (('o'::('u'::('t'::('p'::('u'::('t'::('_'::('m'::('e'::('t'::('h'::('o'::('d'::[]))))))))))))),
+    ((WLit ('c'::('p'::[]))) :: []))), (CCons ((CAssign
+    (('o'::('u'::('t'::('p'::('u'::('t'::('_'::('d'::('i'::('r'::[])))))))))),
+    ((WLit
+    ('/'::('r'::('e'::('s'::('u'::('l'::('t'::('s'::[]))))))))) :: []))),
+    (CCons ((CAssign
+    (('i'::('n'::('p'::('u'::('t'::('_'::('m'::('e'::('t'::('h'::('o'::('d'::[])))))))))))),
+    ((WLit
+    ('f'::('i'::('l'::('e'::('l'::('i'::('s'::('t'::[]))))))))) :: []))),
+    (CCons ((CAssign
+    (('i'::('n'::('p'::('u'::('t'::('_'::('f'::('i'::('l'::('e'::[])))))))))),
+    ((WLit []) :: []))), (CCons ((CAssign
+    (('c'::('o'::('m'::('p'::('i'::('l'::('e'::[]))))))), ((WLit
+    ('1'::[])) :: []))), (CCons ((CAssign (('r'::('u'::('n'::[]))), ((WLit
+    ('1'::[])) :: []))), (CCons ((CAssign
+    (('c'::('a'::('l'::('i'::('b'::('_'::('c'::('a'::('c'::('h'::('e'::[]))))))))))),
+    ((WLit
+    ('/'::('x'::('a'::('o'::('d'::('_'::('c'::('a'::('l'::('i'::('b'::('r'::('a'::('t'::('i'::('o'::('n'::('_'::('c'::('a'::('c'::('h'::('e'::[])))))))))))))))))))))))) :: []))),
+    (CCons ((CGetopts (('d'::(':'::('o'::(':'::('c'::('r'::[])))))),
+    ('o'::('p'::('t'::[]))), (ACons (('d'::[]), (CCons ((CAssign
+    (('i'::('n'::('p'::('u'::('t'::('_'::('m'::('e'::('t'::('h'::('o'::('d'::[])))))))))))),
+    ((WLit ('c'::('m'::('d'::[])))) :: []))), (CCons ((CAssign
+    (('i'::('n'::('p'::('u'::('t'::('_'::('f'::('i'::('l'::('e'::[])))))))))),
+    ((WVar (false, ('O'::('P'::('T'::('A'::('R'::('G'::[])))))))) :: []))),
+    CNil)))), (ACons (('c'::[]), (CCons ((CAssign (('r'::('u'::('n'::[]))),
+    ((WLit ('0'::[])) :: []))), CNil)), (ACons (('r'::[]), (CCons ((CAssign
+    (('c'::('o'::('m'::('p'::('i'::('l'::('e'::[]))))))), ((WLit
+    ('0'::[])) :: []))), CNil)), (ACons (('o'::[]), (CCons ((CAssign
+    (('o'::('u'::('t'::('p'::('u'::('t'::('_'::('d'::('i'::('r'::[])))))))))),
+    ((WVar (false, ('O'::('P'::('T'::('A'::('R'::('G'::[])))))))) :: []))),
+    CNil)), (ACons (('?'::[]), (CCons ((CExit (S (S (S (S (S (S (S (S (S (S
+    O))))))))))), CNil)), ANil)))))))))))), (CCons (CShiftOpt, (CCons ((CIf
+    ((BCons ((TNe (((WVar (false, ('#'::[]))) :: []), ((WLit
+    ('0'::[])) :: []))), (CCons ((CEcho ((((WLit
+    ('E'::('x'::('t'::('r'::('a'::(' '::('a'::('r'::('g'::('u'::('m'::('e'::('n'::('t'::('s'::(' '::('o'::('n'::(' '::('t'::('h'::('e'::(' '::('c'::('o'::('m'::('m'::('a'::('n'::('d'::(' '::('l'::('i'::('n'::('e'::(' '::[]))))))))))))))))))))))))))))))))))))) :: ((WVar
+    (true, ('@'::[]))) :: [])) :: []), None)), (CCons ((CExit (S O)),
+    CNil)))), BNil)), CNil)), (CCons ((CIf ((BCons ((TFileF ((WLit
+    ('/'::('h'::('o'::('m'::('e'::('/'::('a'::('t'::('l'::('a'::('s'::('/'::('r'::('e'::('l'::('e'::('a'::('s'::('e'::('_'::('s'::('e'::('t'::('u'::('p'::('.'::('s'::('h'::[]))))))))))))))))))))))))))))) :: [])),
+    (CCons ((CSource ((WLit
+    ('/'::('h'::('o'::('m'::('e'::('/'::('a'::('t'::('l'::('a'::('s'::('/'::('r'::('e'::('l'::('e'::('a'::('s'::('e'::('_'::('s'::('e'::('t'::('u'::('p'::('.'::('s'::('h'::[]))))))))))))))))))))))))))))) :: [])),
+    CNil)), BNil)), (CCons ((CEcho ((((WLit
+    ('/'::('h'::('o'::('m'::('e'::('/'::('a'::('t'::('l'::('a'::('s'::('/'::('r'::('e'::('l'::('e'::('a'::('s'::('e'::('_'::('s'::('e'::('t'::('u'::('p'::('.'::('s'::('h'::(' '::('n'::('o'::('t'::(' '::('f'::('o'::('u'::('n'::('d'::('.'::(' '::('S'::('k'::('i'::('p'::('p'::('i'::('n'::('g'::('.'::[])))))))))))))))))))))))))))))))))))))))))))))))))) :: []) :: []),
+    None)), CNil)))), (CCons ((CScriptDir ('D'::('I'::('R'::[])))), (CCons
+    ((CPwdTo ('l'::('o'::('c'::('a'::('l'::[])))))), (CCons ((CIf ((BCons
+    ((TEq (((WVar (false,
+    ('c'::('o'::('m'::('p'::('i'::('l'::('e'::[]))))))))) :: []), ((WLit
+    ('1'::[])) :: []))), (CCons ((CRun (((WLit
+    ('m'::('k'::('d'::('i'::('r'::[])))))) :: []) :: (((WLit
+    ('r'::('e'::('l'::[])))) :: []) :: []))), (CCons ((CCd ((WLit
+    ('r'::('e'::('l'::[])))) :: [])), (CCons ((CRun (((WLit
+    ('m'::('k'::('d'::('i'::('r'::[])))))) :: []) :: (((WLit
+    ('s'::('o'::('u'::('r'::('c'::('e'::[]))))))) :: []) :: []))), (CCons
+    ((CRun (((WLit ('m'::('k'::('d'::('i'::('r'::[])))))) :: []) :: (((WLit
+    ('b'::('u'::('i'::('l'::('d'::[])))))) :: []) :: []))), (CCons ((CRun
+    (((WLit ('m'::('k'::('d'::('i'::('r'::[])))))) :: []) :: (((WLit
+    ('r'::('u'::('n'::[])))) :: []) :: []))), (CCons ((CHeredoc (((WLit
+    ('s'::('o'::('u'::('r'::('c'::('e'::('/'::('C'::('M'::('a'::('k'::('e'::('L'::('i'::('s'::('t'::('s'::('.'::('t'::('x'::('t'::[])))))))))))))))))))))) :: []),
+    ('#'::('\n'::('#'::(' '::('P'::('r'::('o'::('j'::('e'::('c'::('t'::(' '::('c'::('o'::('n'::('f'::('i'::('g'::('u'::('r'::('a'::('t'::('i'::('o'::('n'::(' '::('f'::('o'::('r'::(' '::('U'::('s'::('e'::('r'::('A'::('n'::('a'::('l'::('y'::('s'::('i'::('s'::('.'::('\n'::('#'::('\n'::('p'::('r'::('o'::('j'::('e'::('c'::('t'::('('::('f'::('u'::('n'::('c'::('_'::('a'::('d'::('l'::('_'::('n'::('t'::('u'::('p'::('l'::('e'::('r'::(')'::('\n'::('\n'::('#'::(' '::('S'::('e'::('t'::(' '::('t'::('h'::('e'::(' '::('m'::('i'::('n'::('i'::('m'::('u'::('m'::(' '::('r'::('e'::('q'::('u'::('i'::('r'::('e'::('d'::(' '::('C'::('M'::('a'::('k'::('e'::(' '::('v'::('e'::('r'::('s'::('i'::('o'::('n'::(':'::('\n'::('c'::('m'::('a'::('k'::('e'::('_'::('m'::('i'::('n'::('i'::('m'::('u'::('m'::('_'::('r'::('e'::('q'::('u'::('i'::('r'::('e'::('d'::('('::(' '::('V'::('E'::('R'::('S'::('I'::('O'::('N'::(' '::('3'::('.'::('4'::(' '::('F'::('A'::('T'::('A'::('L'::('_'::('E'::('R'::('R'::('O'::('R'::(' '::(')'::('\n'::('\n'::('#'::(' '::('T'::('r'::('y'::(' '::('t'::('o'::(' '::('f'::('i'::('g'::('u'::('r'::('e'::(' '::('o'::('u'::('t'::(' '::('w'::('h'::('a'::('t'::(' '::('p'::('r'::('o'::('j'::('e'::('c'::('t'::(' '::('i'::('s'::(' '::('o'::('u'::('r'::(' '::('p'::('a'::('r'::('e'::('n'::('t'::('.'::(' '::('J'::('u'::('s'::('t'::(' '::('u'::('s'::('i'::('n'::('g'::(' '::('a'::(' '::('h'::('a'::('r'::('d'::('-'::('c'::('o'::('d'::('e'::('d'::(' '::('l'::('i'::('s'::('t'::('\n'::('#'::(' '::('o'::('f'::(' '::('p'::('o'::('s'::('s'::('i'::('b'::('l'::('e'::(' '::('p'::('r'::('o'::('j'::('e'::('c'::('t'::(' '::('n'::('a'::('m'::('e'::('s'::('.'::(' '::('B'::('a'::('s'::('i'::('c'::('a'::('l'::('l'::('y'::(' '::('t'::('h'::('e'::(' '::('n'::('a'::('m'::('e'::('s'::(' '::('o'::('f'::(' '::('a'::('l'::('l'::(' '::('t'::('h'::('e'::(' '::('o'::('t'::('h'::('e'::('r'::('\n'::('#'::(' '::('s'::('u'::('b'::('-'::('d'::('i'::('r'::('e'::('c'::('t'::('o'::('r'::('i'::('e'::('s'::(' '::('i'::('n'::('s'::('i'::('d'::('e'::(' '::('t'::('h'::('e'::(' '::('P'::('r'::('o'::('j'::('e'::('c'::('t'::('s'::('/'::(' '::('d'::('i'::('r'::('e'::('c'::('t'::('o'::('r'::('y'::(' '::('i'::('n'::(' '::('t'::('h'::('e'::(' '::('r'::('e'::('p'::('o'::('s'::('i'::('t'::('o'::('r'::('y'::('.'::('\n'::('s'::('e'::('t'::('('::(' '::('_'::('p'::('a'::('r'::('e'::('n'::('t'::('P'::('r'::('o'::('j'::('e'::('c'::('t'::('N'::('a'::('m'::('e'::('s'::(' '::('A'::('t'::('h'::('e'::('n'::('a'::(' '::('A'::('t'::('h'::('e'::('n'::('a'::('P'::('1'::(' '::('A'::('n'::('a'::('l'::('y'::('s'::('i'::('s'::('B'::('a'::('s'::('e'::(' '::('A'::('t'::('h'::('A'::('n'::('a'::('l'::('y'::('s'::('i'::('s'::('\n'::(' '::(' '::(' '::('A'::('t'::('h'::('S'::('i'::('m'::('u'::('l'::('a'::('t'::('i'::('o'::('n'::(' '::('A'::('t'::('h'::('D'::('e'::('r'::('i'::('v'::('a'::('t'::('i'::('o'::('n'::(' '::('A'::('n'::('a'::('l'::('y'::('s'::('i'::('s'::('T'::('o'::('p'::(' '::(')'::('\n'::('s'::('e'::('t'::('('::(' '::('_'::('d'::('e'::('f'::('a'::('u'::('l'::('t'::('P'::('a'::('r'::('e'::('n'::('t'::('P'::('r'::('o'::('j'::('e'::('c'::('t'::(' '::('A'::('n'::('a'::('l'::('y'::('s'::('i'::('s'::('B'::('a'::('s'::('e'::(' '::(')'::('\n'::('f'::('o'::('r'::('e'::('a'::('c'::('h'::('('::(' '::('_'::('p'::('p'::(' '::('$'::('{'::('_'::('p'::('a'::('r'::('e'::('n'::('t'::('P'::('r'::('o'::('j'::('e'::('c'::('t'::('N'::('a'::('m'::('e'::('s'::('}'::(' '::(')'::('\n'::(' '::(' '::(' '::('i'::('f'::('('::(' '::('N'::('O'::('T'::(' '::('"'::('$'::('E'::('N'::('V'::('{'::('$'::('{'::('_'::('p'::('p'::('}'::('_'::('D'::('I'::('R'::('}'::('"'::(' '::('S'::('T'::('R'::('E'::('Q'::('U'::('A'::('L'::(' '::('"'::('"'::(' '::(')'::('\n'::(' '::(' '::(' '::(' '::(' '::(' '::('s'::('e'::('t'::('('::(' '::('_'::('d'::('e'::('f'::('a'::('u'::('l'::('t'::('P'::('a'::('r'::('e'::('n'::('t'::('P'::('r'::('o'::('j'::('e'::('c'::('t'::(' '::('$'::('{'::('_'::('p'::('p'::('}'::(' '::(')'::('\n'::(' '::(' '::(' '::(' '::(' '::(' '::('b'::('r'::('e'::('a'::('k'::('('::(')'::('\n'::(' '::(' '::(' '::('e'::('n'::('d'::('i'::('f'::('('::(')'::('\n'::('e'::('n'::('d'::('f'::('o'::('r'::('e'::('a'::('c'::('h'::('('::(')'::('\n'::('\n'::('#'::(' '::('S'::('e'::('t'::(' '::('t'::('h'::('e'::(' '::('p'::('a'::('r'::('e'::('n'::('t'::(' '::('p'::('r'::('o'::('j'::('e'::('c'::('t'::(' '::('n'::('a'::('m'::('e'::(' '::('b'::('a'::('s'::('e'::('d'::(' '::('o'::('n'::(' '::('t'::('h'::('e'::(' '::('p'::('r'::('e'::('v'::('i'::('o'::('u'::('s'::(' '::('f'::('i'::('n'::('d'::('i'::('n'::('g'::('s'::(':'::('\n'::('s'::('e'::('t'::('('::(' '::('A'::('T'::('L'::('A'::('S'::('_'::('P'::('R'::('O'::('J'::('E'::('C'::('T'::(' '::('$'::('{'::('_'::('d'::('e'::('f'::('a'::('u'::('l'::('t'::('P'::('a'::('r'::('e'::('n'::('t'::('P'::('r'::('o'::('j'::('e'::('c'::('t'::('}'::('\n'::(' '::(' '::(' '::('C'::('A'::('C'::('H'::('E'::(' '::('S'::('T'::('R'::('I'::('N'::('G'::(' '::('"'::('T'::('h'::('e'::(' '::('n'::('a'::('m'::('e'::(' '::('o'::('f'::(' '::('t'::('h'::('e'::(' '::('p'::('a'::('r'::('e'::('n'::('t'::(' '::('p'::('r'::('o'::('j'::('e'::('c'::('t'::(' '::('t'::('o'::(' '::('b'::('u'::('i'::('l'::('d'::(' '::('a'::('g'::('a'::('i'::('n'::('s'::('t'::('"'::(' '::(')'::('\n'::('\n'::('#'::(' '::('C'::('l'::('e'::('a'::('n'::(' '::('u'::('p'::(':'::('\n'::('u'::('n'::('s'::('e'::('t'::('('::(' '::('_'::('p'::('a'::('r'::('e'::('n'::('t'::('P'::('r'::('o'::('j'::('e'::('c'::('t'::('N'::('a'::('m'::('e'::('s'::(' '::(')'::('\n'::('u'::('n'::('s'::('e'::('t'::('('::(' '::('_'::('d'::('e'::('f'::('a'::('u'::('l'::('t'::('P'::('a'::('r'::('e'::('n'::('t'::('P'::('r'::('o'::('j'::('e'::('c'::('t'::(' '::(')'::('\n'::('\n'::('#'::(' '::('F'::('i'::('n'::('d'::(' '::('t'::('h'::('e'::(' '::('A'::('n'::('a'::('l'::('y'::('s'::('i'::('s'::('B'::('a'::('s'::('e'::(' '::('p'::('r'::('o'::('j'::('e'::('c'::('t'::('.'::(' '::('T'::('h'::('i'::('s'::(' '::('i'::('s'::(' '::('w'::('h'::('a'::('t'::(','::(' '::('a'::('m'::('o'::('n'::('g'::('s'::('t'::(' '::('o'::('t'::('h'::('e'::('r'::(' '::('t'::('h'::('i'::('n'::('g'::('s'::(','::(' '::('p'::('u'::('l'::('l'::('s'::('\n'::('#'::(' '::('i'::('n'::(' '::('t'::('h'::('e'::(' '::('d'::('e'::('f'::('i'::('n'::('i'::('t'::('i'::('o'::('n'::(' '::('o'::('f'::(' '::('a'::('l'::('l'::(' '::('o'::('f'::(' '::('t'::('h'::('e'::(' '::('"'::('a'::('t'::('l'::('a'::('s'::('_'::('"'::(' '::('p'::('r'::('e'::('f'::('i'::('x'::('e'::('d'::(' '::('f'::('u'::('n'::('c'::('t'::('i'::('o'::('n'::('s'::('/'::('m'::('a'::('c'::('r'::('o'::('s'::('.'::('\n'::('f'::('i'::('n'::('d'::('_'::('p'::('a'::('c'::('k'::('a'::('g'::('e'::('('::(' '::('$'::('{'::('A'::('T'::('L'::('A'::('S'::('_'::('P'::('R'::('O'::('J'::('E'::('C'::('T'::('}'::(' '::('R'::('E'::('Q'::('U'::('I'::('R'::('E'::('D'::(' '::(')'::('\n'::('\n'::('#'::(' '::('S'::('e'::('t'::(' '::('u'::('p'::(' '::('C'::('T'::('e'::('s'::('t'::('.'::(' '::('T'::('h'::('i'::('s'::(' '::('m'::('a'::('k'::('e'::('s'::(' '::('s'::('u'::('r'::('e'::(' '::('t'::('h'::('a'::('t'::(' '::('p'::('e'::('r'::('-'::('p'::('a'::('c'::('k'::('a'::('g'::('e'::(' '::('b'::('u'::('i'::('l'::('d'::(' '::('l'::('o'::('g'::(' '::('f'::('i'::('l'::('e'::('s'::(' '::('c'::('a'::('n'::(' '::('b'::('e'::('\n'::('#'::(' '::('c'::('r'::('e'::('a'::('t'::('e'::('d'::(' '::('i'::('f'::(' '::('t'::('h'::('e'::(' '::('u'::('s'::('e'::('r'::(' '::('s'::('o'::(' '::('c'::('h'::('o'::('o'::('s'::('e'::('s'::('.'::('\n'::('a'::('t'::('l'::('a'::('s'::('_'::('c'::('t'::('e'::('s'::('t'::('_'::('s'::('e'::('t'::('u'::('p'::('('::(')'::('\n'::('\n'::('#'::(' '::('S'::('e'::('t'::(' '::('u'::('p'::(' '::('t'::('h'::('e'::(' '::('G'::('i'::('t'::('A'::('n'::('a'::('l'::('y'::('s'::('i'::('s'::('T'::('u'::('t'::('o'::('r'::('i'::('a'::('l'::(' '::('p'::('r'::('o'::('j'::('e'::('c'::('t'::('.'::(' '::('W'::('i'::('t'::('h'::(' '::('t'::('h'::('i'::('s'::(' '::('C'::('M'::('a'::('k'::('e'::(' '::('w'::('i'::('l'::('l'::(' '::('l'::('o'::('o'::('k'::(' '::('f'::('o'::('r'::(' '::('"'::('p'::('a'::('c'::('k'::('a'::('g'::('e'::('s'::('"'::('\n'::('#'::(' '::('i'::('n'::(' '::('t'::('h'::('e'::(' '::('c'::('u'::('r'::('r'::('e'::('n'::('t'::(' '::('r'::('e'::('p'::('o'::('s'::('i'::('t'::('o'::('r'::('y'::(' '::('a'::('n'::('d'::(' '::('a'::('l'::('l'::(' '::('o'::('f'::(' '::('i'::('t'::('s'::(' '::('s'::('u'::('b'::('m'::('o'::('d'::('u'::('l'::('e'::('s'::(','::(' '::('r'::('e'::('s'::('p'::('e'::('c'::('t'::('i'::('n'::('g'::(' '::('t'::('h'::('e'::('\n'::('#'::(' '::('"'::('p'::('a'::('c'::('k'::('a'::('g'::('e'::('_'::('f'::('i'::('l'::('t'::('e'::('r'::('s'::('.'::('t'::('x'::('t'::('"'::(' '::('f'::('i'::('l'::('e'::(','::(' '::('a'::('n'::('d'::(' '::('s'::('e'::('t'::(' '::('u'::('p'::(' '::('t'::('h'::('e'::(' '::('b'::('u'::('i'::('l'::('d'::(' '::('o'::('f'::(' '::('t'::('h'::('o'::('s'::('e'::(' '::('p'::('a'::('c'::('k'::('a'::('g'::('e'::('s'::('.'::('\n'::('a'::('t'::('l'::('a'::('s'::('_'::('p'::('r'::('o'::('j'::('e'::('c'::('t'::('('::(' '::('U'::('s'::('e'::('r'::('A'::('n'::('a'::('l'::('y'::('s'::('i'::('s'::(' '::('1'::('.'::('0'::('.'::('0'::('\n'::(' '::(' '::(' '::('U'::('S'::('E'::(' '::('$'::('{'::('A'::('T'::('L'::('A'::('S'::('_'::('P'::('R'::('O'::('J'::('E'::('C'::('T'::('}'::(' '::('$'::('{'::('$'::('{'::('A'::('T'::('L'::('A'::('S'::('_'::('P'::('R'::('O'::('J'::('E'::('C'::('T'::('}'::('_'::('V'::('E'::('R'::('S'::('I'::('O'::('N'::('}'::(' '::(')'::('\n'::('\n'::('#'::(' '::('S'::('e'::('t'::(' '::('u'::('p'::(' '::('t'::('h'::('e'::(' '::('r'::('u'::('n'::('t'::('i'::('m'::('e'::(' '::('e'::('n'::('v'::('i'::('r'::('o'::('n'::('m'::('e'::('n'::('t'::(' '::('s'::('e'::('t'::('u'::('p'::(' '::('s'::('c'::('r'::('i'::('p'::('t'::('.'::(' '::('T'::('h'::('i'::('s'::(' '::('m'::('a'::('k'::('e'::('s'::(' '::('s'::('u'::('r'::('e'::(' '::('t'::('h'::('a'::('t'::(' '::('t'::('h'::('e'::('\n'::('#'::(' '::('p'::('r'::('o'::('j'::('e'::('c'::('t'::('\''::('s'::(' '::('"'::('s'::('e'::('t'::('u'::('p'::('.'::('s'::('h'::('"'::(' '::('s'::('c'::('r'::('i'::('p'::('t'::(' '::('c'::('a'::('n'::(' '::('s'::('e'::('t'::(' '::('u'::('p'::(' '::('a'::(' '::('f'::('u'::('l'::('l'::('y'::(' '::('f'::('u'::('n'::('c'::('t'::('i'::('o'::('n'::('a'::('l'::(' '::('r'::('u'::('n'::('t'::('i'::('m'::('e'::(' '::('e'::('n'::('v'::('i'::('r'::('o'::('n'::('m'::('e'::('n'::('t'::(','::('\n'::('#'::(' '::('i'::('n'::('c'::('l'::('u'::('d'::('i'::('n'::('g'::(' '::('a'::('l'::('l'::(' '::('t'::('h'::('e'::(' '::('e'::('x'::('t'::('e'::('r'::('n'::('a'::('l'::('s'::(' '::('t'::('h'::('a'::('t'::(' '::('t'::('h'::('e'::(' '::('p'::('r'::('o'::('j'::('e'::('c'::('t'::(' '::('u'::('s'::('e'::('s'::('.'::('\n'::('l'::('c'::('g'::('_'::('g'::('e'::('n'::('e'::('r'::('a'::('t'::('e'::('_'::('e'::('n'::('v'::('('::(' '::('S'::('H'::('_'::('F'::('I'::('L'::('E'::(' '::('$'::('{'::('C'::('M'::('A'::('K'::('E'::('_'::('B'::('I'::('N'::('A'::('R'::('Y'::('_'::('D'::('I'::('R'::('}'::('/'::('$'::('{'::('A'::('T'::('L'::('A'::('S'::('_'::('P'::('L'::('A'::('T'::('F'::('O'::('R'::('M'::('}'::('/'::('e'::('n'::('v'::('_'::('s'::('e'::('t'::('u'::('p'::('.'::('s'::('h'::(' '::(')'::('\n'::('i'::('n'::('s'::('t'::('a'::('l'::('l'::('('::(' '::('F'::('I'::('L'::('E'::('S'::(' '::('$'::('{'::('C'::('M'::('A'::('K'::('E'::('_'::('B'::('I'::('N'::('A'::('R'::('Y'::('_'::('D'::('I'::('R'::('}'::('/'::('$'::('{'::('A'::('T'::('L'::('A'::('S'::('_'::('P'::('L'::('A'::('T'::('F'::('O'::('R'::('M'::('}'::('/'::('e'::('n'::('v'::('_'::('s'::('e'::('t'::('u'::('p'::('.'::('s'::('h'::('\n'::(' '::(' '::(' '::('D'::('E'::('S'::('T'::('I'::('N'::('A'::('T'::('I'::('O'::('N'::(' '::('.'::(' '::(')'::('\n'::('\n'::('#'::(' '::('S'::('e'::('t'::(' '::('u'::('p'::(' '::('C'::('P'::('a'::('c'::('k'::('.'::(' '::('T'::('h'::('i'::('s'::(' '::('c'::('a'::('l'::('l'::(' '::('m'::('a'::('k'::('e'::('s'::(' '::('s'::('u'::('r'::('e'::(' '::('t'::('h'::('a'::('t'::(' '::('a'::('n'::(' '::('R'::('P'::('M'::(' '::('o'::('r'::(' '::('T'::('G'::('Z'::(' '::('f'::('i'::('l'::('e'::(' '::('c'::('a'::('n'::(' '::('b'::('e'::(' '::('c'::('r'::('e'::('a'::('t'::('e'::('d'::('\n'::('#'::(' '::('f'::('r'::('o'::('m'::(' '::('t'::('h'::('e'::(' '::('b'::('u'::('i'::('l'::('t'::(' '::('p'::('r'::('o'::('j'::('e'::('c'::('t'::('.'::(' '::('U'::('s'::('e'::('d'::(' '::('b'::('y'::(' '::('P'::('a'::('n'::('d'::('a'::(' '::('t'::('o'::(' '::('s'::('e'::('n'::('d'::(' '::('t'::('h'::('e'::(' '::('p'::('r'::('o'::('j'::('e'::('c'::('t'::(' '::('t'::('o'::(' '::('t'::('h'::('e'::(' '::('g'::('r'::('i'::('d'::(' '::('w'::('o'::('r'::('k'::('e'::('r'::('\n'::('#'::(' '::('n'::('o'::('d'::('e'::('s'::('.'::('\n'::('a'::('t'::('l'::('a'::('s'::('_'::('c'::('p'::('a'::('c'::('k'::('_'::('s'::('e'::('t'::('u'::('p'::('('::(')'::('\n'::[]))))))))))))))))))))))))))))))))))))))))))))))))))))))))))))))))))))))))))))))))))))))))))))))))))))))))))))))))))))))))))))))))))))))))))))))))))))))))))))))))))))))))))))))))))))))))))))))))))))))))))))))))))))))))))))))))))))))))))))))))))))))))))))))))))))))))))))))))))))))))))))))))))))))))))))))))))))))))))))))))))))))))))))))))))))))))))))))))))))))))))))))))))))))))))))))))))))))))))))))))))))))))))))))))))))))))))))))))))))))))))))))))))))))))))))))))))))))))))))))))))))))))))))))))))))))))))))))))))))))))))))))))))))))))))))))))))))))))))))))))))))))))))))))))))))))))))))))))))))))))))))))))))))))))))))))))))))))))))))))))))))))))))))))))))))))))))))))))))))))))))))))))))))))))))))))))))))))))))))))))))))))))))))))))))))))))))))))))))))))))))))))))))))))))))))))))))))))))))))))))))))))))))))))))))))))))))))))))))))))))))))))))))))))))))))))))))))))))))))))))))))))))))))))))))))))))))))))))))))))))))))))))))))))))))))))))))))))))))))))))))))))))))))))))))))))))))))))))))))))))))))))))))))))))))))))))))))))))))))))))))))))))))))))))))))))))))))))))))))))))))))))))))))))))))))))))))))))))))))))))))))))))))))))))))))))))))))))))))))))))))))))))))))))))))))))))))))))))))))))))))))))))))))))))))))))))))))))))))))))))))))))))))))))))))))))))))))))))))))))))))))))))))))))))))))))))))))))))))))))))))))))))))))))))))))))))))))))))))))))))))))))))))))))))))))))))))))))))))))))))))))))))))))))))))))))))))))))))))))))))))))))))))))))))))))))))))))))))))))))))))))))))))))))))))))))))))))))))))))))))))))))))))))))))))))))))))))))))))))))))))))))))))))))))))))))))))))))))))))))))))))))))))))))))))))))))))))))))))))))))))))))))))))))))))))))))))))))))))))))))))))))))))))))))))))))))))))))))))))))))))))))))))))))))))))))))))))))))))))))))))))))))))))))))))))))))))))))))))))))))))))))))))))))))))))))))))))))))))))))))))))))))))))))))))))))))))))))))))))))))))))))))))))))))))))))))))))))))))))))))))))))))))))))))))))))))))))))))))))))))))))))))))))))))))))))))))))))))))))))))))))))))))))))))))))))))))))))))))))))))))))))))))))))))))))))))))))))))))))))))))))))))))))))))))))))))))))))))))))))))))))),
+    (CCons ((CCd ((WLit
+    ('s'::('o'::('u'::('r'::('c'::('e'::[]))))))) :: [])), (CCons ((CRun
+    (((WLit ('m'::('k'::('d'::('i'::('r'::[])))))) :: []) :: (((WLit
+    ('a'::('n'::('a'::('l'::('y'::('s'::('i'::('s'::[]))))))))) :: []) :: []))),
+    (CCons ((CRun (((WLit
+    ('m'::('k'::('d'::('i'::('r'::[])))))) :: []) :: (((WLit
+    ('a'::('n'::('a'::('l'::('y'::('s'::('i'::('s'::('/'::('a'::('n'::('a'::('l'::('y'::('s'::('i'::('s'::[])))))))))))))))))) :: []) :: []))),
+    (CCons ((CRun (((WLit
+    ('m'::('k'::('d'::('i'::('r'::[])))))) :: []) :: (((WLit
+    ('a'::('n'::('a'::('l'::('y'::('s'::('i'::('s'::('/'::('R'::('o'::('o'::('t'::[])))))))))))))) :: []) :: []))),
+    (CCons ((CRun (((WLit
+    ('m'::('k'::('d'::('i'::('r'::[])))))) :: []) :: (((WLit
+    ('a'::('n'::('a'::('l'::('y'::('s'::('i'::('s'::('/'::('s'::('r'::('c'::[]))))))))))))) :: []) :: []))),
+    (CCons ((CRun (((WLit
+    ('m'::('k'::('d'::('i'::('r'::[])))))) :: []) :: (((WLit
+    ('a'::('n'::('a'::('l'::('y'::('s'::('i'::('s'::('/'::('s'::('r'::('c'::('/'::('c'::('o'::('m'::('p'::('o'::('n'::('e'::('n'::('t'::('s'::[])))))))))))))))))))))))) :: []) :: []))),
+    (CCons ((CRun (((WLit
+    ('m'::('k'::('d'::('i'::('r'::[])))))) :: []) :: (((WLit
+    ('a'::('n'::('a'::('l'::('y'::('s'::('i'::('s'::('/'::('s'::('h'::('a'::('r'::('e'::[]))))))))))))))) :: []) :: []))),
+    (CCons ((CRun (((WLit ('c'::('p'::[]))) :: []) :: (((WVar (false,
+    ('D'::('I'::('R'::[]))))) :: ((WLit
+    ('/'::('p'::('a'::('c'::('k'::('a'::('g'::('e'::('_'::('C'::('M'::('a'::('k'::('e'::('L'::('i'::('s'::('t'::('s'::('.'::('t'::('x'::('t'::[])))))))))))))))))))))))) :: [])) :: (((WLit
+    ('a'::('n'::('a'::('l'::('y'::('s'::('i'::('s'::('/'::('C'::('M'::('a'::('k'::('e'::('L'::('i'::('s'::('t'::('s'::('.'::('t'::('x'::('t'::[])))))))))))))))))))))))) :: []) :: [])))),
+    (CCons ((CRun (((WLit ('c'::('p'::[]))) :: []) :: (((WVar (false,
+    ('D'::('I'::('R'::[]))))) :: ((WLit
+    ('/'::('q'::('u'::('e'::('r'::('y'::('.'::('h'::[]))))))))) :: [])) :: (((WLit
+    ('a'::('n'::('a'::('l'::('y'::('s'::('i'::('s'::('/'::('a'::('n'::('a'::('l'::('y'::('s'::('i'::('s'::[])))))))))))))))))) :: []) :: [])))),
+    (CCons ((CRun (((WLit ('c'::('p'::[]))) :: []) :: (((WVar (false,
+    ('D'::('I'::('R'::[]))))) :: ((WLit
+    ('/'::('q'::('u'::('e'::('r'::('y'::('.'::('c'::('x'::('x'::[]))))))))))) :: [])) :: (((WLit
+    ('a'::('n'::('a'::('l'::('y'::('s'::('i'::('s'::('/'::('R'::('o'::('o'::('t'::[])))))))))))))) :: []) :: [])))),
+    (CCons ((CRun (((WLit ('c'::('p'::[]))) :: []) :: (((WVar (false,
+    ('D'::('I'::('R'::[]))))) :: ((WLit
+    ('/'::('A'::('T'::('e'::('s'::('t'::('R'::('u'::('n'::('_'::('e'::('l'::('j'::('o'::('b'::('.'::('p'::('y'::[]))))))))))))))))))) :: [])) :: (((WLit
+    ('a'::('n'::('a'::('l'::('y'::('s'::('i'::('s'::('/'::('s'::('h'::('a'::('r'::('e'::[]))))))))))))))) :: []) :: [])))),
+    (CCons ((CRun (((WLit
+    ('c'::('h'::('m'::('o'::('d'::[])))))) :: []) :: (((WLit
+    ('+'::('x'::[]))) :: []) :: (((WLit
+    ('a'::('n'::('a'::('l'::('y'::('s'::('i'::('s'::('/'::('s'::('h'::('a'::('r'::('e'::('/'::('A'::('T'::('e'::('s'::('t'::('R'::('u'::('n'::('_'::('e'::('l'::('j'::('o'::('b'::('.'::('p'::('y'::[]))))))))))))))))))))))))))))))))) :: []) :: [])))),
+    (CCons ((CHeredoc (((WLit
+    ('a'::('n'::('a'::('l'::('y'::('s'::('i'::('s'::('/'::('a'::('n'::('a'::('l'::('y'::('s'::('i'::('s'::('/'::('q'::('u'::('e'::('r'::('y'::('D'::('i'::('c'::('t'::('.'::('h'::[])))))))))))))))))))))))))))))) :: []),
+    ('#'::('i'::('f'::('n'::('d'::('e'::('f'::(' '::('a'::('n'::('a'::('l'::('y'::('s'::('i'::('s'::('_'::('q'::('u'::('e'::('r'::('y'::('_'::('D'::('I'::('C'::('T'::('_'::('H'::('\n'::('#'::('d'::('e'::('f'::('i'::('n'::('e'::(' '::('a'::('n'::('a'::('l'::('y'::('s'::('i'::('s'::('_'::('q'::('u'::('e'::('r'::('y'::('_'::('D'::('I'::('C'::('T'::('_'::('H'::('\n'::('\n'::('/'::('/'::(' '::('T'::('h'::('i'::('s'::(' '::('f'::('i'::('l'::('e'::(' '::('i'::('n'::('c'::('l'::('u'::('d'::('e'::('s'::(' '::('a'::('l'::('l'::(' '::('t'::('h'::('e'::(' '::('h'::('e'::('a'::('d'::('e'::('r'::(' '::('f'::('i'::('l'::('e'::('s'::(' '::('t'::('h'::('a'::('t'::(' '::('y'::('o'::('u'::(' '::('n'::('e'::('e'::('d'::(' '::('t'::('o'::(' '::('c'::('r'::('e'::('a'::('t'::('e'::('\n'::('/'::('/'::(' '::('d'::('i'::('c'::('t'::('i'::('o'::('n'::('a'::('r'::('i'::('e'::('s'::(' '::('f'::('o'::('r'::('.'::('\n'::('\n'::('#'::('i'::('n'::('c'::('l'::('u'::('d'::('e'::(' '::('<'::('a'::('n'::('a'::('l'::('y'::('s'::('i'::('s'::('/'::('q'::('u'::('e'::('r'::('y'::('.'::('h'::('>'::('\n'::('\n'::('#'::('e'::('n'::('d'::('i'::('f'::('\n'::[])))))))))))))))))))))))))))))))))))))))))))))))))))))))))))))))))))))))))))))))))))))))))))))))))))))))))))))))))))))))))))))))))))))))))))))))))))))))))))))))))))))))))))))))))))))))))))),
+    (CCons ((CHeredoc (((WLit
+    ('a'::('n'::('a'::('l'::('y'::('s'::('i'::('s'::('/'::('a'::('n'::('a'::('l'::('y'::('s'::('i'::('s'::('/'::('s'::('e'::('l'::('e'::('c'::('t'::('i'::('o'::('n'::('.'::('x'::('m'::('l'::[])))))))))))))))))))))))))))))))) :: []),
+    ('<'::('l'::('c'::('g'::('d'::('i'::('c'::('t'::('>'::('\n'::('\n'::(' '::(' '::('<'::('!'::('-'::('-'::(' '::('T'::('h'::('i'::('s'::(' '::('f'::('i'::('l'::('e'::(' '::('c'::('o'::('n'::('t'::('a'::('i'::('n'::('s'::(' '::('a'::(' '::('l'::('i'::('s'::('t'::(' '::('o'::('f'::(' '::('a'::('l'::('l'::(' '::('c'::('l'::('a'::('s'::('s'::('e'::('s'::(' '::('f'::('o'::('r'::(' '::('w'::('h'::('i'::('c'::('h'::(' '::('a'::(' '::('d'::('i'::('c'::('t'::('i'::('o'::('n'::('a'::('r'::('y'::('\n'::(' '::(' '::(' '::(' '::(' '::(' '::(' '::('s'::('h'::('o'::('u'::('l'::('d'::(' '::('b'::('e'::(' '::('c'::('r'::('e'::('a'::('t'::('e'::('d'::('.'::(' '::('-'::('-'::('>'::('\n'::('\n'::(' '::(' '::('<'::('c'::('l'::('a'::('s'::('s'::(' '::('n'::('a'::('m'::('e'::('='::('"'::('q'::('u'::('e'::('r'::('y'::('"'::(' '::('/'::('>'::('\n'::(' '::(' '::(' '::('\n'::('<'::('/'::('l'::('c'::('g'::('d'::('i'::('c'::('t'::('>'::('\n'::[]))))))))))))))))))))))))))))))))))))))))))))))))))))))))))))))))))))))))))))))))))))))))))))))))))))))))))))))))))))))))))))))))))))))))))))))))))))))))))),
+    (CCons ((CCd ((WLit
+    ('.'::('.'::('/'::('b'::('u'::('i'::('l'::('d'::[]))))))))) :: [])),
+    (CCons ((CRun (((WLit
+    ('c'::('m'::('a'::('k'::('e'::[])))))) :: []) :: (((WLit
+    ('.'::('.'::('/'::('s'::('o'::('u'::('r'::('c'::('e'::[])))))))))) :: []) :: []))),
+    (CCons ((CRun (((WLit ('m'::('a'::('k'::('e'::[]))))) :: []) :: [])),
+    CNil)))))))))))))))))))))))))))))))))))))))))))))), BNil)), (CCons ((CCd
+    ((WLit
+    ('r'::('e'::('l'::('/'::('b'::('u'::('i'::('l'::('d'::[])))))))))) :: [])),
+    CNil)))), (CCons ((CIf ((BCons ((TEq (((WVar (false,
+    ('r'::('u'::('n'::[]))))) :: []), ((WLit ('1'::[])) :: []))), (CCons
+    ((CSource ((WVar (false,
+    ('A'::('n'::('a'::('l'::('y'::('s'::('i'::('s'::('B'::('a'::('s'::('e'::('E'::('x'::('t'::('e'::('r'::('n'::('a'::('l'::('s'::('_'::('P'::('L'::('A'::('T'::('F'::('O'::('R'::('M'::[])))))))))))))))))))))))))))))))) :: ((WLit
+    ('/'::('s'::('e'::('t'::('u'::('p'::('.'::('s'::('h'::[])))))))))) :: []))),
+    (CCons ((CIf ((BCons ((TEq (((WVar (true,
+    ('i'::('n'::('p'::('u'::('t'::('_'::('m'::('e'::('t'::('h'::('o'::('d'::[])))))))))))))) :: []),
+    ((WLit
+    ('f'::('i'::('l'::('e'::('l'::('i'::('s'::('t'::[]))))))))) :: []))),
+    (CCons ((CIf ((BCons ((TFileE ((WVar (false,
+    ('D'::('I'::('R'::[]))))) :: ((WLit
+    ('/'::('f'::('i'::('l'::('e'::('l'::('i'::('s'::('t'::('.'::('t'::('x'::('t'::[])))))))))))))) :: []))),
+    (CCons ((CRun (((WLit ('c'::('p'::[]))) :: []) :: (((WVar (false,
+    ('D'::('I'::('R'::[]))))) :: ((WLit
+    ('/'::('f'::('i'::('l'::('e'::('l'::('i'::('s'::('t'::('.'::('t'::('x'::('t'::[])))))))))))))) :: [])) :: (((WLit
+    ('.'::[])) :: []) :: [])))), CNil)), BNil)), (CCons ((CRun (((WLit
+    ('c'::('p'::[]))) :: []) :: (((WVar (false,
+    ('l'::('o'::('c'::('a'::('l'::[]))))))) :: ((WLit
+    ('/'::('f'::('i'::('l'::('e'::('l'::('i'::('s'::('t'::('.'::('t'::('x'::('t'::[])))))))))))))) :: [])) :: (((WLit
+    ('.'::[])) :: []) :: [])))), CNil)))), CNil)), (BCons ((TEq (((WVar
+    (true,
+    ('i'::('n'::('p'::('u'::('t'::('_'::('m'::('e'::('t'::('h'::('o'::('d'::[])))))))))))))) :: []),
+    ((WLit ('c'::('m'::('d'::[])))) :: []))), (CCons ((CEcho ((((WVar (false,
+    ('i'::('n'::('p'::('u'::('t'::('_'::('f'::('i'::('l'::('e'::[])))))))))))) :: []) :: []),
+    (Some ((WLit
+    ('f'::('i'::('l'::('e'::('l'::('i'::('s'::('t'::('.'::('t'::('x'::('t'::[]))))))))))))) :: [])))),
+    CNil)), BNil)))), CNil)), (CCons ((CIf ((BCons ((TFileE ((WLit
+    ('.'::('/'::('b'::('o'::('g'::('u'::('s'::[])))))))) :: [])), (CCons
+    ((CRun (((WLit ('r'::('m'::[]))) :: []) :: (((WLit
+    ('-'::('r'::('f'::[])))) :: []) :: (((WLit
+    ('b'::('o'::('g'::('u'::('s'::[])))))) :: []) :: [])))), CNil)), BNil)),
+    CNil)), (CCons ((CIf ((BCons ((TFileE ((WVar (false,
+    ('c'::('a'::('l'::('i'::('b'::('_'::('c'::('a'::('c'::('h'::('e'::[]))))))))))))) :: [])),
+    (CCons ((CExport
+    (('C'::('A'::('L'::('I'::('B'::('P'::('A'::('T'::('H'::[]))))))))),
+    ((WVar (false,
+    ('c'::('a'::('l'::('i'::('b'::('_'::('c'::('a'::('c'::('h'::('e'::[]))))))))))))) :: ((WLit
+    (':'::[])) :: ((WVar (false,
+    ('C'::('A'::('L'::('I'::('B'::('P'::('A'::('T'::('H'::[]))))))))))) :: []))))),
+    (CCons ((CRun (((WLit ('s'::('u'::('d'::('o'::[]))))) :: []) :: (((WLit
+    ('-'::('i'::[]))) :: []) :: (((WLit
+    ('c'::('h'::('m'::('o'::('d'::[])))))) :: []) :: (((WLit
+    ('a'::('+'::('w'::[])))) :: []) :: (((WVar (false,
+    ('c'::('a'::('l'::('i'::('b'::('_'::('c'::('a'::('c'::('h'::('e'::[]))))))))))))) :: []) :: [])))))),
+    (CCons ((CEcho ((((WLit
+    ('U'::('s'::('i'::('n'::('g'::(' '::('c'::('a'::('l'::('i'::('b'::('r'::('a'::('t'::('i'::('o'::('n'::(' '::('c'::('a'::('c'::('h'::('e'::(':'::(' '::[])))))))))))))))))))))))))) :: ((WVar
+    (true,
+    ('c'::('a'::('l'::('i'::('b'::('_'::('c'::('a'::('c'::('h'::('e'::[]))))))))))))) :: [])) :: []),
+    None)), (CCons ((CEcho ((((WLit
+    ('U'::('p'::('d'::('a'::('t'::('e'::(' '::('c'::('a'::('l'::('i'::('b'::('r'::('a'::('t'::('i'::('o'::('n'::(' '::('s'::('o'::('u'::('r'::('c'::('e'::('s'::(':'::(' '::[]))))))))))))))))))))))))))))) :: ((WVar
+    (true,
+    ('C'::('A'::('L'::('I'::('B'::('P'::('A'::('T'::('H'::[]))))))))))) :: [])) :: []),
+    None)), CNil)))))))), BNil)), CNil)), (CCons ((CRun (((WLit
+    ('p'::('y'::('t'::('h'::('o'::('n'::[]))))))) :: []) :: (((WLit
+    ('.'::('.'::('/'::('s'::('o'::('u'::('r'::('c'::('e'::('/'::('a'::('n'::('a'::('l'::('y'::('s'::('i'::('s'::('/'::('s'::('h'::('a'::('r'::('e'::('/'::('A'::('T'::('e'::('s'::('t'::('R'::('u'::('n'::('_'::('e'::('l'::('j'::('o'::('b'::('.'::('p'::('y'::[]))))))))))))))))))))))))))))))))))))))))))) :: []) :: (((WLit
+    ('-'::('-'::('s'::('u'::('b'::('m'::('i'::('s'::('s'::('i'::('o'::('n'::('-'::('d'::('i'::('r'::('='::('b'::('o'::('g'::('u'::('s'::[]))))))))))))))))))))))) :: []) :: [])))),
+    (CCons ((CIf ((BCons ((TEq (((WVar (false,
+    ('o'::('u'::('t'::('p'::('u'::('t'::('_'::('m'::('e'::('t'::('h'::('o'::('d'::[]))))))))))))))) :: []),
+    ((WLit ('c'::('p'::[]))) :: []))), (CCons ((CAssign
+    (('c'::('m'::('d'::[]))), ((WLit ('c'::('p'::[]))) :: []))), (CCons
+    ((CAssign
+    (('d'::('e'::('s'::('t'::('i'::('n'::('a'::('t'::('i'::('o'::('n'::[]))))))))))),
+    ((WVar (false,
+    ('o'::('u'::('t'::('p'::('u'::('t'::('_'::('d'::('i'::('r'::[])))))))))))) :: []))),
+    CNil)))), BNil)), (CCons ((CAssign
+    (('d'::('e'::('s'::('t'::('i'::('n'::('a'::('t'::('i'::('o'::('n'::[]))))))))))),
+    ((WVar (false, ('1'::[]))) :: []))), (CCons ((CAssign
+    (('c'::('m'::('d'::[]))), ((WLit ('c'::('p'::[]))) :: []))), (CCons ((CIf
+    ((BCons ((TPrefix (((WVar (false,
+    ('d'::('e'::('s'::('t'::('i'::('n'::('a'::('t'::('i'::('o'::('n'::[]))))))))))))) :: []),
+    ('r'::('o'::('o'::('t'::(':'::[]))))))), (CCons ((CAssign
+    (('c'::('m'::('d'::[]))), ((WLit
+    ('x'::('r'::('d'::('c'::('p'::[])))))) :: []))), CNil)), BNil)), CNil)),
+    CNil)))))))), (CCons ((CRun (((WVar (false,
+    ('c'::('m'::('d'::[]))))) :: []) :: (((WLit
+    ('.'::('/'::('b'::('o'::('g'::('u'::('s'::('/'::('d'::('a'::('t'::('a'::('-'::('A'::('N'::('A'::('L'::('Y'::('S'::('I'::('S'::('/'::('A'::('N'::('A'::('L'::('Y'::('S'::('I'::('S'::('.'::('r'::('o'::('o'::('t'::[])))))))))))))))))))))))))))))))))))) :: []) :: (((WVar
+    (false,
+    ('d'::('e'::('s'::('t'::('i'::('n'::('a'::('t'::('i'::('o'::('n'::[]))))))))))))) :: []) :: [])))),
+    CNil)))))))))))))), BNil)), CNil)), CNil)))))))))))))))))))))))))))))))
+
+(** val script0 : cmds **)
+
+let script0 =
+  CCons (CSetE, (CCons (CSetX, (CCons ((CAssign
+    (('o'::('u'::('t'::('p'::('u'::('t'::('_'::('m'::('e'::('t'::('h'::('o'::('d'::[]))))))))))))),
+    ((WLit ('c'::('p'::[]))) :: []))), (CCons ((CAssign
+    (('o'::('u'::('t'::('p'::('u'::('t'::('_'::('d'::('i'::('r'::[])))))))))),
+    ((WLit
+    ('/'::('r'::('e'::('s'::('u'::('l'::('t'::('s'::[]))))))))) :: []))),
+    (CCons ((CAssign
+    (('i'::('n'::('p'::('u'::('t'::('_'::('m'::('e'::('t'::('h'::('o'::('d'::[])))))))))))),
+    ((WLit
+    ('f'::('i'::('l'::('e'::('l'::('i'::('s'::('t'::[]))))))))) :: []))),
+    (CCons ((CAssign
+    (('i'::('n'::('p'::('u'::('t'::('_'::('f'::('i'::('l'::('e'::[])))))))))),
+    ((WLit []) :: []))), (CCons ((CAssign
+    (('c'::('o'::('m'::('p'::('i'::('l'::('e'::[]))))))), ((WLit
+    ('1'::[])) :: []))), (CCons ((CAssign (('r'::('u'::('n'::[]))), ((WLit
+    ('1'::[])) :: []))), (CCons ((CGetopts
+    (('d'::(':'::('o'::(':'::('c'::('r'::[])))))), ('o'::('p'::('t'::[]))),
+    (ACons (('d'::[]), (CCons ((CAssign
+    (('i'::('n'::('p'::('u'::('t'::('_'::('m'::('e'::('t'::('h'::('o'::('d'::[])))))))))))),
+    ((WLit ('c'::('m'::('d'::[])))) :: []))), (CCons ((CAssign
+    (('i'::('n'::('p'::('u'::('t'::('_'::('f'::('i'::('l'::('e'::[])))))))))),
+    ((WVar (false, ('O'::('P'::('T'::('A'::('R'::('G'::[])))))))) :: []))),
+    CNil)))), (ACons (('c'::[]), (CCons ((CAssign (('r'::('u'::('n'::[]))),
+    ((WLit ('0'::[])) :: []))), CNil)), (ACons (('r'::[]), (CCons ((CAssign
+    (('c'::('o'::('m'::('p'::('i'::('l'::('e'::[]))))))), ((WLit
+    ('0'::[])) :: []))), CNil)), (ACons (('o'::[]), (CCons ((CAssign
+    (('o'::('u'::('t'::('p'::('u'::('t'::('_'::('d'::('i'::('r'::[])))))))))),
+    ((WVar (false, ('O'::('P'::('T'::('A'::('R'::('G'::[])))))))) :: []))),
+    CNil)), (ACons (('?'::[]), (CCons ((CExit (S (S (S (S (S (S (S (S (S (S
+    O))))))))))), CNil)), ANil)))))))))))), (CCons (CShiftOpt, (CCons ((CIf
+    ((BCons ((TNe (((WVar (false, ('#'::[]))) :: []), ((WLit
+    ('0'::[])) :: []))), (CCons ((CEcho ((((WLit
+    ('E'::('x'::('t'::('r'::('a'::(' '::('a'::('r'::('g'::('u'::('m'::('e'::('n'::('t'::('s'::(' '::('o'::('n'::(' '::('t'::('h'::('e'::(' '::('c'::('o'::('m'::('m'::('a'::('n'::('d'::(' '::('l'::('i'::('n'::('e'::(' '::[]))))))))))))))))))))))))))))))))))))) :: ((WVar
+    (true, ('@'::[]))) :: [])) :: []), None)), (CCons ((CExit (S O)),
+    CNil)))), BNil)), CNil)), (CCons ((CIf ((BCons ((TStrZ ((WVar (true,
+    ('C'::('V'::('S'::('R'::('O'::('O'::('T'::[]))))))))) :: [])), (CCons
+    ((CSource ((WLit
+    ('/'::('o'::('p'::('t'::('/'::('c'::('m'::('s'::('/'::('e'::('n'::('t'::('r'::('y'::('p'::('o'::('i'::('n'::('t'::('.'::('s'::('h'::[]))))))))))))))))))))))) :: [])),
+    CNil)), BNil)), CNil)), (CCons ((CScriptDir ('D'::('I'::('R'::[])))),
+    (CCons ((CPwdTo ('l'::('o'::('c'::('a'::('l'::[])))))), (CCons ((CIf
+    ((BCons ((TEq (((WVar (false,
+    ('c'::('o'::('m'::('p'::('i'::('l'::('e'::[]))))))))) :: []), ((WLit
+    ('1'::[])) :: []))), (CCons ((CRun (((WLit
+    ('m'::('k'::('d'::('i'::('r'::[])))))) :: []) :: (((WLit
+    ('a'::('n'::('a'::('l'::('y'::('s'::('i'::('s'::[]))))))))) :: []) :: []))),
+    (CCons ((CCd ((WLit
+    ('a'::('n'::('a'::('l'::('y'::('s'::('i'::('s'::[]))))))))) :: [])),
+    (CCons ((CRun (((WLit
+    ('m'::('k'::('e'::('d'::('a'::('n'::('l'::('z'::('r'::[])))))))))) :: []) :: (((WLit
+    ('A'::('n'::('a'::('l'::('y'::('z'::('e'::('r'::[]))))))))) :: []) :: []))),
+    (CCons ((CCd ((WLit
+    ('A'::('n'::('a'::('l'::('y'::('z'::('e'::('r'::[]))))))))) :: [])),
+    (CCons ((CRun (((WLit ('c'::('p'::[]))) :: []) :: (((WVar (false,
+    ('D'::('I'::('R'::[]))))) :: ((WLit
+    ('/'::('A'::('n'::('a'::('l'::('y'::('z'::('e'::('r'::('.'::('c'::('c'::[]))))))))))))) :: [])) :: (((WLit
+    ('.'::('/'::('s'::('r'::('c'::('/'::[]))))))) :: []) :: [])))), (CCons
+    ((CRun (((WLit ('c'::('p'::[]))) :: []) :: (((WVar (false,
+    ('D'::('I'::('R'::[]))))) :: ((WLit
+    ('/'::('a'::('n'::('a'::('l'::('y'::('z'::('e'::('r'::('_'::('c'::('f'::('g'::('.'::('p'::('y'::[]))))))))))))))))) :: [])) :: (((WLit
+    ('.'::[])) :: []) :: [])))), (CCons ((CRun (((WLit
+    ('c'::('p'::[]))) :: []) :: (((WVar (false,
+    ('D'::('I'::('R'::[]))))) :: ((WLit
+    ('/'::('B'::('u'::('i'::('l'::('d'::('F'::('i'::('l'::('e'::('.'::('x'::('m'::('l'::[]))))))))))))))) :: [])) :: (((WLit
+    ('.'::[])) :: []) :: [])))), (CCons ((CRun (((WLit
+    ('s'::('c'::('r'::('a'::('m'::[])))))) :: []) :: (((WLit
+    ('b'::[])) :: []) :: []))), CNil)))))))))))))))), BNil)), (CCons ((CCd
+    ((WLit
+    ('a'::('n'::('a'::('l'::('y'::('s'::('i'::('s'::('/'::('A'::('n'::('a'::('l'::('y'::('z'::('e'::('r'::[])))))))))))))))))) :: [])),
+    CNil)))), (CCons ((CIf ((BCons ((TEq (((WVar (false,
+    ('r'::('u'::('n'::[]))))) :: []), ((WLit ('1'::[])) :: []))), (CCons
+    ((CIf ((BCons ((TEq (((WVar (true,
+    ('i'::('n'::('p'::('u'::('t'::('_'::('m'::('e'::('t'::('h'::('o'::('d'::[])))))))))))))) :: []),
+    ((WLit
+    ('f'::('i'::('l'::('e'::('l'::('i'::('s'::('t'::[]))))))))) :: []))),
+    (CCons ((CIf ((BCons ((TFileE ((WVar (false,
+    ('D'::('I'::('R'::[]))))) :: ((WLit
+    ('/'::('f'::('i'::('l'::('e'::('l'::('i'::('s'::('t'::('.'::('t'::('x'::('t'::[])))))))))))))) :: []))),
+    (CCons ((CRun (((WLit ('c'::('p'::[]))) :: []) :: (((WVar (false,
+    ('D'::('I'::('R'::[]))))) :: ((WLit
+    ('/'::('f'::('i'::('l'::('e'::('l'::('i'::('s'::('t'::('.'::('t'::('x'::('t'::[])))))))))))))) :: [])) :: (((WLit
+    ('.'::[])) :: []) :: [])))), CNil)), BNil)), (CCons ((CRun (((WLit
+    ('c'::('p'::[]))) :: []) :: (((WVar (false,
+    ('l'::('o'::('c'::('a'::('l'::[]))))))) :: ((WLit
+    ('/'::('f'::('i'::('l'::('e'::('l'::('i'::('s'::('t'::('.'::('t'::('x'::('t'::[])))))))))))))) :: [])) :: (((WLit
+    ('.'::[])) :: []) :: [])))), CNil)))), CNil)), (BCons ((TEq (((WVar
+    (true,
+    ('i'::('n'::('p'::('u'::('t'::('_'::('m'::('e'::('t'::('h'::('o'::('d'::[])))))))))))))) :: []),
+    ((WLit ('c'::('m'::('d'::[])))) :: []))), (CCons ((CEcho ((((WVar (false,
+    ('i'::('n'::('p'::('u'::('t'::('_'::('f'::('i'::('l'::('e'::[])))))))))))) :: []) :: []),
+    (Some ((WLit
+    ('f'::('i'::('l'::('e'::('l'::('i'::('s'::('t'::('.'::('t'::('x'::('t'::[]))))))))))))) :: [])))),
+    CNil)), BNil)))), CNil)), (CCons ((CIf ((BCons ((TEq (((WVar (false,
+    ('o'::('u'::('t'::('p'::('u'::('t'::('_'::('m'::('e'::('t'::('h'::('o'::('d'::[]))))))))))))))) :: []),
+    ((WLit ('c'::('p'::[]))) :: []))), (CCons ((CIf ((BCons ((TFileD ((WVar
+    (false,
+    ('o'::('u'::('t'::('p'::('u'::('t'::('_'::('d'::('i'::('r'::[])))))))))))) :: [])),
+    (CCons ((CAssign
+    (('d'::('e'::('s'::('t'::('i'::('n'::('a'::('t'::('i'::('o'::('n'::[]))))))))))),
+    ((WVar (false,
+    ('o'::('u'::('t'::('p'::('u'::('t'::('_'::('d'::('i'::('r'::[])))))))))))) :: ((WLit
+    ('/'::('A'::('N'::('A'::('L'::('Y'::('S'::('I'::('S'::('.'::('r'::('o'::('o'::('t'::[]))))))))))))))) :: [])))),
+    CNil)), BNil)), (CCons ((CAssign
+    (('d'::('e'::('s'::('t'::('i'::('n'::('a'::('t'::('i'::('o'::('n'::[]))))))))))),
+    ((WVar (false,
+    ('o'::('u'::('t'::('p'::('u'::('t'::('_'::('d'::('i'::('r'::[])))))))))))) :: []))),
+    CNil)))), (CCons ((CAssign (('c'::('m'::('d'::[]))), ((WLit
+    ('c'::('p'::[]))) :: []))), CNil)))), BNil)), (CCons ((CAssign
+    (('d'::('e'::('s'::('t'::('i'::('n'::('a'::('t'::('i'::('o'::('n'::[]))))))))))),
+    ((WVar (false, ('1'::[]))) :: []))), (CCons ((CAssign
+    (('c'::('m'::('d'::[]))), ((WLit ('c'::('p'::[]))) :: []))), (CCons ((CIf
+    ((BCons ((TPrefix (((WVar (false,
+    ('d'::('e'::('s'::('t'::('i'::('n'::('a'::('t'::('i'::('o'::('n'::[]))))))))))))) :: []),
+    ('r'::('o'::('o'::('t'::(':'::[]))))))), (CCons ((CAssign
+    (('c'::('m'::('d'::[]))), ((WLit
+    ('x'::('r'::('d'::('c'::('p'::[])))))) :: []))), CNil)), BNil)), CNil)),
+    CNil)))))))), (CCons ((CExport
+    (('C'::('M'::('S'::('_'::('O'::('U'::('T'::('P'::('U'::('T'::('_'::('F'::('I'::('L'::('E'::[]))))))))))))))),
+    ((WLit
+    ('A'::('N'::('A'::('L'::('Y'::('S'::('I'::('S'::('.'::('r'::('o'::('o'::('t'::[])))))))))))))) :: []))),
+    (CCons ((CRun (((WLit
+    ('c'::('m'::('s'::('R'::('u'::('n'::[]))))))) :: []) :: (((WLit
+    ('a'::('n'::('a'::('l'::('y'::('z'::('e'::('r'::('_'::('c'::('f'::('g'::('.'::('p'::('y'::[])))))))))))))))) :: []) :: []))),
+    (CCons ((CIf ((BCons ((TEq (((WVar (false,
+    ('c'::('m'::('d'::[]))))) :: []), ((WLit ('c'::('p'::[]))) :: []))),
+    (CCons ((CAssign (('c'::('v'::('t'::[]))), ((WLit
+    ('r'::('o'::('o'::('t'::(' '::('-'::('b'::(' '::('-'::('l'::(' '::('-'::('q'::(' '::('$'::('D'::('I'::('R'::('/'::('c'::('o'::('p'::('y'::('_'::('r'::('o'::('o'::('t'::('_'::('t'::('r'::('e'::('e'::('.'::('C'::('\\'::('('::('\\'::('"'::('.'::('/'::('$'::('C'::('M'::('S'::('_'::('O'::('U'::('T'::('P'::('U'::('T'::('_'::('F'::('I'::('L'::('E'::('\\'::('"'::(','::('\\'::('"'::('$'::('d'::('e'::('s'::('t'::('i'::('n'::('a'::('t'::('i'::('o'::('n'::('\\'::('"'::('\\'::(')'::[]))))))))))))))))))))))))))))))))))))))))))))))))))))))))))))))))))))))))))))))) :: []))),
+    (CCons ((CEval (('c'::('v'::('t'::[]))),
+    ('r'::('o'::('o'::('t'::(' '::('-'::('b'::(' '::('-'::('l'::(' '::('-'::('q'::(' '::('$'::('D'::('I'::('R'::('/'::('c'::('o'::('p'::('y'::('_'::('r'::('o'::('o'::('t'::('_'::('t'::('r'::('e'::('e'::('.'::('C'::('\\'::('('::('\\'::('"'::('.'::('/'::('$'::('C'::('M'::('S'::('_'::('O'::('U'::('T'::('P'::('U'::('T'::('_'::('F'::('I'::('L'::('E'::('\\'::('"'::(','::('\\'::('"'::('$'::('d'::('e'::('s'::('t'::('i'::('n'::('a'::('t'::('i'::('o'::('n'::('\\'::('"'::('\\'::(')'::[])))))))))))))))))))))))))))))))))))))))))))))))))))))))))))))))))))))))))))))),
+    (CRun (((WLit ('r'::('o'::('o'::('t'::[]))))) :: []) :: (((WLit
+    ('-'::('b'::[]))) :: []) :: (((WLit ('-'::('l'::[]))) :: []) :: (((WLit
+    ('-'::('q'::[]))) :: []) :: (((WVar (false,
+    ('D'::('I'::('R'::[]))))) :: ((WLit
+    ('/'::('c'::('o'::('p'::('y'::('_'::('r'::('o'::('o'::('t'::('_'::('t'::('r'::('e'::('e'::('.'::('C'::('('::('"'::('.'::('/'::[])))))))))))))))))))))) :: ((WVar
+    (false,
+    ('C'::('M'::('S'::('_'::('O'::('U'::('T'::('P'::('U'::('T'::('_'::('F'::('I'::('L'::('E'::[]))))))))))))))))) :: ((WLit
+    ('"'::(','::('"'::[])))) :: ((WVar (false,
+    ('d'::('e'::('s'::('t'::('i'::('n'::('a'::('t'::('i'::('o'::('n'::[]))))))))))))) :: ((WLit
+    ('"'::(')'::[]))) :: [])))))) :: [])))))))), CNil)))), BNil)), (CCons
+    ((CAssign (('c'::('v'::('t'::[]))), ((WLit
+    ('r'::('o'::('o'::('t'::(' '::('-'::('b'::(' '::('-'::('l'::(' '::('-'::('q'::(' '::('$'::('D'::('I'::('R'::('/'::('c'::('o'::('p'::('y'::('_'::('r'::('o'::('o'::('t'::('_'::('t'::('r'::('e'::('e'::('.'::('C'::('\\'::('('::('\\'::('"'::('.'::('/'::('$'::('C'::('M'::('S'::('_'::('O'::('U'::('T'::('P'::('U'::('T'::('_'::('F'::('I'::('L'::('E'::('\\'::('"'::(','::('\\'::('"'::('t'::('e'::('m'::('p'::('-'::('o'::('u'::('t'::('p'::('u'::('t'::('.'::('r'::('o'::('o'::('t'::('\\'::('"'::('\\'::(')'::[]))))))))))))))))))))))))))))))))))))))))))))))))))))))))))))))))))))))))))))))))))) :: []))),
+    (CCons ((CEval (('c'::('v'::('t'::[]))),
+    ('r'::('o'::('o'::('t'::(' '::('-'::('b'::(' '::('-'::('l'::(' '::('-'::('q'::(' '::('$'::('D'::('I'::('R'::('/'::('c'::('o'::('p'::('y'::('_'::('r'::('o'::('o'::('t'::('_'::('t'::('r'::('e'::('e'::('.'::('C'::('\\'::('('::('\\'::('"'::('.'::('/'::('$'::('C'::('M'::('S'::('_'::('O'::('U'::('T'::('P'::('U'::('T'::('_'::('F'::('I'::('L'::('E'::('\\'::('"'::(','::('\\'::('"'::('t'::('e'::('m'::('p'::('-'::('o'::('u'::('t'::('p'::('u'::('t'::('.'::('r'::('o'::('o'::('t'::('\\'::('"'::('\\'::(')'::[])))))))))))))))))))))))))))))))))))))))))))))))))))))))))))))))))))))))))))))))))),
+    (CRun (((WLit ('r'::('o'::('o'::('t'::[]))))) :: []) :: (((WLit
+    ('-'::('b'::[]))) :: []) :: (((WLit ('-'::('l'::[]))) :: []) :: (((WLit
+    ('-'::('q'::[]))) :: []) :: (((WVar (false,
+    ('D'::('I'::('R'::[]))))) :: ((WLit
+    ('/'::('c'::('o'::('p'::('y'::('_'::('r'::('o'::('o'::('t'::('_'::('t'::('r'::('e'::('e'::('.'::('C'::('('::('"'::('.'::('/'::[])))))))))))))))))))))) :: ((WVar
+    (false,
+    ('C'::('M'::('S'::('_'::('O'::('U'::('T'::('P'::('U'::('T'::('_'::('F'::('I'::('L'::('E'::[]))))))))))))))))) :: ((WLit
+    ('"'::(','::('"'::('t'::('e'::('m'::('p'::('-'::('o'::('u'::('t'::('p'::('u'::('t'::('.'::('r'::('o'::('o'::('t'::('"'::(')'::[])))))))))))))))))))))) :: [])))) :: [])))))))),
+    (CCons ((CRun (((WVar (false, ('c'::('m'::('d'::[]))))) :: []) :: (((WLit
+    ('.'::('/'::('t'::('e'::('m'::('p'::('-'::('o'::('u'::('t'::('p'::('u'::('t'::('.'::('r'::('o'::('o'::('t'::[]))))))))))))))))))) :: []) :: (((WVar
+    (false,
+    ('d'::('e'::('s'::('t'::('i'::('n'::('a'::('t'::('i'::('o'::('n'::[]))))))))))))) :: []) :: [])))),
+    CNil)))))))), CNil)))))))))), BNil)), CNil)),
+    CNil)))))))))))))))))))))))))))))))
+
+(** val script1 : cmds **)
+
+let script1 =
+  CCons (CSetE, (CCons (CSetX, (CCons ((CAssign
+    (('o'::('u'::('t'::('p'::('u'::('t'::('_'::('m'::('e'::('t'::('h'::('o'::('d'::[]))))))))))))),
+    ((WLit ('c'::('p'::[]))) :: []))), (CCons ((CAssign
+    (('o'::('u'::('t'::('p'::('u'::('t'::('_'::('d'::('i'::('r'::[])))))))))),
+    ((WLit
+    ('/'::('r'::('e'::('s'::('u'::('l'::('t'::('s'::[]))))))))) :: []))),
+    (CCons ((CAssign
+    (('i'::('n'::('p'::('u'::('t'::('_'::('m'::('e'::('t'::('h'::('o'::('d'::[])))))))))))),
+    ((WLit
+    ('f'::('i'::('l'::('e'::('l'::('i'::('s'::('t'::[]))))))))) :: []))),
+    (CCons ((CAssign
+    (('i'::('n'::('p'::('u'::('t'::('_'::('f'::('i'::('l'::('e'::[])))))))))),
+    ((WLit []) :: []))), (CCons ((CAssign
+    (('c'::('o'::('m'::('p'::('i'::('l'::('e'::[]))))))), ((WLit
+    ('1'::[])) :: []))), (CCons ((CAssign (('r'::('u'::('n'::[]))), ((WLit
+    ('1'::[])) :: []))), (CCons ((CGetopts
+    (('d'::(':'::('o'::(':'::('c'::('r'::[])))))), ('o'::('p'::('t'::[]))),
+    (ACons (('d'::[]), (CCons ((CAssign
+    (('i'::('n'::('p'::('u'::('t'::('_'::('m'::('e'::('t'::('h'::('o'::('d'::[])))))))))))),
+    ((WLit ('c'::('m'::('d'::[])))) :: []))), (CCons ((CAssign
+    (('i'::('n'::('p'::('u'::('t'::('_'::('f'::('i'::('l'::('e'::[])))))))))),
+    ((WVar (false, ('O'::('P'::('T'::('A'::('R'::('G'::[])))))))) :: []))),
+    CNil)))), (ACons (('c'::[]), (CCons ((CAssign (('r'::('u'::('n'::[]))),
+    ((WLit ('0'::[])) :: []))), CNil)), (ACons (('r'::[]), (CCons ((CAssign
+    (('c'::('o'::('m'::('p'::('i'::('l'::('e'::[]))))))), ((WLit
+    ('0'::[])) :: []))), CNil)), (ACons (('o'::[]), (CCons ((CAssign
+    (('o'::('u'::('t'::('p'::('u'::('t'::('_'::('d'::('i'::('r'::[])))))))))),
+    ((WVar (false, ('O'::('P'::('T'::('A'::('R'::('G'::[])))))))) :: []))),
+    CNil)), (ACons (('?'::[]), (CCons ((CExit (S (S (S (S (S (S (S (S (S (S
+    O))))))))))), CNil)), ANil)))))))))))), (CCons (CShiftOpt, (CCons ((CIf
+    ((BCons ((TNe (((WVar (false, ('#'::[]))) :: []), ((WLit
+    ('0'::[])) :: []))), (CCons ((CEcho ((((WLit
+    ('E'::('x'::('t'::('r'::('a'::(' '::('a'::('r'::('g'::('u'::('m'::('e'::('n'::('t'::('s'::(' '::('o'::('n'::(' '::('t'::('h'::('e'::(' '::('c'::('o'::('m'::('m'::('a'::('n'::('d'::(' '::('l'::('i'::('n'::('e'::(' '::[]))))))))))))))))))))))))))))))))))))) :: ((WVar
+    (true, ('@'::[]))) :: [])) :: []), None)), (CCons ((CExit (S O)),
+    CNil)))), BNil)), CNil)), (CCons ((CIf ((BCons ((TStrZ ((WVar (true,
+    ('C'::('V'::('S'::('R'::('O'::('O'::('T'::[]))))))))) :: [])), (CCons
+    ((CSource ((WLit
+    ('/'::('o'::('p'::('t'::('/'::('c'::('m'::('s'::('/'::('e'::('n'::('t'::('r'::('y'::('p'::('o'::('i'::('n'::('t'::('.'::('s'::('h'::[]))))))))))))))))))))))) :: [])),
+    CNil)), BNil)), CNil)), (CCons ((CScriptDir ('D'::('I'::('R'::[])))),
+    (CCons ((CPwdTo ('l'::('o'::('c'::('a'::('l'::[])))))), (CCons ((CIf
+    ((BCons ((TEq (((WVar (false,
+    ('c'::('o'::('m'::('p'::('i'::('l'::('e'::[]))))))))) :: []), ((WLit
+    ('1'::[])) :: []))), (CCons ((CRun (((WLit
+    ('m'::('k'::('d'::('i'::('r'::[])))))) :: []) :: (((WLit
+    ('a'::('n'::('a'::('l'::('y'::('s'::('i'::('s'::[]))))))))) :: []) :: []))),
+    (CCons ((CCd ((WLit
+    ('a'::('n'::('a'::('l'::('y'::('s'::('i'::('s'::[]))))))))) :: [])),
+    (CCons ((CRun (((WLit
+    ('m'::('k'::('e'::('d'::('a'::('n'::('l'::('z'::('r'::[])))))))))) :: []) :: (((WLit
+    ('A'::('n'::('a'::('l'::('y'::('z'::('e'::('r'::[]))))))))) :: []) :: []))),
+    (CCons ((CCd ((WLit
+    ('A'::('n'::('a'::('l'::('y'::('z'::('e'::('r'::[]))))))))) :: [])),
+    (CCons ((CRun (((WLit ('c'::('p'::[]))) :: []) :: (((WVar (false,
+    ('D'::('I'::('R'::[]))))) :: ((WLit
+    ('/'::('A'::('n'::('a'::('l'::('y'::('z'::('e'::('r'::('.'::('c'::('c'::[]))))))))))))) :: [])) :: (((WLit
+    ('.'::('/'::('p'::('l'::('u'::('g'::('i'::('n'::('s'::('/'::[]))))))))))) :: []) :: [])))),
+    (CCons ((CRun (((WLit ('c'::('p'::[]))) :: []) :: (((WVar (false,
+    ('D'::('I'::('R'::[]))))) :: ((WLit
+    ('/'::('a'::('n'::('a'::('l'::('y'::('z'::('e'::('r'::('_'::('c'::('f'::('g'::('.'::('p'::('y'::[]))))))))))))))))) :: [])) :: (((WLit
+    ('.'::('/'::('p'::('y'::('t'::('h'::('o'::('n'::('/'::('C'::('o'::('n'::('f'::('F'::('i'::('l'::('e'::('_'::('c'::('f'::('g'::('.'::('p'::('y'::[]))))))))))))))))))))))))) :: []) :: [])))),
+    (CCons ((CRun (((WLit ('c'::('p'::[]))) :: []) :: (((WVar (false,
+    ('D'::('I'::('R'::[]))))) :: ((WLit
+    ('/'::('B'::('u'::('i'::('l'::('d'::('F'::('i'::('l'::('e'::('.'::('x'::('m'::('l'::[]))))))))))))))) :: [])) :: (((WLit
+    ('.'::('/'::('p'::('l'::('u'::('g'::('i'::('n'::('s'::('/'::[]))))))))))) :: []) :: [])))),
+    (CCons ((CRun (((WLit
+    ('s'::('c'::('r'::('a'::('m'::[])))))) :: []) :: (((WLit
+    ('b'::[])) :: []) :: []))), CNil)))))))))))))))), BNil)), (CCons ((CCd
+    ((WLit
+    ('a'::('n'::('a'::('l'::('y'::('s'::('i'::('s'::('/'::('A'::('n'::('a'::('l'::('y'::('z'::('e'::('r'::[])))))))))))))))))) :: [])),
+    CNil)))), (CCons ((CIf ((BCons ((TEq (((WVar (false,
+    ('r'::('u'::('n'::[]))))) :: []), ((WLit ('1'::[])) :: []))), (CCons
+    ((CIf ((BCons ((TEq (((WVar (true,
+    ('i'::('n'::('p'::('u'::('t'::('_'::('m'::('e'::('t'::('h'::('o'::('d'::[])))))))))))))) :: []),
+    ((WLit
+    ('f'::('i'::('l'::('e'::('l'::('i'::('s'::('t'::[]))))))))) :: []))),
+    (CCons ((CIf ((BCons ((TFileE ((WVar (false,
+    ('D'::('I'::('R'::[]))))) :: ((WLit
+    ('/'::('f'::('i'::('l'::('e'::('l'::('i'::('s'::('t'::('.'::('t'::('x'::('t'::[])))))))))))))) :: []))),
+    (CCons ((CRun (((WLit ('c'::('p'::[]))) :: []) :: (((WVar (false,
+    ('D'::('I'::('R'::[]))))) :: ((WLit
+    ('/'::('f'::('i'::('l'::('e'::('l'::('i'::('s'::('t'::('.'::('t'::('x'::('t'::[])))))))))))))) :: [])) :: (((WLit
+    ('.'::[])) :: []) :: [])))), CNil)), BNil)), (CCons ((CRun (((WLit
+    ('c'::('p'::[]))) :: []) :: (((WVar (false,
+    ('l'::('o'::('c'::('a'::('l'::[]))))))) :: ((WLit
+    ('/'::('f'::('i'::('l'::('e'::('l'::('i'::('s'::('t'::('.'::('t'::('x'::('t'::[])))))))))))))) :: [])) :: (((WLit
+    ('.'::[])) :: []) :: [])))), CNil)))), CNil)), (BCons ((TEq (((WVar
+    (true,
+    ('i'::('n'::('p'::('u'::('t'::('_'::('m'::('e'::('t'::('h'::('o'::('d'::[])))))))))))))) :: []),
+    ((WLit ('c'::('m'::('d'::[])))) :: []))), (CCons ((CEcho ((((WVar (false,
+    ('i'::('n'::('p'::('u'::('t'::('_'::('f'::('i'::('l'::('e'::[])))))))))))) :: []) :: []),
+    (Some ((WLit
+    ('f'::('i'::('l'::('e'::('l'::('i'::('s'::('t'::('.'::('t'::('x'::('t'::[]))))))))))))) :: [])))),
+    CNil)), BNil)))), CNil)), (CCons ((CIf ((BCons ((TEq (((WVar (false,
+    ('o'::('u'::('t'::('p'::('u'::('t'::('_'::('m'::('e'::('t'::('h'::('o'::('d'::[]))))))))))))))) :: []),
+    ((WLit ('c'::('p'::[]))) :: []))), (CCons ((CIf ((BCons ((TFileD ((WVar
+    (false,
+    ('o'::('u'::('t'::('p'::('u'::('t'::('_'::('d'::('i'::('r'::[])))))))))))) :: [])),
+    (CCons ((CAssign
+    (('d'::('e'::('s'::('t'::('i'::('n'::('a'::('t'::('i'::('o'::('n'::[]))))))))))),
+    ((WVar (false,
+    ('o'::('u'::('t'::('p'::('u'::('t'::('_'::('d'::('i'::('r'::[])))))))))))) :: ((WLit
+    ('/'::('A'::('N'::('A'::('L'::('Y'::('S'::('I'::('S'::('.'::('r'::('o'::('o'::('t'::[]))))))))))))))) :: [])))),
+    CNil)), BNil)), (CCons ((CAssign
+    (('d'::('e'::('s'::('t'::('i'::('n'::('a'::('t'::('i'::('o'::('n'::[]))))))))))),
+    ((WVar (false,
+    ('o'::('u'::('t'::('p'::('u'::('t'::('_'::('d'::('i'::('r'::[])))))))))))) :: []))),
+    CNil)))), (CCons ((CAssign (('c'::('m'::('d'::[]))), ((WLit
+    ('c'::('p'::[]))) :: []))), CNil)))), BNil)), (CCons ((CAssign
+    (('d'::('e'::('s'::('t'::('i'::('n'::('a'::('t'::('i'::('o'::('n'::[]))))))))))),
+    ((WVar (false, ('1'::[]))) :: []))), (CCons ((CAssign
+    (('c'::('m'::('d'::[]))), ((WLit ('c'::('p'::[]))) :: []))), (CCons ((CIf
+    ((BCons ((TPrefix (((WVar (false,
+    ('d'::('e'::('s'::('t'::('i'::('n'::('a'::('t'::('i'::('o'::('n'::[]))))))))))))) :: []),
+    ('r'::('o'::('o'::('t'::(':'::[]))))))), (CCons ((CAssign
+    (('c'::('m'::('d'::[]))), ((WLit
+    ('x'::('r'::('d'::('c'::('p'::[])))))) :: []))), CNil)), BNil)), CNil)),
+    CNil)))))))), (CCons ((CExport
+    (('C'::('M'::('S'::('_'::('O'::('U'::('T'::('P'::('U'::('T'::('_'::('F'::('I'::('L'::('E'::[]))))))))))))))),
+    ((WLit
+    ('A'::('N'::('A'::('L'::('Y'::('S'::('I'::('S'::('.'::('r'::('o'::('o'::('t'::[])))))))))))))) :: []))),
+    (CCons ((CRun (((WLit
+    ('c'::('m'::('s'::('R'::('u'::('n'::[]))))))) :: []) :: (((WLit
+    ('p'::('y'::('t'::('h'::('o'::('n'::('/'::('C'::('o'::('n'::('f'::('F'::('i'::('l'::('e'::('_'::('c'::('f'::('g'::('.'::('p'::('y'::[]))))))))))))))))))))))) :: []) :: []))),
+    (CCons ((CIf ((BCons ((TEq (((WVar (false,
+    ('c'::('m'::('d'::[]))))) :: []), ((WLit ('c'::('p'::[]))) :: []))),
+    (CCons ((CAssign (('c'::('v'::('t'::[]))), ((WLit
+    ('r'::('o'::('o'::('t'::(' '::('-'::('b'::(' '::('-'::('l'::(' '::('-'::('q'::(' '::('$'::('D'::('I'::('R'::('/'::('c'::('o'::('p'::('y'::('_'::('r'::('o'::('o'::('t'::('_'::('t'::('r'::('e'::('e'::('.'::('C'::('\\'::('('::('\\'::('"'::('.'::('/'::('$'::('C'::('M'::('S'::('_'::('O'::('U'::('T'::('P'::('U'::('T'::('_'::('F'::('I'::('L'::('E'::('\\'::('"'::(','::('\\'::('"'::('$'::('d'::('e'::('s'::('t'::('i'::('n'::('a'::('t'::('i'::('o'::('n'::('\\'::('"'::('\\'::(')'::[]))))))))))))))))))))))))))))))))))))))))))))))))))))))))))))))))))))))))))))))) :: []))),
+    (CCons ((CEval (('c'::('v'::('t'::[]))),
+    ('r'::('o'::('o'::('t'::(' '::('-'::('b'::(' '::('-'::('l'::(' '::('-'::('q'::(' '::('$'::('D'::('I'::('R'::('/'::('c'::('o'::('p'::('y'::('_'::('r'::('o'::('o'::('t'::('_'::('t'::('r'::('e'::('e'::('.'::('C'::('\\'::('('::('\\'::('"'::('.'::('/'::('$'::('C'::('M'::('S'::('_'::('O'::('U'::('T'::('P'::('U'::('T'::('_'::('F'::('I'::('L'::('E'::('\\'::('"'::(','::('\\'::('"'::('$'::('d'::('e'::('s'::('t'::('i'::('n'::('a'::('t'::('i'::('o'::('n'::('\\'::('"'::('\\'::(')'::[])))))))))))))))))))))))))))))))))))))))))))))))))))))))))))))))))))))))))))))),
+    (CRun (((WLit ('r'::('o'::('o'::('t'::[]))))) :: []) :: (((WLit
+    ('-'::('b'::[]))) :: []) :: (((WLit ('-'::('l'::[]))) :: []) :: (((WLit
+    ('-'::('q'::[]))) :: []) :: (((WVar (false,
+    ('D'::('I'::('R'::[]))))) :: ((WLit
+    ('/'::('c'::('o'::('p'::('y'::('_'::('r'::('o'::('o'::('t'::('_'::('t'::('r'::('e'::('e'::('.'::('C'::('('::('"'::('.'::('/'::[])))))))))))))))))))))) :: ((WVar
+    (false,
+    ('C'::('M'::('S'::('_'::('O'::('U'::('T'::('P'::('U'::('T'::('_'::('F'::('I'::('L'::('E'::[]))))))))))))))))) :: ((WLit
+    ('"'::(','::('"'::[])))) :: ((WVar (false,
+    ('d'::('e'::('s'::('t'::('i'::('n'::('a'::('t'::('i'::('o'::('n'::[]))))))))))))) :: ((WLit
+    ('"'::(')'::[]))) :: [])))))) :: [])))))))), CNil)))), BNil)), (CCons
+    ((CAssign (('c'::('v'::('t'::[]))), ((WLit
+    ('r'::('o'::('o'::('t'::(' '::('-'::('b'::(' '::('-'::('l'::(' '::('-'::('q'::(' '::('$'::('D'::('I'::('R'::('/'::('c'::('o'::('p'::('y'::('_'::('r'::('o'::('o'::('t'::('_'::('t'::('r'::('e'::('e'::('.'::('C'::('\\'::('('::('\\'::('"'::('.'::('/'::('$'::('C'::('M'::('S'::('_'::('O'::('U'::('T'::('P'::('U'::('T'::('_'::('F'::('I'::('L'::('E'::('\\'::('"'::(','::('\\'::('"'::('t'::('e'::('m'::('p'::('-'::('o'::('u'::('t'::('p'::('u'::('t'::('.'::('r'::('o'::('o'::('t'::('\\'::('"'::('\\'::(')'::[]))))))))))))))))))))))))))))))))))))))))))))))))))))))))))))))))))))))))))))))))))) :: []))),
+    (CCons ((CEval (('c'::('v'::('t'::[]))),
+    ('r'::('o'::('o'::('t'::(' '::('-'::('b'::(' '::('-'::('l'::(' '::('-'::('q'::(' '::('$'::('D'::('I'::('R'::('/'::('c'::('o'::('p'::('y'::('_'::('r'::('o'::('o'::('t'::('_'::('t'::('r'::('e'::('e'::('.'::('C'::('\\'::('('::('\\'::('"'::('.'::('/'::('$'::('C'::('M'::('S'::('_'::('O'::('U'::('T'::('P'::('U'::('T'::('_'::('F'::('I'::('L'::('E'::('\\'::('"'::(','::('\\'::('"'::('t'::('e'::('m'::('p'::('-'::('o'::('u'::('t'::('p'::('u'::('t'::('.'::('r'::('o'::('o'::('t'::('\\'::('"'::('\\'::(')'::[])))))))))))))))))))))))))))))))))))))))))))))))))))))))))))))))))))))))))))))))))),
+    (CRun (((WLit ('r'::('o'::('o'::('t'::[]))))) :: []) :: (((WLit
+    ('-'::('b'::[]))) :: []) :: (((WLit ('-'::('l'::[]))) :: []) :: (((WLit
+    ('-'::('q'::[]))) :: []) :: (((WVar (false,
+    ('D'::('I'::('R'::[]))))) :: ((WLit
+    ('/'::('c'::('o'::('p'::('y'::('_'::('r'::('o'::('o'::('t'::('_'::('t'::('r'::('e'::('e'::('.'::('C'::('('::('"'::('.'::('/'::[])))))))))))))))))))))) :: ((WVar
+    (false,
+    ('C'::('M'::('S'::('_'::('O'::('U'::('T'::('P'::('U'::('T'::('_'::('F'::('I'::('L'::('E'::[]))))))))))))))))) :: ((WLit
+    ('"'::(','::('"'::('t'::('e'::('m'::('p'::('-'::('o'::('u'::('t'::('p'::('u'::('t'::('.'::('r'::('o'::('o'::('t'::('"'::(')'::[])))))))))))))))))))))) :: [])))) :: [])))))))),
+    (CCons ((CRun (((WVar (false, ('c'::('m'::('d'::[]))))) :: []) :: (((WLit
+    ('.'::('/'::('t'::('e'::('m'::('p'::('-'::('o'::('u'::('t'::('p'::('u'::('t'::('.'::('r'::('o'::('o'::('t'::[]))))))))))))))))))) :: []) :: (((WVar
+    (false,
+    ('d'::('e'::('s'::('t'::('i'::('n'::('a'::('t'::('i'::('o'::('n'::[]))))))))))))) :: []) :: [])))),
+    CNil)))))))), CNil)))))))))), BNil)), CNil)),
+    CNil)))))))))))))))))))))))))))))))
+
 (** val dispatch : char list -> sexp -> sexp **)
 
-let dispatch cmd arg =
-  if eqb0 cmd ('c'::('1'::('5'::('.'::('g'::('e'::('n'::[])))))))
+let dispatch cmd0 arg =
+  if eqb0 cmd0 ('c'::('1'::('5'::('.'::('g'::('e'::('n'::[])))))))
   then run_gen arg
-  else if eqb0 cmd
+  else if eqb0 cmd0
             ('c'::('1'::('2'::('.'::('a'::('u'::('d'::('i'::('t'::[])))))))))
        then audit math_env documented
-       else s_tag
-              ('u'::('n'::('k'::('n'::('o'::('w'::('n'::('-'::('c'::('o'::('m'::('m'::('a'::('n'::('d'::[])))))))))))))))
-              ((SAtom cmd) :: [])
+       else if eqb0 cmd0
+                 ('c'::('1'::('6'::('.'::('a'::('t'::('l'::('a'::('s'::('_'::('r'::('2'::('1'::[])))))))))))))
+            then run_wire script pkg_atlas arg
+            else if eqb0 cmd0
+                      ('c'::('1'::('6'::('.'::('c'::('m'::('s'::('_'::('r'::('5'::[]))))))))))
+                 then run_wire script0 pkg_cms arg
+                 else if eqb0 cmd0
+                           ('c'::('1'::('6'::('.'::('c'::('m'::('s'::('_'::('r'::('7'::[]))))))))))
+                      then run_wire script1 pkg_cms arg
+                      else if eqb0 cmd0
+                                ('c'::('1'::('6'::('.'::('g'::('e'::('t'::('o'::('p'::('t'::('s'::[])))))))))))
+                           then run_getopts arg
+                           else s_tag
+                                  ('u'::('n'::('k'::('n'::('o'::('w'::('n'::('-'::('c'::('o'::('m'::('m'::('a'::('n'::('d'::[])))))))))))))))
+                                  ((SAtom cmd0) :: [])
